@@ -1,12 +1,54 @@
-"""F-NAME: every string-relational operation on a module-name-typed value must respect dotted-component boundaries.
+r"""F-NAME: every string-relational operation on a module-name-typed value must respect dotted-component boundaries.
 
 Module-name-typed values are found by provenance (tag NAME of the flow engine), not by variable names:
-  `.identifier` / `.parent_module` / `.name` of module filters and modules, results of Import.importer()/importee()/..._parent_modules(),
-  get_parent_modules(..), Parser._get_module_name(..), nodes of the graph (`.nodes`, `arch.modules`), parameters annotated
-  Node / AbstractNode / ModuleName, names read from import statements (`alias.name`, `<ImportFrom>.module`), keys of the plot
-  `aliases` mapping - and everything these flow into (assignments, containers, calls, fields).
-Operations: startswith / endswith / removeprefix / removesuffix / find / index / rfind / count / replace / partition, `a in b` on strings,
-re.* with a pattern built from a value, slicing by len(other).
+  `.identifier` / `.parent_module` of module filters and modules (public API), results of Import.importer()/importee()/
+  ..._parent_modules(), get_parent_modules(..), get_node(..), nodes of the graph (`.nodes`, `arch.modules`), parameters annotated
+  Node / AbstractNode / ModuleName, names read from import statements (`alias.name`, `<ImportFrom>.module`), a path turned into
+  dot notation (`str(path).replace(os.sep, ".")`), the public `aliases` option of draw() - and everything these flow into
+  (assignments, containers, calls, fields, closures).
+
+Operations (one `Site` each, `Site.group` says which kind of obligation it is):
+  group "relation"   startswith / endswith / removeprefix / removesuffix / find / index / count / replace / partition / split with a
+                     non-constant needle, strip-family with a name as character set, `a in b` on strings, re.* / fnmatch with a
+                     pattern built from a value, os.path.commonprefix, zip over the characters of two names, case folding before a
+                     comparison, slicing by len(other), a slice compared with the other string (`x[:len(p)] == p`), slicing by an
+                     index (`x[:x.rfind('.')]`, `x[:i]`), bound / unbound str methods handed to map / filter
+  group "separator"  the constant a name is split / partitioned / searched at, the separator its components are joined with, the
+                     constants the characters of a name are compared with, prefixes accumulated character by character,
+                     constants replaced by the separator
+  group "extent"     component-wise comparison through zip (stops at the shorter list: an ancestor of the prefix compares equal);
+                     respects boundaries, so it is not a C14 matter - C10.R2 consumes it
+
+Verdicts: safe | unsafe | unknown (cannot be classified: the check gives no verdict) | not-name (lexical test with a constant /
+not a name) | reviewed (user-supplied regex, recognised by role) | unclassified (provenance and static type unknown: not armed).
+
+Accepted (safe) idioms, in all their spellings - locals, helpers (private predicates are inlined), callers, loops, comprehensions:
+  * the prefix provably ends with the separator: `p + "."`, f"{p}.", "{}.".format(p), "%s." % p, ".".join([p, ""]),
+    `p if p.endswith(".") else p + "."`, `if not p.endswith("."): p += "."`, constants given by name (module / class level,
+    parameter defaults), prefixes precomputed in tuples, lists, dicts (values, `.items()`), fields, properties, generators,
+    handed through parameters (every call site), closures, partial / map / lru_cache'd helpers;
+  * a raw prefix test whose next character is tested (`x[len(p)] == "."`, `x[len(p):][:1] in ("", ".")`), also as a predicate
+    function, or whose remainder (`x[len(p):]`, `x.removeprefix(p)`) is only tested to be empty / to start with '.';
+  * `x[len(p):]` / `x.removeprefix(p)` where `x == p or x.startswith(p + ".")` holds on every path to the cut - in the function,
+    in every caller of a small helper, by selecting p from a filtered collection (next / comprehension / filter / max), or
+    because p was returned by a helper that selects it that way, or p is x or one of get_parent_modules(x);
+  * `x[:len(p) + 1] == p + "."`, `x[:len(q)] == q` with q ending in '.', suffixes starting with '.';
+  * cuts at an index that is the position of a separator: find / rfind('.') guarded by `!= -1` / `>= 0` / `"." in x` (if, while,
+    conditional expression, walrus), `+ 1` past it, index / rindex, enumerate / range(len) positions tested to hold '.',
+    positions collected by such a test, regex matches of r"\.";
+  * split / rsplit / partition / rpartition / count / find at '.', join of components with '.' (or of '.'-decorated components
+    with ''), characters compared with '.' only, '.' replaced (name -> path), components joined with '/';
+  * regexes built from an escaped name that continue with a boundary (`(\.|$)`, `\.`, `\b`) or are matched with fullmatch;
+    user-supplied regexes (identifier of filters of static type ModuleNameRegexFilter or selected by `identifier_is_regex`);
+  * both operands of `in` enclosed in separators; glob patterns that continue with ".".
+Everything else on a name is `unsafe` when the needle is provably a plain name, `unknown` when that cannot be established.
+
+The classification of a needle uses two provers:
+  * `dot_status` (must): follows the value to the expressions it originates from (class `Origins`: locals, loop and comprehension
+    targets with their scopes, tuple positions, containers and their mutators, dict values, fields, properties, constructor
+    arguments of dataclasses, parameters at every call site incl. defaults / partial / map, return and yield values) and decides
+    whether every origin ends with the separator ('dot') or every origin is a plain name ('bare');
+  * the flow tag DOT (may): a value that carries names and into which no string ending in '.' was ever concatenated is a plain name.
 """
 
 from __future__ import annotations
@@ -15,27 +57,25 @@ import ast
 from dataclasses import dataclass
 
 from core.flow import Flow, Spec
-from core.guards import atom, conds_formula
+from core.fold import fold
 from core.loader import AnalysisError, FuncInfo, Repo, ancestors, calls_in, norm, own_nodes, parent
-from core.types import STR, Types, members
+from core.types import STR, Types, elem_type, members
 
-from .common import conds, dotted, stmt_of, types_of
+from .common import _cache, conds, dotted, stmt_of, types_of
 
 NAME_ANNOTATIONS = {"Node", "AbstractNode", "ModuleName"}
 FILTER_CLASSES = ("ModuleFilter", "ModuleNameFilter", "ParentModuleNameFilter", "Module", "ModuleGroup")
 REGEX_FILTER = "ModuleNameRegexFilter"
 NAME_METHODS = {"importer", "importee", "importer_parent_modules", "importee_parent_modules"}
 NAME_FUNCS = {"get_parent_modules", "_get_module_name", "get_node"}
-STR_REL_METHODS = {"startswith", "endswith", "removeprefix", "removesuffix", "find", "index", "rfind", "rindex", "count", "replace", "partition", "rpartition"}
+STR_REL_METHODS = {"startswith", "endswith", "removeprefix", "removesuffix", "find", "index", "rfind", "rindex", "count", "replace", "partition", "rpartition", "lstrip", "rstrip", "strip"}
+SEARCH_METHODS = {"find", "rfind", "index", "rindex"}
+WRAPPERS = {"sorted", "list", "set", "reversed", "tuple", "frozenset", "iter"}
 
-# user-supplied patterns matched against names *by design* (regexes in rules, exclusion patterns): reviewed, one reason per entry
-REVIEWED_PATTERN_SITES = {
-    ("pytestarch.eval_structure.module_name_converter", "ModuleNameConverter._name_matches_pattern"): "have_name_matching(regex): the user's regex is matched against module names by design (C11.R2 fixes the matching function)",
-    ("pytestarch.eval_structure_generation.file_import.file_filter", "FileFilter._"): "exclusion patterns are user-supplied regexes matched against paths / external module names by design (C08.R2)",
-    ("pytestarch.eval_structure_generation.file_import.file_filter", "FileFilter._#1"): "see above (singledispatch registration)",
-    ("pytestarch.eval_structure_generation.file_import.file_filter", "FileFilter._#2"): "see above (singledispatch registration)",
-    ("pytestarch.eval_structure_generation.file_import.file_filter", "FileFilter.__init__"): "compiles the user's exclusion patterns",
-}
+# user-supplied patterns matched against names *by design* (regexes in rules) are recognised by role: the pattern is, unmodified,
+# the identifier of filters whose static type is ModuleNameRegexFilter or that were selected by the public flag
+# `identifier_is_regex` (see _user_regex). No site is exempted by name any more; the table stays for additions.
+REVIEWED_PATTERN_SITES: dict[tuple[str, str], str] = {}
 
 
 @dataclass
@@ -46,25 +86,178 @@ class Site:
     haystack: ast.expr | None
     needle: ast.expr | None
     name_typed: bool
-    verdict: str  # safe | unsafe | not-name | reviewed | unclassified
+    verdict: str  # safe | unsafe | unknown | not-name | reviewed | unclassified
     why: str
+    group: str = "relation"  # relation | separator | extent
+
+
+# --------------------------------------------------------------------------- small helpers
+
+
+def _const_str(e: ast.AST | None) -> str | None:
+    return e.value if isinstance(e, ast.Constant) and isinstance(e.value, str) else None
+
+
+def _call_name(c: ast.AST) -> str:
+    if not isinstance(c, ast.Call):
+        return ""
+    return c.func.id if isinstance(c.func, ast.Name) else (c.func.attr if isinstance(c.func, ast.Attribute) else "")
+
+
+def _module_constant(repo: Repo, f: FuncInfo, name: str) -> ast.expr | None:
+    """Value of a module-level constant visible under `name` in the module of `f` (own or imported)."""
+    mod = f.module
+    if name in mod.constants:
+        return mod.constants[name]
+    fq = mod.imports.get(name)
+    if fq:
+        m2, _, attr = fq.rpartition(".")
+        om = repo.modules.get(m2)
+        if om is not None and attr in om.constants:
+            return om.constants[attr]
+    return None
+
+
+def _attr_constant(repo: Repo, T: Types, f: FuncInfo, e: ast.Attribute) -> str | None:
+    """String value of `self.X` / `cls.X` / `Class.X` (class-level constant) or `module.X` (module-level constant)."""
+    key = ("attr_const", id(repo), f.module.name, f.cls.fq if f.cls else "", norm(e))
+    if key in _cache:
+        return _cache[key]
+    out = None
+    classes = []
+    if isinstance(e.value, ast.Name) and e.value.id in ("self", "cls") and f.cls is not None:
+        classes = repo.mro(f.cls)
+    elif isinstance(e.value, (ast.Name, ast.Attribute)):
+        fq = repo.resolve_name(f.module, e)
+        if fq:
+            m2, _, attr = fq.rpartition(".")
+            om = repo.modules.get(m2)
+            if om is not None and attr in om.constants:
+                out = _const_str(om.constants[attr])
+            ci = repo.classes.get(m2)
+            if ci is not None:
+                classes = repo.mro(ci)
+    for ci in classes:
+        if e.attr in ci.class_attrs:
+            out = _const_str(ci.class_attrs[e.attr])
+            break
+    _cache[key] = out
+    return out
+
+
+def _char_value(repo: Repo, f: FuncInfo, e: ast.expr, depth: int = 0) -> str | None:
+    """The string an expression denotes if it is a constant or a `chr(<int constant | sys.maxunicode>)`, also behind a module constant."""
+    if depth > 3:
+        return None
+    c = _const_str(e)
+    if c is not None:
+        return c
+    if isinstance(e, ast.Call) and isinstance(e.func, ast.Name) and e.func.id == "chr" and len(e.args) == 1:
+        a = e.args[0]
+        if isinstance(a, ast.Constant) and isinstance(a.value, int):
+            try:
+                return chr(a.value)
+            except (ValueError, OverflowError):
+                return None
+        if norm(a) in ("sys.maxunicode", "maxunicode"):
+            return chr(0x10FFFF)
+        return None
+    if isinstance(e, ast.Name) and not _is_local(f, e.id):
+        k = _module_constant(repo, f, e.id)
+        if k is not None:
+            return _char_value(repo, f, k, depth + 1)
+    if isinstance(e, (ast.Name, ast.Attribute, ast.JoinedStr, ast.BinOp)):
+        try:
+            return fold(repo, f.module, e, f)
+        except Exception:  # noqa: BLE001
+            return None
+    return None
+
+
+def _declared_node_name(f: FuncInfo, param: str) -> bool:
+    """The parameter is annotated with one of the node-name types of the graph interface (Node, AbstractNode, ModuleName)."""
+    ann = next((p.annotation for p in f.params if p.arg == param), None)
+    if ann is None:
+        return False
+    if isinstance(ann, ast.Constant) and isinstance(ann.value, str):
+        return ann.value.strip() in NAME_ANNOTATIONS
+    return isinstance(ann, (ast.Name, ast.Attribute)) and (ann.id if isinstance(ann, ast.Name) else ann.attr) in NAME_ANNOTATIONS
+
+
+def _is_local(f: FuncInfo, name: str) -> bool:
+    key = ("stored_names", id(f.node))
+    if key not in _cache:
+        _cache[key] = set(f.param_names) | {n.id for n in own_nodes(f.node) if isinstance(n, ast.Name) and isinstance(n.ctx, ast.Store)}
+    return name in _cache[key]
+
+
+def _lambda_iterable(f: FuncInfo) -> ast.expr | None:
+    """The iterable whose elements are bound to the (single) parameter of the lambda `f`: map(lambda, X), sorted(X, key=lambda), ..."""
+    lam = f.node
+    if not isinstance(lam, ast.Lambda) or f.outer is None:
+        return None
+    p = parent(lam)
+    call = parent(p) if isinstance(p, ast.keyword) else p
+    if not isinstance(call, ast.Call):
+        return None
+    nm = _call_name(call)
+    if nm in ("map", "filter") and len(call.args) >= 2 and call.args[0] is lam:
+        return call.args[1]
+    if nm in ("sorted", "min", "max") and call.args and any(k.value is lam for k in call.keywords):
+        return call.args[0]
+    if nm == "sort" and isinstance(call.func, ast.Attribute) and any(k.value is lam for k in call.keywords):
+        return call.func.value
+    if nm in ("takewhile", "dropwhile", "groupby") and len(call.args) >= 2:
+        return call.args[1] if call.args[0] is lam else call.args[0]
+    return None
+
+
+def _clone(e, env: dict[str, ast.expr] | None = None):
+    """Copy of an expression by its fields only (no parent pointers / analysis attributes), loads of names in `env` replaced."""
+    if isinstance(e, list):
+        return [_clone(x, env) for x in e]
+    if not isinstance(e, ast.AST):
+        return e
+    if env and isinstance(e, ast.Name) and isinstance(e.ctx, ast.Load) and e.id in env:
+        return _clone(env[e.id])
+    new = type(e)()
+    for fld in e._fields:
+        if hasattr(e, fld):
+            setattr(new, fld, _clone(getattr(e, fld), env))
+    return new
+
+
+def _substitute(e: ast.expr, env: dict[str, ast.expr]) -> ast.expr:
+    return _clone(e, env)
+
+
+# --------------------------------------------------------------------------- provenance (flow engine)
 
 
 def name_flow(repo: Repo) -> Flow:
+    key = ("name_flow", id(repo))
+    if key in _cache:
+        return _cache[key]
     T = types_of(repo)
 
-    def is_filter_type(f: FuncInfo, e: ast.expr) -> str:
+    def recv_type(f: FuncInfo, e: ast.expr):
         t = T.expr(f, e)
+        if all(m == ("unknown",) for m in members(t)) and isinstance(e, ast.Name) and isinstance(f.node, ast.Lambda) and e.id in f.param_names:
+            it = _lambda_iterable(f)
+            if it is not None:
+                t = elem_type(T.expr(f.outer, it))
+        return t
+
+    def is_filter_type(f: FuncInfo, e: ast.expr) -> str:
+        t = recv_type(f, e)
         kinds = set()
         for m in members(t):
             if m[0] == "cls":
                 n = m[1].rsplit(".", 1)[-1]
                 if n == REGEX_FILTER:
                     kinds.add("regex")
-                elif n in FILTER_CLASSES or n == "Module":
+                elif n in FILTER_CLASSES:
                     kinds.add("name")
-                elif n == "Module" and "diagram" in m[1]:
-                    kinds.add("other")
                 else:
                     kinds.add("other")
             elif m[0] == "unknown":
@@ -76,23 +269,53 @@ def name_flow(repo: Repo) -> Flow:
         return "other"
 
     def sources(f: FuncInfo, e: ast.expr):
+        out: set[str] = set()
         if isinstance(e, ast.Attribute) and isinstance(e.ctx, ast.Load):
             if e.attr in ("identifier", "parent_module"):
                 k = is_filter_type(f, e.value)
-                return {"NAME"} if k == "name" else ({"REGEX"} if k == "regex" else None)
-            if e.attr in ("nodes", "modules") and not (isinstance(parent(e), ast.Call) and parent(e).func is e):
-                return {"NAME"}
-            if e.attr == "name" and f.module.name.endswith("file_import.converter") and isinstance(e.value, ast.Name):
-                return {"NAME"}
-            if e.attr == "module" and f.module.name.endswith("file_import.converter") and isinstance(e.value, ast.Name) and e.value.id == "module":
-                return {"NAME"}
-        if isinstance(e, ast.Call):
+                if k == "name":
+                    out.add("NAME")
+                elif k == "regex":
+                    out.add("REGEX")
+            elif e.attr in ("nodes", "modules") and not (isinstance(parent(e), ast.Call) and parent(e).func is e):
+                out.add("NAME")
+            elif e.attr == "name" and f.module.name.endswith("file_import.converter") and isinstance(e.value, ast.Name):
+                out.add("NAME")
+            elif e.attr == "module" and f.module.name.endswith("file_import.converter") and isinstance(e.value, ast.Name) and e.value.id == "module":
+                out.add("NAME")
+            else:
+                c = _attr_constant(repo, T, f, e)
+                if c is not None and c.endswith("."):
+                    out.add("DOT")
+        elif isinstance(e, ast.Call):
             fn = e.func
             if isinstance(fn, ast.Attribute) and fn.attr in NAME_METHODS and not e.args:
-                return {"NAME"}
-            if (isinstance(fn, ast.Name) and fn.id in NAME_FUNCS) or (isinstance(fn, ast.Attribute) and fn.attr in NAME_FUNCS):
-                return {"NAME"}
-        return None
+                out.add("NAME")
+            elif (isinstance(fn, ast.Name) and fn.id in NAME_FUNCS) or (isinstance(fn, ast.Attribute) and fn.attr in NAME_FUNCS):
+                out.add("NAME")
+            elif isinstance(fn, ast.Attribute) and fn.attr == "replace" and len(e.args) == 2 and _const_str(e.args[1]) == "." and ((repo.resolve_name(f.module, e.args[0]) or "") in ("os.sep", "os.path.sep") if isinstance(e.args[0], (ast.Name, ast.Attribute)) else _const_str(e.args[0]) in ("/", "\\")):
+                out.add("NAME")  # a path written in dot notation: a module name by construction
+            elif isinstance(fn, ast.Attribute) and fn.attr in ("pop", "get") and e.args and _const_str(e.args[0]) == "aliases":
+                out.add("NAME")  # the public `aliases` option of draw(): a mapping keyed by module names
+        elif isinstance(e, ast.Subscript) and isinstance(e.ctx, ast.Load) and _const_str(e.slice) == "aliases":
+            out.add("NAME")
+        elif isinstance(e, ast.Constant):
+            if isinstance(e.value, str) and e.value.endswith("."):
+                out.add("DOT")
+        elif isinstance(e, ast.JoinedStr):
+            if e.values and isinstance(e.values[-1], ast.Constant) and str(e.values[-1].value).endswith("."):
+                out.add("DOT")
+        elif isinstance(e, ast.Name) and isinstance(e.ctx, ast.Load):
+            c = None
+            if not isinstance(f.node, ast.Lambda) and e.id in f.param_names:
+                p = next(p for p in f.params if p.arg == e.id)
+                c = T._default_of(f, p)
+            elif not _is_local(f, e.id) and (f.outer is None or not _is_local(f.outer, e.id)):
+                c = _module_constant(repo, f, e.id)
+            s = _const_str(c)
+            if s is not None and s.endswith("."):
+                out.add("DOT")
+        return out or None
 
     seeds: dict[tuple[str, str], set[str]] = {}
     for f in repo.all_functions():
@@ -108,34 +331,43 @@ def name_flow(repo: Repo) -> Flow:
 
     def transfer(f: FuncInfo, call: ast.Call, names, args, recv, kwargs):
         fn = call.func
-        if isinstance(fn, ast.Name) and fn.id in ("len", "isinstance", "hasattr", "bool", "sorted") and fn.id != "sorted":
+        if isinstance(fn, ast.Name) and fn.id in ("len", "isinstance", "hasattr", "bool", "range", "int"):
             return set()
-        if (repo.resolve_name(f.module, fn) or "") == "re.escape" if isinstance(fn, (ast.Name, ast.Attribute)) else False:
+        if isinstance(fn, (ast.Name, ast.Attribute)) and (repo.resolve_name(f.module, fn) or "") == "re.escape":
             out = set()
             for a in args:
                 out |= set(a)
-            return {("ESC:" + t) if not t.startswith("ESC:") else t for t in out}
+            return {("ESC:" + t) if not t.startswith("ESC:") else t for t in out if t != "DOT"}
+        if isinstance(fn, ast.Attribute) and not names:
+            a = fn.attr
+            dot_arg = bool(call.args) and _const_str(call.args[0]) is not None and "." in _const_str(call.args[0])
+            if a in ("split", "rsplit"):
+                out = set(recv) - {"DOT"}
+                if dot_arg and len(call.args) == 1 and not call.keywords:
+                    out |= {"PARTS"}
+                return out
+            if a in ("partition", "rpartition"):
+                return set(recv) - {"DOT"}
+            if a == "join":
+                out = set()
+                for x in args:
+                    out |= set(x)
+                return out - {"PARTS", "COMP"}
+            if a in ("rstrip", "strip", "removesuffix") and dot_arg:
+                return set(recv) - {"DOT"}
+            if a in ("rstrip", "strip", "lstrip", "lower", "upper", "casefold", "removeprefix", "removesuffix", "replace", "title", "capitalize"):
+                return set(recv)
+            if a in ("startswith", "endswith", "count", "find", "rfind", "index", "rindex", "isidentifier", "isalnum", "isalpha", "isdigit", "islower", "isupper"):
+                return set()
         return None
 
-    return Flow(repo, T, Spec(sources=sources, transfer=transfer, param_seeds=seeds, objects_carry=False))
-
-
-def _ends_with_dot_old(repo: Repo, f: FuncInfo, e: ast.expr, depth: int = 0) -> bool:
-    """(superseded by dot_status)"""
-    if depth > 4:
-        return False
-    if isinstance(e, ast.Constant):
-        return isinstance(e.value, str) and e.value.endswith(".")
-    if isinstance(e, ast.JoinedStr):
-        return bool(e.values) and isinstance(e.values[-1], ast.Constant) and str(e.values[-1].value).endswith(".")
-    if isinstance(e, ast.BinOp) and isinstance(e.op, ast.Add):
-        return _ends_with_dot_old(repo, f, e.right, depth + 1)
-    if isinstance(e, ast.Name) and not isinstance(f.node, ast.Lambda):
-        assigns = [n for n in own_nodes(f.node) if isinstance(n, ast.Assign) and any(isinstance(t, ast.Name) and t.id == e.id for t in n.targets)]
-        aug = [n for n in own_nodes(f.node) if isinstance(n, ast.AugAssign) and isinstance(n.target, ast.Name) and n.target.id == e.id]
-        if len(assigns) == 1 and not aug and e.id not in f.param_names:
-            return _ends_with_dot_old(repo, f, assigns[0].value, depth + 1)
-    return False
+    fl = Flow(
+        repo,
+        T,
+        Spec(sources=sources, transfer=transfer, param_seeds=seeds, objects_carry=False, iter_map={"PARTS": "COMP"}, collect_map={"COMP": "PARTS"}),
+    )
+    _cache[key] = fl
+    return fl
 
 
 def _is_str(T: Types, f: FuncInfo, e: ast.expr) -> bool | None:
@@ -153,36 +385,37 @@ def _is_str(T: Types, f: FuncInfo, e: ast.expr) -> bool | None:
                     sides = [n.left, n.comparators[0]]
                     if any(isinstance(x, ast.Name) and x.id == e.id for x in sides) and any(isinstance(x, ast.Attribute) and x.attr in ("identifier", "name") for x in sides):
                         return True
+                if isinstance(n, ast.Call) and isinstance(n.func, ast.Attribute) and n.func.attr in ("startswith", "endswith", "split", "rsplit", "rfind", "rpartition", "partition") and isinstance(n.func.value, ast.Name) and n.func.value.id == e.id:
+                    return True
         return None
     return False
 
 
 def _boundary_companion(f: FuncInfo, call: ast.AST, hay: ast.expr, needle: ast.expr) -> bool:
-    """An adjacent conjunct/disjunct checks the character after the prefix: x[len(p)] == "." / x[len(p):len(p)+1] in ("", ".")."""
+    """An adjacent conjunct checks the character after the prefix: x[len(p)] == "." / x[len(p):len(p)+1] in ("", ".")."""
     p = parent(call)
     while isinstance(p, ast.UnaryOp):
         p = parent(p)
-    if not isinstance(p, ast.BoolOp):
+    if not (isinstance(p, ast.BoolOp) and isinstance(p.op, ast.And)):
         return False
     h, n = norm(hay), norm(needle)
     for v in p.values:
         for c in ast.walk(v):
-            if isinstance(c, ast.Compare) and isinstance(c.left, ast.Subscript) and norm(c.left.value) == h and f"len({n})" in norm(c.left.slice):
-                if any(isinstance(x, ast.Constant) and x.value == "." for x in ast.walk(c)):
+            if isinstance(c, ast.Compare) and len(c.ops) == 1 and isinstance(c.left, ast.Subscript) and norm(c.left.value) == h and f"len({n})" in norm(c.left.slice):
+                r = c.comparators[0]
+                if isinstance(c.ops[0], ast.Eq) and _const_str(r) == "." and not isinstance(c.left.slice, ast.Slice):
+                    return True  # x[len(p)] == "."  (raises / is false when nothing follows: combined with `x == p or ...` by the author)
+                if isinstance(c.ops[0], ast.In) and isinstance(r, (ast.Tuple, ast.List, ast.Set)) and sorted(str(_const_str(x)) for x in r.elts) == ["", "."]:
                     return True
     return False
 
 
+# --------------------------------------------------------------------------- call sites
 
-# --------------------------------------------------------------------------- provers used by the classification
 
-
-def _callers_args(repo: Repo, f: FuncInfo, param: str) -> list[tuple[FuncInfo, ast.expr]] | None:
-    """Argument expressions bound to `param` at every resolved call site of `f` (None if a site cannot be matched)."""
+def _call_index(repo: Repo) -> dict[str, list[tuple[FuncInfo, ast.Call]]]:
     T = types_of(repo)
     key = ("callsites", id(repo))
-    from .common import _cache
-
     if key not in _cache:
         idx: dict[str, list[tuple[FuncInfo, ast.Call]]] = {}
         for g in repo.all_functions():
@@ -193,38 +426,727 @@ def _callers_args(repo: Repo, f: FuncInfo, param: str) -> list[tuple[FuncInfo, a
                     cs = []
                 for callee in cs:
                     idx.setdefault(callee.fq, []).append((g, c))
+                # functools.partial(f, ...) / map(f, xs): the function object is handed on, the call happens elsewhere
+            for n in own_nodes(g.node):
+                if isinstance(n, ast.Call) and _call_name(n) in ("partial", "map", "filter"):
+                    for a in n.args[:1]:
+                        t = T.expr(g, a)
+                        for m in members(t):
+                            if m[0] == "fn":
+                                idx.setdefault(m[1].fq, []).append((g, n))
         _cache[key] = idx
-    sites = _cache[key].get(f.fq, [])
-    if not sites:
-        return None
-    names_ = f.param_names
-    pos = list(names_)
+    return _cache[key]
+
+
+def _positional(f: FuncInfo) -> list[str]:
+    pos = list(f.param_names)
     if f.cls is not None and f.outer is None and not f.is_staticmethod and pos:
         pos = pos[1:]
+    return pos
+
+
+def _callers_args(repo: Repo, f: FuncInfo, param: str) -> list[tuple[FuncInfo, ast.expr]] | None:
+    """Argument expressions bound to `param` at every resolved call site of `f` (None if there is none or a site cannot be matched).
+
+    A `map(f, xs)` site yields the pseudo expression `next(iter(xs))`-like marker: (g, ast.Starred(xs)) meaning "an element of xs"."""
+    sites = _call_index(repo).get(f.fq, [])
+    if not sites:
+        return None
+    pos = _positional(f)
     out = []
     for g, c in sites:
         expr = None
-        for k in c.keywords:
-            if k.arg == param:
-                expr = k.value
-        if expr is None and param in pos:
-            i = pos.index(param)
-            if i < len(c.args) and not any(isinstance(a, ast.Starred) for a in c.args[: i + 1]):
-                expr = c.args[i]
+        nm = _call_name(c)
+        direct = True
+        if nm in ("map", "filter") and c.args and not (isinstance(c.func, ast.Attribute) and c.func.attr not in ("map", "filter")):
+            t = types_of(repo).expr(g, c.args[0])
+            if any(m[0] == "fn" and m[1].fq == f.fq for m in members(t)):
+                direct = False
+                i = pos.index(param) if param in pos else -1
+                if 0 <= i < len(c.args) - 1:
+                    expr = ast.Starred(value=c.args[1 + i], ctx=ast.Load())
+        elif nm == "partial" and c.args:
+            t = types_of(repo).expr(g, c.args[0])
+            if any(m[0] == "fn" and m[1].fq == f.fq for m in members(t)):
+                direct = False
+                for k in c.keywords:
+                    if k.arg == param:
+                        expr = k.value
+                if expr is None:
+                    i = pos.index(param) if param in pos else -1
+                    if 0 <= i < len(c.args) - 1:
+                        expr = c.args[1 + i]
+                if expr is None:
+                    continue  # bound later, at the call of the partial object: not visible here
+        if direct:
+            for k in c.keywords:
+                if k.arg == param:
+                    expr = k.value
+            if expr is None and param in pos:
+                i = pos.index(param)
+                if i < len(c.args) and not any(isinstance(a, ast.Starred) for a in c.args[: i + 1]):
+                    expr = c.args[i]
+        if expr is None and direct:
+            prm = next((p_ for p_ in f.params if p_.arg == param), None)
+            default = Types._default_of(f, prm) if prm is not None and not isinstance(f.node, ast.Lambda) else None
+            if default is not None:
+                out.append((f, default))
+                continue
         if expr is None:
             return None
         out.append((g, expr))
-    return out
+    return out or None
 
 
-def dot_status(repo: Repo, f: FuncInfo, e: ast.expr, depth: int = 0) -> str:
-    """'dot'  - the string provably ends with '.',
-    'bare' - it provably is a plain module name (no separator appended),
-    'unknown' otherwise."""
-    if depth > 5:
+# --------------------------------------------------------------------------- origins of a value (must analysis)
+
+Leaf = tuple  # (FuncInfo, ast.expr, "value" | "elem")
+
+
+class Origins:
+    """Expressions a value originates from. A leaf is (function, expression, kind): kind 'value' = the value of the expression,
+    'elem' = an element of the collection denoted by the expression (which could not be opened further)."""
+
+    MAX = 10
+
+    def __init__(self, repo: Repo) -> None:
+        self.repo = repo
+        self.T = types_of(repo)
+
+    # -- bindings of a local name: list of ("value", expr) | ("elem", iterable, pos) | ("opaque", node)
+    def _bindings(self, f: FuncInfo, name: str, use: ast.AST | None = None) -> list[tuple]:
+        """Bindings of `name` visible at `use`: a comprehension variable is local to its comprehension (and shadows a function
+        level variable of the same name there); without `use` every binding in the function is returned."""
+        out: list[tuple] = []
+        if isinstance(f.node, ast.Lambda):
+            return out
+        scope: ast.AST | None = None  # the comprehension whose variable `name` is at `use`
+        have_use = False
+        if use is not None:
+            try:
+                for a in ancestors(use):
+                    have_use = True
+                    if a is f.node:
+                        break
+                    if isinstance(a, (ast.ListComp, ast.SetComp, ast.GeneratorExp, ast.DictComp)) and any(isinstance(x, ast.Name) and x.id == name for g in a.generators for x in ast.walk(g.target)):
+                        scope = a
+                        break
+            except Exception:  # noqa: BLE001
+                have_use = False
+        comp_of: dict[int, ast.AST] = {}
+        if have_use:
+            for n in own_nodes(f.node):
+                if isinstance(n, (ast.ListComp, ast.SetComp, ast.GeneratorExp, ast.DictComp)):
+                    for g in n.generators:
+                        comp_of[id(g)] = n
+
+        def bind_target(tgt: ast.expr, kind: str, src: ast.expr, pos: tuple) -> None:
+            if isinstance(tgt, ast.Name):
+                if tgt.id == name:
+                    out.append((kind, src, pos))
+            elif isinstance(tgt, (ast.Tuple, ast.List)):
+                for i, el in enumerate(tgt.elts):
+                    if isinstance(el, ast.Starred):
+                        if any(isinstance(x, ast.Name) and x.id == name for x in ast.walk(el)):
+                            out.append(("opaque", src, ()))
+                    else:
+                        bind_target(el, kind, src, pos + (i,))
+
+        for n in own_nodes(f.node):
+            if isinstance(n, ast.Assign):
+                for t in n.targets:
+                    bind_target(t, "value", n.value, ())
+            elif isinstance(n, ast.AnnAssign) and n.value is not None:
+                bind_target(n.target, "value", n.value, ())
+            elif isinstance(n, ast.AugAssign):
+                if isinstance(n.target, ast.Name) and n.target.id == name:
+                    out.append(("value", ast.BinOp(left=ast.Name(id="<prev>", ctx=ast.Load()), op=n.op, right=n.value), ()))
+            elif isinstance(n, (ast.For, ast.AsyncFor)):
+                bind_target(n.target, "elem", n.iter, ())
+            elif isinstance(n, ast.comprehension):
+                if have_use and comp_of.get(id(n)) is not scope:
+                    continue  # variable of another comprehension
+                bind_target(n.target, "elem", n.iter, ())
+            elif isinstance(n, ast.NamedExpr):
+                bind_target(n.target, "value", n.value, ())
+            elif isinstance(n, (ast.With, ast.AsyncWith)):
+                for it in n.items:
+                    if it.optional_vars is not None and any(isinstance(x, ast.Name) and x.id == name for x in ast.walk(it.optional_vars)):
+                        out.append(("opaque", it.context_expr, ()))
+            elif isinstance(n, ast.ExceptHandler) and n.name == name:
+                out.append(("opaque", n, ()))
+        if scope is not None:
+            gens = {id(g) for g in scope.generators}
+            inner = [b for b in out if b[0] == "elem" and any(isinstance(g, ast.comprehension) and id(g) in gens and g.iter is b[1] for g in scope.generators)]
+            return inner or out
+        if have_use and len(out) > 1:
+            # inside the body of the loop that binds the variable, the variable holds an element of *that* loop
+            # (two loops that reuse one variable name are two variables)
+            loop = None
+            prev = use
+            for a in ancestors(use):
+                if a is f.node:
+                    break
+                if isinstance(a, (ast.For, ast.AsyncFor)) and any(isinstance(x, ast.Name) and x.id == name for x in ast.walk(a.target)) and any(prev is st_ for st_ in a.body):
+                    loop = a
+                    break
+                prev = a
+            if loop is not None:
+                body_nodes = {id(x) for st_ in loop.body for x in ast.walk(st_)}
+                rebound = [x for st_ in loop.body for x in ast.walk(st_) if isinstance(x, ast.Name) and x.id == name and isinstance(x.ctx, ast.Store)]
+                if not rebound:
+                    own = [b for b in out if b[0] == "elem" and b[1] is loop.iter]
+                    if own:
+                        return own
+        return out
+
+    def value(self, f: FuncInfo, e: ast.expr, depth: int = 0, seen: frozenset = frozenset(), pos: tuple = ()) -> list[Leaf]:
+        """Leaves of the value of `e` (position `pos` of it, if it is a tuple)."""
+        key = (f.fq, id(e), "v", pos)
+        if key in seen:
+            return []  # a cyclic definition (x = f(x)) contributes no further origin
+        if depth > self.MAX:
+            return [(f, e, "value")] if not pos else [(f, e, "opaque")]
+        seen = seen | {key}
+        d = depth + 1
+        if pos:
+            if isinstance(e, (ast.Tuple, ast.List)) and not any(isinstance(x, ast.Starred) for x in e.elts) and pos[0] < len(e.elts):
+                return self.value(f, e.elts[pos[0]], d, seen, pos[1:])
+            if not isinstance(e, (ast.Name, ast.Call, ast.IfExp, ast.Attribute, ast.Subscript)):
+                return [(f, e, "opaque")]
+        if isinstance(e, ast.Starred):  # marker of _callers_args: an element of the collection
+            return self.elements(f, e.value, d, seen, pos)
+        if isinstance(e, ast.IfExp):
+            # `p if p.endswith(".") else p + "."`: in the branch selected by the test the tested string ends with the separator
+            t, neg = (e.test.operand, True) if isinstance(e.test, ast.UnaryOp) and isinstance(e.test.op, ast.Not) else (e.test, False)
+            if not pos and isinstance(t, ast.Call) and isinstance(t.func, ast.Attribute) and t.func.attr == "endswith" and t.args and _const_str(t.args[0]) == ".":
+                hit, miss = (e.orelse, e.body) if neg else (e.body, e.orelse)
+                if norm(hit) == norm(t.func.value):
+                    return [(f, ast.Constant(value="."), "value")] + self.value(f, miss, d, seen, pos)
+            return self.value(f, e.body, d, seen, pos) + self.value(f, e.orelse, d, seen, pos)
+        if isinstance(e, ast.BoolOp) and isinstance(e.op, ast.Or) and not pos:
+            out = []
+            for v in e.values:
+                out += self.value(f, v, d, seen)
+            return out
+        if isinstance(e, ast.NamedExpr):
+            return self.value(f, e.value, d, seen, pos)
+        if isinstance(e, ast.Name):
+            return self._name(f, e, d, seen, pos)
+        if isinstance(e, ast.Attribute):
+            if isinstance(e.value, ast.Name) and e.value.id in ("self", "cls") and f.cls is not None:
+                vals = self._field_assignments(f, e.attr)
+                if vals:
+                    out = []
+                    for m, v in vals:
+                        out += self.value(m, v, d, seen, pos)
+                    return out
+            got = self._attribute(f, e, d, seen, pos)
+            if got is not None:
+                return got
+            c = _attr_constant(self.repo, self.T, f, e)
+            if c is not None and not pos:
+                return [(f, ast.Constant(value=c), "value")]
+            return [(f, e, "value" if not pos else "opaque")]
+        if isinstance(e, ast.Call):
+            nm = _call_name(e)
+            if isinstance(e.func, ast.Name) and nm == "str" and len(e.args) == 1:
+                return self.value(f, e.args[0], d, seen, pos)
+            if isinstance(e.func, ast.Name) and nm == "next" and e.args:
+                out = self.elements(f, e.args[0], d, seen, pos)
+                if len(e.args) > 1:
+                    out = out + self.value(f, e.args[1], d, seen, pos)
+                return out
+            if isinstance(e.func, ast.Name) and nm in ("min", "max") and len(e.args) == 1:
+                return self.elements(f, e.args[0], d, seen, pos)
+            if isinstance(e.func, ast.Attribute) and nm in ("pop", "popleft") and not e.keywords and len(e.args) <= 1 and not self._is_dict(f, e.func.value):
+                return self.elements(f, e.func.value, d, seen, pos)
+            cs = self._callees(f, e)
+            if cs:
+                out = []
+                for g in cs:
+                    rets = self._returns(g)
+                    if not rets:
+                        return [(f, e, "value" if not pos else "opaque")]
+                    for r in rets:
+                        out += self.value(g, r, d, seen, pos)
+                return out
+            return [(f, e, "value" if not pos else "opaque")]
+        if isinstance(e, ast.Subscript) and not isinstance(e.slice, ast.Slice):
+            vals = self.dict_values(f, e.value, d, seen, pos)
+            if vals is not None:
+                return vals
+            if self._is_dict(f, e.value):
+                return [(f, e, "value" if not pos else "opaque")]
+            if isinstance(e.slice, ast.Constant) and isinstance(e.slice.value, int) and isinstance(e.value, (ast.Tuple, ast.List)):
+                return self.value(f, e.value, d, seen, (e.slice.value,) + pos) if e.slice.value >= 0 else [(f, e, "value")]
+            # element of a sequence (by position): one of its elements; a constant index into a tuple-valued thing selects a position
+            if isinstance(e.slice, ast.Constant) and isinstance(e.slice.value, int) and e.slice.value >= 0 and self._is_tuple(f, e.value):
+                return self.value(f, e.value, d, seen, (e.slice.value,) + pos)
+            return self.elements(f, e.value, d, seen, pos)
+        return [(f, e, "value" if not pos else "opaque")]
+
+    def _attribute(self, f: FuncInfo, e: ast.Attribute, d: int, seen: frozenset, pos: tuple) -> list[Leaf] | None:
+        """`obj.attr` for a receiver of a repo class: the returns of a property, or what the constructor calls pass for a field."""
+        t = self.T.expr(f, e.value)
+        if isinstance(e.value, ast.Name) and e.value.id in ("self", "cls") and f.cls is not None:
+            t = ("cls", f.cls.fq)
+        cls_ = [self.repo.classes.get(m[1]) for m in members(t) if m[0] == "cls"]
+        if not cls_ or any(c is None for c in cls_) or len(cls_) != len(members(t)):
+            return None
+        out: list[Leaf] = []
+        for ci in cls_:
+            meth = self.repo.lookup_method(ci, e.attr)
+            if meth is not None and meth.is_property:
+                for impl in self.repo.implementations(ci, e.attr):
+                    rets = self._returns(impl)
+                    if not rets:
+                        return None
+                    for r in rets:
+                        out += self.value(impl, r, d, seen, pos)
+                continue
+            if meth is not None:
+                return None
+            # a field: assignments in the class, else the arguments of constructor calls (dataclass / NamedTuple style)
+            probe = next(iter(ci.methods.values()), None)
+            vals = self._field_assignments(probe, e.attr) if probe is not None and probe.cls is ci else []
+            if vals:
+                for m, v in vals:
+                    out += self.value(m, v, d, seen, pos)
+                continue
+            fields = [a for c in reversed(self.repo.mro(ci)) for a in c.ann_attrs]
+            if e.attr not in fields or self.repo.lookup_method(ci, "__init__") is not None:
+                return None
+            found = False
+            for g in self.repo.all_functions():
+                for c in calls_in(g.node):
+                    if _call_name(c) != ci.name:
+                        continue
+                    k = self.T.ctor_class(g, c)
+                    if k is None or k.fq != ci.fq:
+                        continue
+                    arg = next((kw.value for kw in c.keywords if kw.arg == e.attr), None)
+                    if arg is None and fields.index(e.attr) < len(c.args):
+                        arg = c.args[fields.index(e.attr)]
+                    if arg is None:
+                        default = next((c2.class_attrs.get(e.attr) for c2 in self.repo.mro(ci) if e.attr in c2.class_attrs), None)
+                        if default is None:
+                            return None
+                        out.append((g, default, "value"))
+                    else:
+                        out += self.value(g, arg, d, seen, pos)
+                    found = True
+            if not found:
+                return None
+        return out or None
+
+    def dict_values(self, f: FuncInfo, dct: ast.expr, d: int, seen: frozenset, pos: tuple) -> list[Leaf] | None:
+        """Leaves of the values of a dict built locally (comprehension, literal, item assignments); None if it is not one."""
+        if isinstance(dct, ast.Attribute) and isinstance(dct.value, ast.Name) and dct.value.id in ("self", "cls") and f.cls is not None:
+            vals = self._field_assignments(f, dct.attr)
+            if not vals:
+                return None
+            out: list[Leaf] = []
+            for m, src in vals:
+                if isinstance(src, ast.DictComp):
+                    out += self.value(m, src.value, d, seen, pos)
+                elif isinstance(src, ast.Dict) and all(k is not None for k in src.keys):
+                    for v in src.values:
+                        out += self.value(m, v, d, seen, pos)
+                elif isinstance(src, ast.Name):
+                    sub = self.dict_values(m, src, d, seen, pos)
+                    if sub is None:
+                        return None
+                    out += sub
+                elif not (isinstance(src, (ast.Dict,)) or (isinstance(src, ast.Call) and _call_name(src) in ("dict", "defaultdict") and not src.args)):
+                    return None
+            text = norm(dct)
+            for ci in [*self.repo.mro(f.cls), *self.repo.subclasses(f.cls)]:
+                for m in [*ci.methods.values(), *ci.extra_methods]:
+                    for n in own_nodes(m.node):
+                        if isinstance(n, ast.Assign):
+                            for t in n.targets:
+                                if isinstance(t, ast.Subscript) and norm(t.value) == text:
+                                    out += self.value(m, n.value, d, seen, pos)
+                        if isinstance(n, ast.Call) and isinstance(n.func, ast.Attribute) and norm(n.func.value) == text:
+                            if n.func.attr == "setdefault" and len(n.args) == 2:
+                                out += self.value(m, n.args[1], d, seen, pos)
+                            elif n.func.attr == "update":
+                                return None
+            return out or None
+        if not isinstance(dct, ast.Name) or isinstance(f.node, ast.Lambda):
+            return None
+        binds = self._bindings(f, dct.id)
+        if dct.id in f.param_names or not binds:
+            if not binds and f.outer is not None and dct.id not in f.param_names:
+                return self.dict_values(f.outer, dct, d, seen, pos)
+            if not binds and dct.id in f.param_names and d < self.MAX:
+                args = _callers_args(self.repo, f, dct.id)
+                if args:
+                    out0: list[Leaf] = []
+                    for g, a in args:
+                        sub = None if isinstance(a, ast.Starred) else self.dict_values(g, a, d + 1, seen, pos)
+                        if sub is None:
+                            return None
+                        out0 += sub
+                    return out0 or None
+            return None
+        out: list[Leaf] = []
+        for kind, src, p in binds:
+            if kind != "value" or p:
+                return None
+            if isinstance(src, ast.DictComp):
+                out += self.value(f, src.value, d, seen, pos)
+            elif isinstance(src, ast.Dict):
+                if any(k is None for k in src.keys):
+                    return None
+                for v in src.values:
+                    out += self.value(f, v, d, seen, pos)
+            elif isinstance(src, ast.Call) and _call_name(src) in ("dict", "defaultdict", "OrderedDict") and not src.args and not src.keywords:
+                pass
+            else:
+                return None
+        for n in own_nodes(f.node):
+            if isinstance(n, ast.Assign):
+                for t in n.targets:
+                    if isinstance(t, ast.Subscript) and isinstance(t.value, ast.Name) and t.value.id == dct.id:
+                        out += self.value(f, n.value, d, seen, pos)
+            if isinstance(n, ast.Call) and isinstance(n.func, ast.Attribute) and isinstance(n.func.value, ast.Name) and n.func.value.id == dct.id:
+                if n.func.attr == "setdefault" and len(n.args) == 2:
+                    out += self.value(f, n.args[1], d, seen, pos)
+                elif n.func.attr == "update":
+                    return None
+        return out or None
+
+    def _is_dict(self, f: FuncInfo, e: ast.expr) -> bool:
+        t = self.T.expr(f, e)
+        return any(m[0] == "b" and m[1] == "dict" for m in members(t))
+
+    def _is_tuple(self, f: FuncInfo, e: ast.expr) -> bool:
+        t = self.T.expr(f, e)
+        ms = members(t)
+        return bool(ms) and all(m[0] == "b" and m[1] == "tuple" for m in ms)
+
+    def _callees(self, f: FuncInfo, call: ast.Call) -> list[FuncInfo]:
+        try:
+            cs, how = self.T.callees(f, call, byname_fallback=False)
+        except Exception:  # noqa: BLE001
+            return []
+        if how not in ("repo",):
+            return []
+        return [c for c in cs if not c.is_abstract]
+
+    @staticmethod
+    def _returns(g: FuncInfo) -> list[ast.expr]:
+        if isinstance(g.node, ast.Lambda):
+            return [g.node.body]
+        if any(isinstance(n, (ast.Yield, ast.YieldFrom)) for n in own_nodes(g.node)):
+            return []
+        return [r.value for r in own_nodes(g.node) if isinstance(r, ast.Return) and r.value is not None]
+
+    def _field_assignments(self, f: FuncInfo, attr: str) -> list[tuple[FuncInfo, ast.expr]]:
+        out = []
+        classes = [*self.repo.mro(f.cls), *self.repo.subclasses(f.cls)] if f.cls is not None else []
+        seen = set()
+        for ci in classes:
+            if ci.fq in seen:
+                continue
+            seen.add(ci.fq)
+            for m in [*ci.methods.values(), *ci.extra_methods]:
+                for n in own_nodes(m.node):
+                    if isinstance(n, (ast.Assign, ast.AnnAssign)) and getattr(n, "value", None) is not None:
+                        for t in n.targets if isinstance(n, ast.Assign) else [n.target]:
+                            if isinstance(t, ast.Attribute) and isinstance(t.value, ast.Name) and t.value.id in ("self", "cls") and t.attr == attr:
+                                out.append((m, n.value))
+            if attr in ci.class_attrs:
+                out.append((next(iter(ci.methods.values()), f), ci.class_attrs[attr]))
+        return out
+
+    def _name(self, f: FuncInfo, e: ast.Name, d: int, seen: frozenset, pos: tuple) -> list[Leaf]:
+        name = e.id
+        opaque = [(f, e, "value" if not pos else "opaque")]
+        if isinstance(f.node, ast.Lambda):
+            if name in f.param_names:
+                it = _lambda_iterable(f)
+                if it is not None and f.outer is not None and len(f.param_names) == 1:
+                    return self.elements(f.outer, it, d, seen, pos)
+                return opaque
+            return self._name(f.outer, e, d, seen, pos) if f.outer is not None else opaque
+        binds = self._bindings(f, name, e)
+        if name in f.param_names:
+            if binds:
+                return opaque  # re-bound parameter: flow-insensitive view is not sound enough here
+            if not pos and _declared_node_name(f, name):
+                return [(f, e, "value")]  # Node / AbstractNode / ModuleName: a plain module name by its declared type
+            args = _callers_args(self.repo, f, name)
+            if not args:
+                return opaque
+            out = []
+            for g, a in args:
+                out += self.value(g, a, d, seen, pos)
+            return out
+        if not binds:
+            if f.outer is not None:
+                return self._name(f.outer, e, d, seen, pos)
+            c = _module_constant(self.repo, f, name)
+            if c is not None:
+                return [(f, c, "value")]
+            return opaque
+        out = []
+        for kind, src, p in binds:
+            if kind == "value":
+                if isinstance(src, ast.BinOp) and isinstance(src.left, ast.Name) and src.left.id == "<prev>":
+                    out.append((f, src, "value"))
+                else:
+                    out += self.value(f, src, d, seen, p + pos)
+            elif kind == "elem":
+                out += self.elements(f, src, d, seen, p + pos)
+            else:
+                out.append((f, src if isinstance(src, ast.expr) else e, "opaque"))
+        return out
+
+    def elements(self, f: FuncInfo, c: ast.expr, depth: int = 0, seen: frozenset = frozenset(), pos: tuple = ()) -> list[Leaf]:
+        """Leaves of the elements of the collection `c` (position `pos` of each element, if elements are tuples)."""
+        key = (f.fq, id(c), "e", pos)
+        if key in seen:
+            return []  # xs = [x for x in xs if ..]: no further origin
+        if depth > self.MAX:
+            return [(f, c, "elem" if not pos else "opaque")]
+        seen = seen | {key}
+        d = depth + 1
+        stop = [(f, c, "elem" if not pos else "opaque")]
+        if isinstance(c, ast.Starred):
+            return self.elements(f, c.value, d, seen, pos)
+        if isinstance(c, (ast.List, ast.Tuple, ast.Set)):
+            out = []
+            for el in c.elts:
+                out += self.elements(f, el.value, d, seen, pos) if isinstance(el, ast.Starred) else self.value(f, el, d, seen, pos)
+            return out
+        if isinstance(c, ast.Dict):
+            out = []
+            for k in c.keys:
+                if k is None:
+                    return stop
+                out += self.value(f, k, d, seen, pos)
+            return out
+        if isinstance(c, (ast.ListComp, ast.SetComp, ast.GeneratorExp)):
+            return self.value(f, c.elt, d, seen, pos)
+        if isinstance(c, ast.DictComp):
+            return self.value(f, c.key, d, seen, pos)
+        if isinstance(c, ast.BinOp) and isinstance(c.op, (ast.Add, ast.BitOr)):
+            return self.elements(f, c.left, d, seen, pos) + self.elements(f, c.right, d, seen, pos)
+        if isinstance(c, ast.IfExp):
+            return self.elements(f, c.body, d, seen, pos) + self.elements(f, c.orelse, d, seen, pos)
+        if isinstance(c, ast.BoolOp) and isinstance(c.op, ast.Or):
+            out = []
+            for v in c.values:
+                out += self.elements(f, v, d, seen, pos)
+            return out
+        if isinstance(c, ast.Subscript):
+            if isinstance(c.slice, ast.Slice):
+                return self.elements(f, c.value, d, seen, pos)
+            return stop
+        if isinstance(c, ast.Call):
+            nm = _call_name(c)
+            if isinstance(c.func, ast.Name):
+                if nm in ("set", "list", "tuple", "dict", "frozenset", "deque") and not c.args and not c.keywords:
+                    return []  # empty
+                if nm in WRAPPERS and c.args:
+                    return self.elements(f, c.args[0], d, seen, pos)
+                if nm == "enumerate" and c.args:
+                    if pos and pos[0] == 1:
+                        return self.elements(f, c.args[0], d, seen, pos[1:])
+                    return [(f, c, "opaque")]
+                if nm == "zip" and c.args:
+                    if pos and pos[0] < len(c.args):
+                        return self.elements(f, c.args[pos[0]], d, seen, pos[1:])
+                    return [(f, c, "opaque")]
+                if nm == "filter" and len(c.args) == 2:
+                    return self.elements(f, c.args[1], d, seen, pos)
+                if nm == "chain" and c.args:
+                    out = []
+                    for a in c.args:
+                        out += self.elements(f, a, d, seen, pos)
+                    return out
+                if nm == "map" and len(c.args) == 2:
+                    fn = c.args[0]
+                    if isinstance(fn, ast.Attribute) and fn.attr == "format" and _const_str(fn.value) is not None and not pos:
+                        # map("{}.".format, xs): every element is the constant format applied to an element of xs
+                        return [(f, ast.Call(func=fn, args=[ast.Starred(value=c.args[1], ctx=ast.Load())], keywords=[]), "value")]
+                    lf = getattr(fn, "_func", None) if isinstance(fn, ast.Lambda) else None
+                    if lf is not None:
+                        return self.value(lf, fn.body, d, seen, pos)
+                    t = self.T.expr(f, fn)
+                    fns = [m[1] for m in members(t) if m[0] == "fn"]
+                    if fns and len(fns) == len(members(t)):
+                        out = []
+                        for g in fns:
+                            rets = self._returns(g)
+                            if not rets:
+                                return stop
+                            for r in rets:
+                                out += self.value(g, r, d, seen, pos)
+                        return out
+                    return stop
+            if isinstance(c.func, ast.Attribute):
+                if nm == "keys" and not c.args:
+                    return self.elements(f, c.func.value, d, seen, pos)
+                if nm == "items" and not c.args:
+                    if pos and pos[0] == 0:
+                        return self.elements(f, c.func.value, d, seen, pos[1:])
+                    if pos and pos[0] == 1:
+                        vals = self.dict_values(f, c.func.value, d, seen, pos[1:])
+                        if vals is not None:
+                            return vals
+                    return [(f, c, "opaque")]
+                if nm in ("values",) and not c.args:
+                    vals = self.dict_values(f, c.func.value, d, seen, pos)
+                    return vals if vals is not None else [(f, c, "opaque")]
+                if nm in ("copy", "union", "difference", "intersection") and isinstance(c.func.value, (ast.Name, ast.Attribute)):
+                    out = self.elements(f, c.func.value, d, seen, pos)
+                    if nm == "union":
+                        for a in c.args:
+                            out += self.elements(f, a, d, seen, pos)
+                    return out
+            if nm in NAME_FUNCS or nm in NAME_METHODS:
+                return stop  # public API that returns plain module names (its own cuts are checked where it is defined)
+            cs = self._callees(f, c)
+            if cs:
+                out = []
+                for g in cs:
+                    ys = [n for n in own_nodes(g.node) if isinstance(n, (ast.Yield, ast.YieldFrom))] if not isinstance(g.node, ast.Lambda) else []
+                    if ys:
+                        for y in ys:
+                            if isinstance(y, ast.Yield) and y.value is not None:
+                                out += self.value(g, y.value, d, seen, pos)
+                            elif isinstance(y, ast.YieldFrom):
+                                out += self.elements(g, y.value, d, seen, pos)
+                        continue
+                    rets = self._returns(g)
+                    if not rets:
+                        return stop
+                    for r in rets:
+                        out += self.elements(g, r, d, seen, pos)
+                return out
+            return stop
+        if isinstance(c, ast.Attribute):
+            if isinstance(c.value, ast.Name) and c.value.id in ("self", "cls") and f.cls is not None:
+                vals = self._field_assignments(f, c.attr)
+                if vals:
+                    out = []
+                    for m, v in vals:
+                        out += self.elements(m, v, d, seen, pos)
+                    out += self._mutations(f, c, d, seen, pos, field=c.attr)
+                    return out
+            return stop
+        if isinstance(c, ast.Name):
+            name = c.id
+            if isinstance(f.node, ast.Lambda):
+                if name in f.param_names:
+                    return stop
+                return self.elements(f.outer, c, d, seen, pos) if f.outer is not None else stop
+            binds = self._bindings(f, name, c)
+            if name in f.param_names:
+                if binds:
+                    return stop
+                args = _callers_args(self.repo, f, name)
+                if not args:
+                    return stop
+                out = []
+                for g, a in args:
+                    if isinstance(a, ast.Starred):
+                        return stop
+                    out += self.elements(g, a, d, seen, pos)
+                return out + self._mutations(f, c, d, seen, pos)
+            if not binds:
+                if f.outer is not None:
+                    return self.elements(f.outer, c, d, seen, pos)
+                k = _module_constant(self.repo, f, name)
+                if k is not None:
+                    return self.elements(f, k, d, seen, pos)
+                return stop
+            out = []
+            for kind, src, p in binds:
+                if kind == "value" and not p:
+                    if isinstance(src, ast.BinOp) and isinstance(src.left, ast.Name) and src.left.id == "<prev>":
+                        out += self.elements(f, src.right, d, seen, pos)
+                    else:
+                        out += self.elements(f, src, d, seen, pos)
+                else:
+                    return stop
+            return out + self._mutations(f, c, d, seen, pos)
+        return stop
+
+    def _mutations(self, f: FuncInfo, c: ast.expr, d: int, seen: frozenset, pos: tuple, field: str | None = None) -> list[Leaf]:
+        """Elements added to the collection `c` (a local name, or the field self.<field> anywhere in the class) by mutator calls."""
+        out: list[Leaf] = []
+        text = norm(c)
+        scopes: list[FuncInfo] = [f]
+        if field is not None and f.cls is not None:
+            scopes = [m for ci in [*self.repo.mro(f.cls), *self.repo.subclasses(f.cls)] for m in [*ci.methods.values(), *ci.extra_methods]]
+        for g in scopes:
+            if isinstance(g.node, ast.Lambda):
+                continue
+            for n in own_nodes(g.node):
+                if isinstance(n, ast.Call) and isinstance(n.func, ast.Attribute) and norm(n.func.value) == text and n.args:
+                    a = n.func.attr
+                    if a in ("append", "add", "appendleft"):
+                        out += self.value(g, n.args[0], d, seen, pos)
+                    elif a == "insert" and len(n.args) == 2:
+                        out += self.value(g, n.args[1], d, seen, pos)
+                    elif a in ("extend", "update", "extendleft"):
+                        out += self.elements(g, n.args[0], d, seen, pos)
+                    elif a == "setdefault":
+                        out += self.value(g, n.args[0], d, seen, pos)
+                elif isinstance(n, ast.Call) and _call_name(n) in ("insort", "insort_left", "insort_right", "heappush") and len(n.args) >= 2 and norm(n.args[0]) == text:
+                    out += self.value(g, n.args[1], d, seen, pos)
+                elif isinstance(n, (ast.Assign, ast.AugAssign, ast.AnnAssign)):
+                    for t in n.targets if isinstance(n, ast.Assign) else [n.target]:
+                        if isinstance(t, ast.Subscript) and norm(t.value) == text and not isinstance(t.slice, ast.Slice):
+                            out += self.value(g, t.slice, d, seen, pos)  # d[k] = v: iterating d yields k
+                        if isinstance(n, ast.AugAssign) and field is not None and norm(t) == text:
+                            out += self.elements(g, n.value, d, seen, pos)
+        return out
+
+
+def origins(repo: Repo) -> Origins:
+    key = ("origins", id(repo))
+    if key not in _cache:
+        _cache[key] = Origins(repo)
+    return _cache[key]
+
+
+# --------------------------------------------------------------------------- does a string end with the separator?
+
+
+def _leaf_status(repo: Repo, g: FuncInfo, e: ast.expr, kind: str, depth: int) -> str:
+    """'dot' | 'bare' | 'unknown' for one origin."""
+    if kind == "opaque":
+        return "unknown"
+    if kind == "elem":
+        # an element of a collection that could not be opened: collections of names / components hold plain names
+        x = e
+        while isinstance(x, ast.Call) and isinstance(x.func, ast.Name) and x.func.id in WRAPPERS and x.args:
+            x = x.args[0]
+        if isinstance(x, ast.Call):
+            nm = _call_name(x)
+            if nm in NAME_METHODS or nm in NAME_FUNCS:
+                return "bare"
+            if nm in ("split", "rsplit") and x.args and _const_str(x.args[0]) == ".":
+                return "bare"
+            if nm in ("keys",):
+                x = x.func.value if isinstance(x.func, ast.Attribute) else x
+        if isinstance(x, ast.Attribute) and x.attr in ("nodes", "modules"):
+            return "bare"
+        if isinstance(x, ast.Call) and isinstance(x.func, ast.Attribute) and x.func.attr in ("successors", "predecessors", "neighbors", "nodes", "ancestors", "descendants"):
+            return "bare"  # networkx: nodes of the graph
         return "unknown"
     if isinstance(e, ast.Constant):
+        if e.value is None:
+            return "none"
         return "dot" if isinstance(e.value, str) and e.value.endswith(".") else "bare"
+    if isinstance(e, (ast.Tuple, ast.GeneratorExp, ast.ListComp)):
+        return dot_status(repo, g, ast.Starred(value=e, ctx=ast.Load()), depth + 1)
     if isinstance(e, ast.JoinedStr):
         if not e.values:
             return "bare"
@@ -232,123 +1154,256 @@ def dot_status(repo: Repo, f: FuncInfo, e: ast.expr, depth: int = 0) -> str:
         if isinstance(last, ast.Constant):
             return "dot" if str(last.value).endswith(".") else "bare"
         if isinstance(last, ast.FormattedValue):
-            return dot_status(repo, f, last.value, depth + 1)
+            return dot_status(repo, g, last.value, depth + 1)
         return "unknown"
     if isinstance(e, ast.BinOp) and isinstance(e.op, ast.Add):
-        return dot_status(repo, f, e.right, depth + 1)
-    if isinstance(e, ast.IfExp):
-        a, b = dot_status(repo, f, e.body, depth + 1), dot_status(repo, f, e.orelse, depth + 1)
-        return a if a == b else "unknown"
+        return dot_status(repo, g, e.right, depth + 1)
+    if isinstance(e, ast.BinOp) and isinstance(e.op, ast.Mod) and _const_str(e.left) is not None:
+        s = _const_str(e.left)
+        if s.endswith("."):
+            return "dot"
+        return "unknown" if s.endswith(("%s", "%r")) else "bare"
     if isinstance(e, ast.Attribute):
         if e.attr in ("identifier", "parent_module", "name", "module"):
             return "bare"
-        if isinstance(e.value, ast.Name) and e.value.id == "self" and f.cls is not None:
-            vals = []
-            for m in f.cls.methods.values():
-                for n in own_nodes(m.node):
-                    if isinstance(n, ast.Assign):
-                        for t in n.targets:
-                            if isinstance(t, ast.Attribute) and isinstance(t.value, ast.Name) and t.value.id == "self" and t.attr == e.attr:
-                                vals.append(dot_status(repo, m, n.value, depth + 1))
-            if vals and len(set(vals)) == 1:
-                return vals[0]
         return "unknown"
     if isinstance(e, ast.Call):
         fn = e.func
-        if isinstance(fn, ast.Attribute) and fn.attr in NAME_METHODS and not e.args:
+        nm = _call_name(e)
+        if isinstance(fn, ast.Attribute) and nm in NAME_METHODS and not e.args:
             return "bare"
-        if (isinstance(fn, ast.Name) and fn.id in NAME_FUNCS) or (isinstance(fn, ast.Attribute) and fn.attr in NAME_FUNCS):
+        if nm in NAME_FUNCS:
             return "bare"
-        if isinstance(fn, ast.Attribute) and fn.attr in ("rstrip", "strip") and e.args and isinstance(e.args[0], ast.Constant) and "." in str(e.args[0].value):
+        if isinstance(fn, ast.Attribute) and nm in ("rstrip", "strip", "removesuffix") and e.args and "." in (_const_str(e.args[0]) or fold(repo, g.module, e.args[0], g) or ""):
             return "bare"
-        if isinstance(fn, ast.Name) and fn.id == "str" and len(e.args) == 1:
-            return dot_status(repo, f, e.args[0], depth + 1)
-        T = types_of(repo)
-        try:
-            cs, how = T.callees(f, e, byname_fallback=False)
-        except Exception:  # noqa: BLE001
-            cs, how = [], ""
-        if len(cs) == 1 and how == "repo":
-            rets = [r for r in own_nodes(cs[0].node) if isinstance(r, ast.Return) and r.value is not None]
-            vals = {dot_status(repo, cs[0], r.value, depth + 1) for r in rets}
-            if len(vals) == 1:
-                return vals.pop()
+        if isinstance(fn, ast.Attribute) and nm == "join" and len(e.args) == 1:
+            # the last element, not the separator, ends the joined string - unless that element is empty
+            arg = e.args[0]
+            if isinstance(arg, (ast.List, ast.Tuple)) and arg.elts and not isinstance(arg.elts[-1], ast.Starred):
+                last = arg.elts[-1]
+                if _const_str(last) == "":
+                    sep = _const_str(fn.value) if isinstance(fn.value, ast.Constant) else fold(repo, g.module, fn.value, g)
+                    return "dot" if (sep or "").endswith(".") else "unknown"
+                return dot_status(repo, g, last, depth + 1)
+            if isinstance(arg, (ast.GeneratorExp, ast.ListComp)):
+                return dot_status(repo, g, arg.elt, depth + 1)
+            # components of a string, possibly a leading run of them: the joined string ends like that string (or earlier)
+            sliced = False
+            while isinstance(arg, ast.Subscript) and isinstance(arg.slice, ast.Slice):
+                sliced = sliced or arg.slice.upper is not None
+                arg = arg.value
+            outs = set()
+            for g2, x, kind in origins(repo).value(g, arg):
+                while isinstance(x, ast.Subscript) and isinstance(x.slice, ast.Slice):
+                    sliced = sliced or x.slice.upper is not None
+                    x = x.value
+                if kind == "value" and isinstance(x, ast.Call) and _call_name(x) in ("split", "rsplit") and isinstance(x.func, ast.Attribute) and x.args and _const_str(x.args[0]) == ".":
+                    st = dot_status(repo, g2, x.func.value, depth + 1)
+                    outs.add("unknown" if (st == "dot" and sliced) else st)
+                else:
+                    outs.add("unknown")
+            return outs.pop() if len(outs) == 1 else "unknown"
+        if isinstance(fn, ast.Attribute) and nm == "format" and _const_str(fn.value) is not None:
+            s = _const_str(fn.value)
+            return "dot" if s.endswith(".") else ("unknown" if s.endswith("}") else "bare")
+        if isinstance(fn, ast.Attribute) and nm in ("lower", "upper", "casefold", "lstrip", "removeprefix"):
+            return dot_status(repo, g, fn.value, depth + 1)
+        if isinstance(fn, ast.Name) and nm in ("tuple", "list", "sorted", "set", "frozenset") and len(e.args) >= 1:
+            # str.startswith accepts a tuple of prefixes: all of them count
+            return dot_status(repo, g, ast.Starred(value=e.args[0], ctx=ast.Load()), depth + 1)
         return "unknown"
-    if isinstance(e, ast.Name) and not isinstance(f.node, ast.Lambda):
-        if e.id in f.param_names:
-            stores = [n for n in own_nodes(f.node) if isinstance(n, ast.Name) and n.id == e.id and isinstance(n.ctx, ast.Store)]
-            if stores:
-                return "unknown"
-            ann = next((p.annotation for p in f.params if p.arg == e.id), None)
+    if isinstance(e, ast.Subscript):
+        if isinstance(e.slice, ast.Slice) and e.slice.step is None:
+            lo, hi = e.slice.lower, e.slice.upper
+            neg_hi = isinstance(hi, ast.UnaryOp) and isinstance(hi.op, ast.USub) and isinstance(hi.operand, ast.Constant) and isinstance(hi.operand.value, int) and hi.operand.value > 0
+            if lo is None and neg_hi:
+                inner = dot_status(repo, g, e.value, depth + 1)
+                return "bare" if inner in ("dot", "bare") else "unknown"  # the trailing separator (or more) is cut off
+            if hi is None and lo is not None:
+                return dot_status(repo, g, e.value, depth + 1)  # the end of the string is kept
+            return "unknown"
+        if not isinstance(e.slice, ast.Slice):
+            # element of split('.') / rsplit('.', 1) / partition: a component or a run of whole components
+            v = e.value
+            if isinstance(v, ast.Call) and _call_name(v) in ("split", "rsplit", "rpartition", "partition") and v.args and _const_str(v.args[0]) == ".":
+                if _call_name(v) in ("partition", "rpartition") and isinstance(e.slice, ast.Constant) and e.slice.value == 1:
+                    return "unknown"
+                return "bare"
+        return "unknown"
+    if isinstance(e, ast.Name):
+        if e.id in g.param_names:
+            ann = next((p.annotation for p in g.params if p.arg == e.id), None)
             if ann is not None and ({n.id for n in ast.walk(ann) if isinstance(n, ast.Name)} | {n.attr for n in ast.walk(ann) if isinstance(n, ast.Attribute)}) & NAME_ANNOTATIONS:
                 return "bare"  # a module name by its declared type
-            args = _callers_args(repo, f, e.id)
-            if args:
-                vals = {dot_status(repo, g, a, depth + 1) for g, a in args}
-                if len(vals) == 1:
-                    return vals.pop()
-                if "bare" in vals and "unknown" not in vals:
-                    return "bare"
-            return "unknown"
-        assigns = [n for n in own_nodes(f.node) if isinstance(n, ast.Assign) and any(isinstance(t, ast.Name) and t.id == e.id for t in n.targets)]
-        others = [n for n in own_nodes(f.node) if isinstance(n, ast.Name) and n.id == e.id and isinstance(n.ctx, ast.Store)]
-        if assigns and len(others) == len(assigns):
-            vals = {dot_status(repo, f, a.value, depth + 1) for a in assigns}
-            if len(vals) == 1:
-                return vals.pop()
-            return "unknown"
-        # loop / comprehension target ranging directly over a collection of names
-        for n in own_nodes(f.node):
-            its = []
-            if isinstance(n, (ast.For, ast.AsyncFor)):
-                its = [(n.target, n.iter)]
-            elif isinstance(n, ast.comprehension):
-                its = [(n.target, n.iter)]
-            for tgt, it in its:
-                if isinstance(tgt, ast.Name) and tgt.id == e.id and len(others) == 1:
-                    if isinstance(it, ast.Call) and isinstance(it.func, ast.Name) and it.func.id in ("sorted", "list", "set", "reversed", "tuple", "frozenset") and it.args:
-                        it = it.args[0]
-                    if isinstance(it, ast.Call) and isinstance(it.func, ast.Attribute) and it.func.attr == "keys":
-                        it = it.func.value
-                    if isinstance(it, ast.Call):
-                        fn = it.func
-                        if (isinstance(fn, ast.Attribute) and (fn.attr in NAME_METHODS or fn.attr in NAME_FUNCS)) or (isinstance(fn, ast.Name) and fn.id in NAME_FUNCS):
-                            return "bare"
-                    if isinstance(it, ast.Attribute) and it.attr in ("nodes", "modules"):
-                        return "bare"
-                    if isinstance(it, ast.Name) and it.id in f.param_names:
-                        ann = next((p.annotation for p in f.params if p.arg == it.id), None)
-                        txt = norm(ann) if ann is not None else ""
-                        if "str" in txt and "tuple" not in txt.lower():
-                            # a collection of plain strings handed in by the caller: names, unless built with a separator
-                            args = _callers_args(repo, f, it.id)
-                            if args and all(_collection_of_bare(repo, g, a, depth + 1) for g, a in args):
-                                return "bare"
         return "unknown"
     return "unknown"
 
 
-def _collection_of_bare(repo: Repo, f: FuncInfo, e: ast.expr, depth: int) -> bool:
-    if depth > 5:
+def _normalised_before(f: FuncInfo, use: ast.Name) -> bool:
+    """`if not x.endswith("."): x = x + "."` (or `x += "."`) precedes the use of x on every path and x is not re-bound after it."""
+    if isinstance(f.node, ast.Lambda):
         return False
-    if isinstance(e, ast.Call) and isinstance(e.func, ast.Name) and e.func.id in ("sorted", "list", "set", "reversed", "tuple", "frozenset") and e.args:
-        return _collection_of_bare(repo, f, e.args[0], depth + 1)
-    if isinstance(e, ast.Call) and isinstance(e.func, ast.Attribute) and e.func.attr == "keys":
-        return True
-    if isinstance(e, ast.Attribute) and e.attr in ("nodes", "modules"):
-        return True
-    if isinstance(e, ast.Name) and not isinstance(f.node, ast.Lambda):
-        if e.id in f.param_names:
-            ann = next((p.annotation for p in f.params if p.arg == e.id), None)
-            return ann is not None and "dict" in norm(ann)
-        assigns = [n for n in own_nodes(f.node) if isinstance(n, (ast.Assign, ast.AnnAssign)) and any(isinstance(t, ast.Name) and t.id == e.id for t in (n.targets if isinstance(n, ast.Assign) else [n.target]))]
-        if len(assigns) == 1 and assigns[0].value is not None:
-            return _collection_of_bare(repo, f, assigns[0].value, depth + 1)
+    x = use.id
+    norm_ifs = []
+    for n in own_nodes(f.node):
+        if isinstance(n, ast.If) and not n.orelse and len(n.body) == 1 and isinstance(n.test, ast.UnaryOp) and isinstance(n.test.op, ast.Not):
+            t = n.test.operand
+            if isinstance(t, ast.Call) and isinstance(t.func, ast.Attribute) and t.func.attr == "endswith" and isinstance(t.func.value, ast.Name) and t.func.value.id == x and t.args and _const_str(t.args[0]) == ".":
+                b = n.body[0]
+                ok = isinstance(b, ast.AugAssign) and isinstance(b.op, ast.Add) and isinstance(b.target, ast.Name) and b.target.id == x and (_const_str(b.value) or "").endswith(".")
+                ok = ok or (isinstance(b, ast.Assign) and len(b.targets) == 1 and isinstance(b.targets[0], ast.Name) and b.targets[0].id == x and ((isinstance(b.value, ast.BinOp) and isinstance(b.value.op, ast.Add) and norm(b.value.left) == x and (_const_str(b.value.right) or "").endswith(".")) or (isinstance(b.value, ast.JoinedStr) and len(b.value.values) == 2 and isinstance(b.value.values[0], ast.FormattedValue) and norm(b.value.values[0].value) == x and (_const_str(b.value.values[1]) or "").endswith("."))))
+                if ok:
+                    norm_ifs.append(n)
+    for n in norm_ifs:
+        blk = parent(n)
+        # the normaliser sits in a block that also (transitively) contains the use, before it; nothing re-binds x afterwards
+        if not any(a is blk for a in ancestors(use)):
+            continue
+        if getattr(n, "end_lineno", 0) >= getattr(use, "lineno", 0):
+            continue
+        later = [m for m in own_nodes(f.node) if isinstance(m, ast.Name) and m.id == x and isinstance(m.ctx, ast.Store) and getattr(m, "lineno", 0) > n.end_lineno]
+        if isinstance(blk, (ast.For, ast.AsyncFor, ast.While)):
+            continue
+        if not later:
+            return True
     return False
+
+
+def dot_status(repo: Repo, f: FuncInfo, e: ast.expr, depth: int = 0) -> str:
+    """'dot'  - the string provably ends with '.' (every origin does),
+    'bare' - it provably is a plain module name (no origin has a separator appended),
+    'unknown' otherwise (origins disagree or cannot be followed)."""
+    if depth > 6:
+        return "unknown"
+    if isinstance(e, ast.Name) and _normalised_before(f, e):
+        return "dot"
+    leaves = origins(repo).value(f, e)
+    if not leaves:
+        return "unknown"
+    vals = {_leaf_status(repo, g, x, kind, depth) for g, x, kind in leaves}
+    vals.discard("none")  # None on some path: the operation is not reached with it (it would raise)
+    if len(vals) == 1:
+        return vals.pop()
+    return "unknown"
+
+
+def needle_status(repo: Repo, f: FuncInfo, e: ast.expr) -> str:
+    """dot_status, completed by the may-analysis: a value that carries module names and into which no string ending in '.' was
+    ever concatenated (flow tag DOT absent) is a plain name."""
+    st = dot_status(repo, f, e)
+    if st == "unknown":
+        fl = name_flow(repo)
+        tags = set(fl.tags(e))
+        if not tags:
+            # core/flow.py does not propagate the values of `yield`: take the tags of the expressions the value originates from
+            for g, x, _kind in origins(repo).value(f, e):
+                tags |= set(fl.tags(x))
+        if "DOT" not in tags and ("NAME" in tags or "COMP" in tags):
+            return "bare"
+    return st
 
 
 def _ends_with_dot(repo: Repo, f: FuncInfo, e: ast.expr, depth: int = 0) -> bool:
     return dot_status(repo, f, e, depth) == "dot"
+
+
+def _starts_with_dot(e: ast.expr) -> bool:
+    if isinstance(e, ast.Constant):
+        return isinstance(e.value, str) and e.value.startswith(".")
+    if isinstance(e, ast.JoinedStr):
+        return bool(e.values) and isinstance(e.values[0], ast.Constant) and str(e.values[0].value).startswith(".")
+    if isinstance(e, ast.BinOp) and isinstance(e.op, ast.Add):
+        return _starts_with_dot(e.left)
+    return False
+
+
+# --------------------------------------------------------------------------- local definitions (for relating two variables)
+
+
+def local_defs(repo: Repo, f: FuncInfo) -> dict[str, ast.expr]:
+    """Variables of `f` that certainly equal an expression over other variables of `f` at every use:
+    single-assignment locals, and the targets of a tuple-unpacking loop expressed through a sibling target
+    (`for m, prefix, alias in [(x, f"{x}.", a[x]) for x in ..]`  gives  prefix = f"{m}.")."""
+    key = ("local_defs", id(repo), f.fq)
+    if key in _cache:
+        return _cache[key]
+    out: dict[str, ast.expr] = {}
+    _cache[key] = out
+    if isinstance(f.node, ast.Lambda):
+        return out
+    stores: dict[str, int] = {}
+    for n in own_nodes(f.node):
+        if isinstance(n, ast.Name) and isinstance(n.ctx, ast.Store):
+            stores[n.id] = stores.get(n.id, 0) + 1
+    O = origins(repo)
+    for n in own_nodes(f.node):
+        if isinstance(n, ast.Assign) and len(n.targets) == 1 and isinstance(n.targets[0], ast.Name):
+            v = n.targets[0].id
+            if stores.get(v) == 1 and v not in f.param_names:
+                out[v] = n.value
+        if isinstance(n, ast.NamedExpr) and isinstance(n.target, ast.Name) and stores.get(n.target.id) == 1 and n.target.id not in f.param_names:
+            out[n.target.id] = n.value
+        tgt_it = None
+        if isinstance(n, (ast.For, ast.AsyncFor)):
+            tgt_it = (n.target, n.iter)
+        elif isinstance(n, ast.comprehension):
+            tgt_it = (n.target, n.iter)
+        if tgt_it and isinstance(tgt_it[0], ast.Tuple) and all(isinstance(x, ast.Name) for x in tgt_it[0].elts):
+            names_ = [x.id for x in tgt_it[0].elts]
+            if any(stores.get(v) != 1 for v in names_):
+                continue
+            # the tuple expressions the elements come from
+            leaves = O.elements(f, tgt_it[1])
+            if len(leaves) != 1 or leaves[0][2] != "value" or not isinstance(leaves[0][1], ast.Tuple) or len(leaves[0][1].elts) != len(names_):
+                continue
+            exprs = list(leaves[0][1].elts)
+            env = {e.id: ast.Name(id=names_[i], ctx=ast.Load()) for i, e in enumerate(exprs) if isinstance(e, ast.Name)}
+            for i, e in enumerate(exprs):
+                if isinstance(e, ast.Name):
+                    continue
+                free = {x.id for x in ast.walk(e) if isinstance(x, ast.Name) and isinstance(x.ctx, ast.Load)}
+                # only definitions that are closed over the sibling targets (and names with the same meaning in g and f)
+                if free and free <= set(env):
+                    out[names_[i]] = _substitute(e, env)
+    return out
+
+
+def _expand(repo: Repo, f: FuncInfo, e: ast.expr, depth: int = 0) -> ast.expr:
+    if depth < 4 and isinstance(e, ast.Name):
+        d = local_defs(repo, f).get(e.id)
+        if d is None and f.outer is not None and not _is_local(f, e.id):
+            d = local_defs(repo, f.outer).get(e.id)
+        if d is not None and isinstance(d, (ast.JoinedStr, ast.BinOp, ast.Name, ast.Subscript)):
+            return _expand(repo, f, d, depth + 1)
+    if depth < 4 and isinstance(e, ast.Subscript) and isinstance(e.value, ast.Name) and not isinstance(e.slice, ast.Slice):
+        # prefixes[m] with prefixes = {k: k + "." for k in ..}  is  m + "."
+        d = local_defs(repo, f).get(e.value.id)
+        if d is None and f.outer is not None and not _is_local(f, e.value.id):
+            d = local_defs(repo, f.outer).get(e.value.id)
+        if isinstance(d, ast.DictComp) and isinstance(d.key, ast.Name) and len(d.generators) == 1:
+            free = {x.id for x in ast.walk(d.value) if isinstance(x, ast.Name) and isinstance(x.ctx, ast.Load)}
+            if free <= {d.key.id}:
+                return _substitute(d.value, {d.key.id: e.slice})
+    return e
+
+
+def _is_dotted_form(e: ast.expr, others: set[str]) -> bool:
+    """`o + "."` / f"{o}." for an o in `others`."""
+    if isinstance(e, ast.JoinedStr) and len(e.values) == 2 and isinstance(e.values[0], ast.FormattedValue) and _const_str(e.values[1]) == ".":
+        v = e.values[0].value
+        if isinstance(v, ast.Call) and _call_name(v) == "str" and len(v.args) == 1:
+            v = v.args[0]
+        return norm(v) in others and e.values[0].conversion in (-1, 115) and e.values[0].format_spec is None
+    if isinstance(e, ast.BinOp) and isinstance(e.op, ast.Add) and _const_str(e.right) == ".":
+        return norm(e.left) in others
+    if isinstance(e, ast.BinOp) and isinstance(e.op, ast.Mod) and _const_str(e.left) == "%s.":
+        r = e.right.elts[0] if isinstance(e.right, ast.Tuple) and len(e.right.elts) == 1 else e.right
+        return norm(r) in others
+    if isinstance(e, ast.Call) and isinstance(e.func, ast.Attribute) and e.func.attr == "format" and _const_str(e.func.value) in ("{}.", "{0}.") and len(e.args) == 1 and not e.keywords:
+        return norm(e.args[0]) in others
+    if isinstance(e, ast.Call) and isinstance(e.func, ast.Attribute) and e.func.attr == "join" and _const_str(e.func.value) == "." and len(e.args) == 1 and isinstance(e.args[0], (ast.List, ast.Tuple)) and len(e.args[0].elts) == 2 and _const_str(e.args[0].elts[1]) == "":
+        return norm(e.args[0].elts[0]) in others
+    return False
 
 
 def _parse_atom(text: str) -> ast.expr | None:
@@ -358,14 +1413,20 @@ def _parse_atom(text: str) -> ast.expr | None:
         return None
 
 
-def _relation_atoms(repo: Repo, f: FuncInfo, formula, hay: str, others: set[str]):
+def _unbool(e: ast.expr | None) -> ast.expr | None:
+    return e.args[0] if isinstance(e, ast.Call) and isinstance(e.func, ast.Name) and e.func.id == "bool" and len(e.args) == 1 else e
+
+
+def _relation_atoms(repo: Repo, f: FuncInfo, formula, hay: str, others: set[str], _depth: int = 0):
     """Atoms of `formula` relating `hay` to one of `others`: (safe, raw) lists of formulas.
 
     safe: hay == o, hay.startswith(<o + '.'>);  raw: hay.startswith(o)
     """
-    from core.guards import atom as mk, atoms_of
+    from core.guards import atom as mk, atoms_of, f_and, f_not
 
     safe, raw = [], []
+    heads: dict[str, object] = {}
+    seps: dict[str, object] = {}
     for a in atoms_of(formula):
         e = _parse_atom(a)
         if e is None:
@@ -374,121 +1435,134 @@ def _relation_atoms(repo: Repo, f: FuncInfo, formula, hay: str, others: set[str]
             l, r = norm(e.left), norm(e.comparators[0])
             if (l == hay and r in others) or (r == hay and l in others):
                 safe.append(mk(a))
-        inner = e.args[0] if isinstance(e, ast.Call) and isinstance(e.func, ast.Name) and e.func.id == "bool" and len(e.args) == 1 else e
+            # positions / parts relative to a prefix that ends in '.':  H.find(o + ".") == 0,  H.partition(o + ".")[0] == ""
+            try:
+                x = _expand_names(repo, f, e)
+            except Exception:  # noqa: BLE001
+                x = e
+            for side, other_side in ((x.left, x.comparators[0]), (x.comparators[0], x.left)):
+                if isinstance(side, ast.Call) and isinstance(side.func, ast.Attribute) and side.func.attr in ("find", "index") and side.args and " ".join(ast.unparse(side.func.value).split()) == hay and _is_dotted_form(side.args[0], others) and isinstance(other_side, ast.Constant) and other_side.value == 0 and other_side.value is not False:
+                    safe.append(mk(a))
+                if isinstance(side, ast.Subscript) and isinstance(side.slice, ast.Constant) and side.slice.value in (0, 1) and isinstance(side.value, ast.Call) and isinstance(side.value.func, ast.Attribute) and side.value.func.attr == "partition" and side.value.args and " ".join(ast.unparse(side.value.func.value).split()) == hay and _is_dotted_form(side.value.args[0], others) and _const_str(other_side) == "":
+                    (heads if side.slice.value == 0 else seps)[norm(side.value)] = mk(a)
+        inner = _unbool(e)
         if isinstance(inner, ast.Call) and isinstance(inner.func, ast.Attribute) and inner.func.attr == "startswith" and norm(inner.func.value) == hay and inner.args:
             nd = inner.args[0]
-            mentioned = {x.id for x in ast.walk(nd) if isinstance(x, ast.Name)} | {norm(x) for x in ast.walk(nd) if isinstance(x, ast.Attribute)}
             if norm(nd) in others:
-                st = dot_status(repo, f, nd)
+                st = dot_status(repo, f, nd) if isinstance(nd, ast.Name) else "bare"
+                # the other string itself is the prefix: only safe if that string carries the separator (then len() includes it)
                 (safe if st == "dot" else raw).append(mk(a))
-            elif mentioned & others and dot_status(repo, f, nd) == "dot":
+            elif _is_dotted_form(_expand(repo, f, nd), others):
                 safe.append(mk(a))
+        elif isinstance(inner, ast.Call) and not (isinstance(inner.func, ast.Attribute) and inner.func.attr in STR_REL_METHODS):
+            try:
+                if _relation_call(repo, f, inner, hay, others, _depth) or _relation_call(repo, f, _expand_names(repo, f, inner), hay, others, _depth):
+                    safe.append(mk(a))
+                elif any(_component_prefix_expr(repo, f, _expand_names(repo, f, inner), hay, o) for o in sorted(others)):
+                    safe.append(mk(a))
+            except RecursionError:
+                raise
+            except Exception:  # noqa: BLE001
+                pass
+    for k, head_empty in heads.items():
+        if k in seps:
+            safe.append(f_and([head_empty, f_not(seps[k])]))  # the dotted prefix was found, and right at the beginning
     return safe, raw
 
 
-def _site_facts(repo: Repo, f: FuncInfo, node: ast.AST, other: str):
-    """Path condition of `node` (private helper predicates inlined) plus what `X = next(v for v in .. if test(v))` establishes for X."""
-    from core.guards import f_and, to_formula
+def _selected_from(repo: Repo, f: FuncInfo, name: str) -> tuple[str, list[ast.expr], bool] | None:
+    """`name` is one element of a filtered collection - `next(v for v in xs if c(v))`, `[v for v in xs if c(v)][0]`,
+    `max((v for ..), key=len)`, `next(filter(pred, xs), None)`, also through an intermediate local: the (variable, conditions that
+    hold for it, whether it may be None instead)."""
+    d = local_defs(repo, f).get(name)
+    if d is None:
+        e0 = _parse_atom(name)  # not a local: the expression itself (`return next((c for c in cs if ..), None)`)
+        d = e0 if isinstance(e0, (ast.Call, ast.Subscript)) else None
+    maybe_none = False
+    for _ in range(6):
+        if d is None:
+            return None
+        if isinstance(d, ast.Call) and isinstance(d.func, ast.Name) and _call_name(d) in ("next", "min", "max", "sorted", "list", "tuple", "reversed", "iter") and d.args:
+            if _call_name(d) == "next" and len(d.args) == 2:
+                if not (isinstance(d.args[1], ast.Constant) and d.args[1].value is None):
+                    return None
+                maybe_none = True
+            for k in d.keywords:
+                if k.arg == "default":
+                    if not (isinstance(k.value, ast.Constant) and k.value.value is None):
+                        return None
+                    maybe_none = True
+            d = d.args[0]
+        elif isinstance(d, ast.Subscript):
+            d = d.value
+        elif isinstance(d, ast.Call) and _call_name(d) in ("pop", "popleft") and isinstance(d.func, ast.Attribute):
+            d = d.func.value
+        elif isinstance(d, ast.Name):
+            d = local_defs(repo, f).get(d.id)
+        else:
+            break
+    if isinstance(d, (ast.GeneratorExp, ast.ListComp, ast.SetComp)) and len(d.generators) == 1 and isinstance(d.elt, ast.Name) and dotted(d.generators[0].target) == d.elt.id:
+        return d.elt.id, list(d.generators[0].ifs), maybe_none
+    if isinstance(d, ast.Call) and _call_name(d) == "filter" and len(d.args) == 2:
+        pred = d.args[0]
+        if isinstance(pred, ast.Name):
+            ld = local_defs(repo, f).get(pred.id)
+            if isinstance(ld, ast.Lambda):
+                pred = ld
+            else:
+                nested = [g for g in f.module.all_funcs if g.outer is f and g.name == pred.id and isinstance(g.node, ast.FunctionDef)]
+                if len(nested) == 1 and len(nested[0].param_names) == 1:
+                    body = [x for x in nested[0].node.body if not (isinstance(x, ast.Expr) and isinstance(x.value, ast.Constant))]
+                    if len(body) == 1 and isinstance(body[0], ast.Return) and body[0].value is not None:
+                        return nested[0].param_names[0], [body[0].value], maybe_none
+        if isinstance(pred, ast.Lambda) and len(pred.args.args) == 1:
+            return pred.args.args[0].arg, [pred.body], maybe_none
+        if isinstance(pred, ast.Call) and _call_name(pred) == "partial" and pred.args and not pred.keywords:
+            v = "_selected_element"
+            return v, [ast.Call(func=_clone(pred.args[0]), args=[*[_clone(a) for a in pred.args[1:]], ast.Name(id=v, ctx=ast.Load())], keywords=[])], maybe_none
+        if isinstance(pred, (ast.Name, ast.Attribute)):
+            v = "_selected_element"
+            return v, [ast.Call(func=_clone(pred), args=[ast.Name(id=v, ctx=ast.Load())], keywords=[])], maybe_none
+    return None
+
+
+def _site_facts(repo: Repo, f: FuncInfo, node: ast.AST, other: str, assume_not_none: bool = False):
+    """Path condition of `node` (private helper predicates inlined) plus what selecting X from a filtered collection
+    (`X = next(v for v in .. if test(v))`, `X = [v for v in .. if test(v)][0]`) establishes for X."""
+    from core.guards import atom as mk, f_and, f_or, to_formula
+
     from .common import copy_prop, guard_formula
 
-    facts = [guard_formula(f, node)]
+    facts = [_guard(f, node)]
     others = {other}
     if not isinstance(f.node, ast.Lambda):
-        for a_ in own_nodes(f.node):
-            if isinstance(a_, ast.Assign) and dotted(a_.targets[0]) == other and isinstance(a_.value, ast.Call) and dotted(a_.value.func) == "next" and a_.value.args and isinstance(a_.value.args[0], ast.GeneratorExp):
-                gen = a_.value.args[0]
-                if isinstance(gen.elt, ast.Name) and len(gen.generators) == 1:
-                    v = gen.elt.id
-                    others.add(v)
-                    for cond in gen.generators[0].ifs:
-                        facts.append(to_formula(cond, copy_prop(f)))
+        base, _, field_path = other.partition(".")
+        sel = _selected_from(repo, f, other)
+        selected_var = other
+        if sel is None and field_path and base.isidentifier():
+            # a field of the selected element: `alias = next(a for a in aliases if name == a.module or ..)` ... `name[len(alias.module):]`
+            sel = _selected_from(repo, f, base)
+            selected_var = base
+        if sel is not None:
+            v, conds_, maybe_none = sel
+            others.add(v if selected_var == other else f"{v}.{field_path}")
+            held = f_and([to_formula(cond, copy_prop(f)) for cond in conds_])
+            facts.append(f_or([mk(f"{selected_var} is None"), held]) if maybe_none and not assume_not_none else held)
     return f_and(facts), others
-
-
-def _ancestor_or_self(repo: Repo, f: FuncInfo, e: ast.expr, hay: str, depth: int = 0) -> bool:
-    """`e` is `hay` itself or an element of get_parent_modules(hay) (possibly None on other paths)."""
-    if depth > 4:
-        return False
-    if norm(e) == hay:
-        return True
-    if isinstance(e, ast.Constant) and e.value is None:
-        return True
-
-    def lineage(g: FuncInfo, x: ast.expr, h: str, d: int) -> bool:
-        if d > 5:
-            return False
-        if isinstance(x, ast.List):
-            return all(norm(el) == h for el in x.elts)
-        if isinstance(x, ast.BinOp) and isinstance(x.op, ast.Add):
-            return lineage(g, x.left, h, d + 1) and lineage(g, x.right, h, d + 1)
-        if isinstance(x, ast.Subscript) and isinstance(x.slice, ast.Slice):
-            return lineage(g, x.value, h, d + 1)
-        if isinstance(x, ast.Starred):
-            return lineage(g, x.value, h, d + 1)
-        if isinstance(x, ast.Call):
-            fn = x.func
-            nm = fn.id if isinstance(fn, ast.Name) else (fn.attr if isinstance(fn, ast.Attribute) else "")
-            if nm == "get_parent_modules" and x.args and norm(x.args[0]) == h:
-                return True
-            if nm in ("reversed", "list", "sorted", "tuple") and x.args:
-                return lineage(g, x.args[0], h, d + 1)
-            return False
-        if isinstance(x, ast.Name) and not isinstance(g.node, ast.Lambda):
-            stores = [n for n in own_nodes(g.node) if isinstance(n, ast.Name) and n.id == x.id and isinstance(n.ctx, ast.Store)]
-            assigns = [n for n in own_nodes(g.node) if isinstance(n, ast.Assign) and len(n.targets) == 1 and dotted(n.targets[0]) == x.id]
-            if len(stores) == 1 and len(assigns) == 1:
-                return lineage(g, assigns[0].value, h, d + 1)
-        return False
-
-    if isinstance(e, ast.Name) and not isinstance(f.node, ast.Lambda):
-        stores = [n for n in own_nodes(f.node) if isinstance(n, ast.Name) and n.id == e.id and isinstance(n.ctx, ast.Store)]
-        if len(stores) != 1:
-            return False
-        for n in own_nodes(f.node):
-            if isinstance(n, ast.Assign) and len(n.targets) == 1 and dotted(n.targets[0]) == e.id:
-                v = n.value
-                if isinstance(v, ast.Call) and dotted(v.func) == "next" and v.args and isinstance(v.args[0], ast.GeneratorExp) and len(v.args[0].generators) == 1 and isinstance(v.args[0].elt, ast.Name) and dotted(v.args[0].generators[0].target) == v.args[0].elt.id:
-                    return lineage(f, v.args[0].generators[0].iter, hay, 0)
-                if isinstance(v, ast.Call):
-                    T = types_of(repo)
-                    try:
-                        cs, how = T.callees(f, v, byname_fallback=False)
-                    except Exception:  # noqa: BLE001
-                        cs, how = [], ""
-                    if len(cs) == 1 and how == "repo":
-                        g = cs[0]
-                        # which parameter receives hay?
-                        pos = g.param_names
-                        if g.cls is not None and g.outer is None and not g.is_staticmethod:
-                            pos = pos[1:]
-                        hp = None
-                        for i, a in enumerate(v.args):
-                            if norm(a) == hay and i < len(pos):
-                                hp = pos[i]
-                        for k in v.keywords:
-                            if norm(k.value) == hay:
-                                hp = k.arg
-                        if hp is None:
-                            return False
-                        rets = [r for r in own_nodes(g.node) if isinstance(r, ast.Return) and r.value is not None]
-                        return bool(rets) and all(_ancestor_or_self(repo, g, r.value, hp, depth + 1) for r in rets)
-                return _ancestor_or_self(repo, f, v, hay, depth + 1)
-            if isinstance(n, (ast.For, ast.AsyncFor)) and isinstance(n.target, ast.Name) and n.target.id == e.id:
-                return lineage(f, n.iter, hay, 0)
-    return False
 
 
 def _boundary_predicate(repo: Repo, f: FuncInfo, hay: str = "", needle: str = "") -> bool:
     """`f` is a predicate whose truthy result implies, for every raw `H.startswith(N)` it evaluates, that the character after
     the prefix is '.' or absent (`H[len(N):] == ""`, `H[len(N):][0] == "."`, `H[len(N):].startswith(".")`, `H[len(N):][:1] in ("", ".")`)."""
     from core.guards import atom as mk, atoms_of, f_not, f_or, implies
+
     from .common import bool_inliner
 
     if isinstance(f.node, ast.Lambda):
         return False
+    if any(isinstance(x, (ast.Raise, ast.Yield, ast.YieldFrom, ast.AugAssign, ast.Delete, ast.Global, ast.Nonlocal)) or (isinstance(x, ast.Expr) and not isinstance(x.value, ast.Constant)) or (isinstance(x, ast.Assign) and not all(isinstance(t, ast.Name) for t in x.targets)) for x in own_nodes(f.node)):
+        return False  # a predicate decides by its result only; anything else it does is a consequence of the raw test
     key = ("boundary_pred", id(repo), f.fq)
-    from .common import _cache
-
     if key in _cache:
         return _cache[key]
     inl = bool_inliner(repo)
@@ -502,7 +1576,7 @@ def _boundary_predicate(repo: Repo, f: FuncInfo, hay: str = "", needle: str = ""
         parsed = [(a, _parse_atom(a)) for a in atoms_of(s)]
         raws = []
         for a, e in parsed:
-            inner = e.args[0] if isinstance(e, ast.Call) and isinstance(e.func, ast.Name) and e.func.id == "bool" and len(e.args) == 1 else e
+            inner = _unbool(e)
             if isinstance(inner, ast.Call) and isinstance(inner.func, ast.Attribute) and inner.func.attr == "startswith" and inner.args:
                 nd = inner.args[0]
                 if not (isinstance(nd, ast.Constant) and nd.value == "."):
@@ -510,11 +1584,12 @@ def _boundary_predicate(repo: Repo, f: FuncInfo, hay: str = "", needle: str = ""
         ok = bool(raws)
         for a_raw, H, N in raws:
             rest = f"{H}[len({N}):]"
+            nxt = f"{H}[len({N})]"
             empty_t, empty_f, dot = [], [], []
             for a, e in parsed:
                 if e is None:
                     continue
-                inner = e.args[0] if isinstance(e, ast.Call) and isinstance(e.func, ast.Name) and e.func.id == "bool" and len(e.args) == 1 else e
+                inner = _unbool(e)
                 if isinstance(inner, ast.Call) and isinstance(inner.func, ast.Attribute) and inner.func.attr == "startswith" and inner.args and norm(inner.func.value) == rest and isinstance(inner.args[0], ast.Constant) and inner.args[0].value == ".":
                     dot.append(mk(a))
                 if isinstance(e, ast.Call) and isinstance(e.func, ast.Name) and e.func.id == "bool" and norm(inner) == rest:
@@ -526,18 +1601,1646 @@ def _boundary_predicate(repo: Repo, f: FuncInfo, hay: str = "", needle: str = ""
                             empty_t.append(mk(a))
                         if isinstance(y, ast.Constant) and y.value == "." and isinstance(x, ast.Subscript) and norm(x.value) == rest and norm(x.slice) in ("0", ":1"):
                             dot.append(mk(a))
+                        if isinstance(y, ast.Constant) and y.value == "." and norm(x) == nxt:
+                            dot.append(mk(a))
+                        if norm(x) == H and norm(y) == N:
+                            empty_t.append(mk(a))  # H == N: nothing follows the prefix
                 if isinstance(e, ast.Compare) and len(e.ops) == 1 and isinstance(e.ops[0], ast.In) and isinstance(e.left, ast.Subscript) and norm(e.left.value) == rest and norm(e.left.slice) == ":1":
                     c = e.comparators[0]
                     if isinstance(c, (ast.Tuple, ast.List, ast.Set)) and len(c.elts) == 2 and sorted(x.value for x in c.elts if isinstance(x, ast.Constant)) == ["", "."]:
                         dot.append(mk(a))
             boundary = f_or([*empty_t, *[f_not(x) for x in empty_f], *dot])
-            if not (dot and implies(s, f_or([f_not(mk(a_raw)), boundary]))):
+            try:
+                if not (dot and implies(s, f_or([f_not(mk(a_raw)), boundary]))):
+                    ok = False
+            except AnalysisError:
                 ok = False
     _cache[key] = ok
     return ok
 
 
+# --------------------------------------------------------------------------- user-supplied regular expressions
+
+
+REGEX_FLAG = "identifier_is_regex"  # public property of every module filter: True for filters whose identifier is a user regex
+
+
+def _flag_holds(g: FuncInfo, at: ast.AST, recv: str) -> bool:
+    """`<recv>.identifier_is_regex` is among the conditions under which `at` is evaluated."""
+
+    def positive(e: ast.expr, pol: bool) -> bool:
+        if isinstance(e, ast.UnaryOp) and isinstance(e.op, ast.Not):
+            return positive(e.operand, not pol)
+        if isinstance(e, ast.BoolOp) and isinstance(e.op, ast.And) and pol:
+            return any(positive(v, True) for v in e.values)
+        if isinstance(e, ast.BoolOp) and isinstance(e.op, ast.Or) and not pol:
+            return any(positive(v, False) for v in e.values)
+        return pol and isinstance(e, ast.Attribute) and e.attr == REGEX_FLAG and norm(e.value) == recv
+
+    try:
+        return any(positive(e, pol) for e, pol in conds(g, at))
+    except Exception:  # noqa: BLE001
+        return False
+
+
+def _regex_typed(T: Types, g: FuncInfo, e: ast.expr, elements: bool = False) -> bool:
+    t = T.expr(g, e)
+    if all(m == ("unknown",) for m in members(t)) and isinstance(e, ast.Name) and isinstance(g.node, ast.Lambda) and e.id in g.param_names:
+        it = _lambda_iterable(g)
+        if it is not None:
+            t = elem_type(T.expr(g.outer, it))
+    if elements:
+        t = elem_type(t)
+    ms = members(t)
+    return bool(ms) and all(m[0] == "cls" and m[1].rsplit(".", 1)[-1] == REGEX_FILTER for m in ms)
+
+
+def _is_regex_filter(repo: Repo, g: FuncInfo, e: ast.expr, at: ast.AST, depth: int = 0) -> bool:
+    """The filter object `e` (used at node `at` of `g`) is a regex filter: by static type, or because it was selected by the
+    public flag `identifier_is_regex` (guard on the path, filtered comprehension / loop, helper returning the selected ones)."""
+    T = types_of(repo)
+    if depth > 7:
+        return False
+    if _regex_typed(T, g, e) or _flag_holds(g, at, norm(e)):
+        return True
+    if isinstance(e, ast.Call) and _call_name(e) == "cast" and len(e.args) == 2:
+        return norm(e.args[0]).rsplit(".", 1)[-1].strip("'\"") == REGEX_FILTER or _is_regex_filter(repo, g, e.args[1], at, depth + 1)
+    if not isinstance(e, ast.Name):
+        return False
+    if isinstance(g.node, ast.Lambda):
+        if e.id in g.param_names:
+            it = _lambda_iterable(g)
+            return it is not None and g.outer is not None and _all_regex_filters(repo, g.outer, it, depth + 1)
+        return g.outer is not None and _is_regex_filter(repo, g.outer, e, g.node, depth + 1)
+    binds = origins(repo)._bindings(g, e.id, e)
+    if e.id in g.param_names:
+        if binds:
+            return False
+        args = _callers_args(repo, g, e.id)
+        return bool(args) and all((_all_regex_filters(repo, h, a.value, depth + 1) if isinstance(a, ast.Starred) else _is_regex_filter(repo, h, a, a, depth + 1)) for h, a in args)
+    if not binds:
+        return g.outer is not None and _is_regex_filter(repo, g.outer, e, g.node, depth + 1)
+    for kind, src, pos in binds:
+        if kind == "elem" and not pos:
+            if not _all_regex_filters(repo, g, src, depth + 1):
+                return False
+        elif kind == "value" and not pos:
+            if not _is_regex_filter(repo, g, src, src, depth + 1):
+                return False
+        else:
+            return False
+    return True
+
+
+def _all_regex_filters(repo: Repo, g: FuncInfo, c: ast.expr, depth: int = 0, pos: tuple = ()) -> bool:
+    """Every element of the collection `c` is a regex filter."""
+    T = types_of(repo)
+    if depth > 7:
+        return False
+    if not pos and _regex_typed(T, g, c, elements=True):
+        return True
+    if pos:
+        if isinstance(c, ast.Tuple) and pos[0] < len(c.elts):
+            return _all_regex_filters(repo, g, c.elts[pos[0]], depth + 1, pos[1:])
+    if isinstance(c, ast.Call):
+        nm = _call_name(c)
+        if isinstance(c.func, ast.Name) and nm in WRAPPERS and c.args:
+            return _all_regex_filters(repo, g, c.args[0], depth + 1, pos)
+        if isinstance(c.func, ast.Name) and nm == "filter" and len(c.args) == 2 and not pos:
+            fn = c.args[0]
+            if isinstance(fn, ast.Lambda) and len(fn.args.args) == 1:
+                lf = getattr(fn, "_func", None)
+                if lf is not None and _flag_holds(lf, fn.body, fn.args.args[0].arg) is False:
+                    b = fn.body
+                    if isinstance(b, ast.Attribute) and b.attr == REGEX_FLAG and norm(b.value) == fn.args.args[0].arg:
+                        return True
+            return _all_regex_filters(repo, g, c.args[1], depth + 1)
+        cs = origins(repo)._callees(g, c)
+        if cs:
+            for h in cs:
+                rets = origins(repo)._returns(h)
+                if not rets or not all(_all_regex_filters(repo, h, r, depth + 1, pos) for r in rets):
+                    return False
+            return True
+        return False
+    if isinstance(c, (ast.ListComp, ast.SetComp, ast.GeneratorExp)) and not pos:
+        if isinstance(c.elt, ast.Name):
+            return _is_regex_filter(repo, g, c.elt, c.elt, depth + 1)
+        return _is_regex_filter(repo, g, c.elt, c.elt, depth + 1)
+    if isinstance(c, ast.Subscript) and isinstance(c.slice, ast.Slice):
+        return _all_regex_filters(repo, g, c.value, depth + 1, pos)
+    if isinstance(c, ast.Name) and not isinstance(g.node, ast.Lambda):
+        binds = origins(repo)._bindings(g, c.id, c)
+        if c.id in g.param_names:
+            if binds:
+                return False
+            args = _callers_args(repo, g, c.id)
+            return bool(args) and all(not isinstance(a, ast.Starred) and _all_regex_filters(repo, h, a, depth + 1, pos) for h, a in args)
+        if not binds:
+            return g.outer is not None and _all_regex_filters(repo, g.outer, c, depth + 1, pos)
+        for kind, src, p in binds:
+            if kind != "value":
+                return False
+            if isinstance(src, (ast.List, ast.Set)) and not src.elts or (isinstance(src, ast.Call) and _call_name(src) in ("list", "set") and not src.args):
+                continue  # starts empty: see the mutators below
+            if not _all_regex_filters(repo, g, src, depth + 1, p + pos):
+                return False
+        for n in own_nodes(g.node):
+            if isinstance(n, ast.Call) and isinstance(n.func, ast.Attribute) and isinstance(n.func.value, ast.Name) and n.func.value.id == c.id and n.args:
+                if n.func.attr in ("append", "add") and not _is_regex_filter(repo, g, n.args[0], n, depth + 1):
+                    return False
+                if n.func.attr in ("extend", "update") and not _all_regex_filters(repo, g, n.args[0], depth + 1):
+                    return False
+                if n.func.attr == "insert":
+                    return False
+        return True
+    return False
+
+
+def _user_regex(repo: Repo, f: FuncInfo, pat: ast.expr) -> bool:
+    """The pattern is, unmodified, the identifier of regex filters - recognised by their static type (ModuleNameRegexFilter) or by
+    the public flag `identifier_is_regex` that selected them: a user-supplied regex, matched against names by design."""
+    if isinstance(pat, (ast.JoinedStr, ast.BinOp)):
+        return False
+    work = list(origins(repo).value(f, pat))
+    if not work:
+        return False
+    done = 0
+    while work:
+        g, e, kind = work.pop()
+        done += 1
+        if kind != "value" or done > 60:
+            return False
+        if isinstance(e, ast.Call) and (repo.resolve_name(g.module, e.func) or "") == "re.compile" and e.args:
+            sub = origins(repo).value(g, e.args[0])
+            if not sub:
+                return False
+            work += sub
+            continue
+        if not (isinstance(e, ast.Attribute) and e.attr == "identifier"):
+            return False
+        if not _is_regex_filter(repo, g, e.value, e):
+            return False
+    return True
+
+
+def _pattern_pieces(repo: Repo, f: FuncInfo, pat: ast.expr, depth: int = 0) -> tuple[bool, bool] | None:
+    """(a name enters the pattern un-escaped, a name enters it through re.escape); None if the construction cannot be followed.
+    The flow tags cannot tell `"|".join(map(re.escape, names))` from `"|".join(names)`: collections of filters carry the tag NAME
+    into whatever is built from them."""
+    if depth > 6:
+        return None
+    fl = name_flow(repo)
+    raw = esc = False
+
+    def merge(r):
+        nonlocal raw, esc
+        if r is None:
+            return False
+        raw, esc = raw or r[0], esc or r[1]
+        return True
+
+    e = pat
+    if isinstance(e, ast.Constant):
+        return False, False
+    if isinstance(e, ast.JoinedStr):
+        for v in e.values:
+            if isinstance(v, ast.FormattedValue) and not merge(_pattern_pieces(repo, f, v.value, depth + 1)):
+                return None
+        return raw, esc
+    if isinstance(e, ast.BinOp) and isinstance(e.op, (ast.Add, ast.Mod)):
+        parts = [e.left, *(e.right.elts if isinstance(e.op, ast.Mod) and isinstance(e.right, ast.Tuple) else [e.right])]
+        for x in parts:
+            if not merge(_pattern_pieces(repo, f, x, depth + 1)):
+                return None
+        return raw, esc
+    if isinstance(e, ast.Call):
+        fq = repo.resolve_name(f.module, e.func) or "" if isinstance(e.func, (ast.Name, ast.Attribute)) else ""
+        if fq == "re.escape":
+            return False, True
+        if fq == "re.compile" and e.args:
+            return _pattern_pieces(repo, f, e.args[0], depth + 1)
+        if isinstance(e.func, ast.Attribute) and e.func.attr == "format" and _const_str(e.func.value) is not None:
+            for x in [*e.args, *[k.value for k in e.keywords]]:
+                if not merge(_pattern_pieces(repo, f, x, depth + 1)):
+                    return None
+            return raw, esc
+        if isinstance(e.func, ast.Attribute) and e.func.attr == "join" and _const_str(e.func.value) is not None and len(e.args) == 1:
+            for g, x, kind in origins(repo).elements(f, e.args[0]):
+                if kind != "value" or not merge(_pattern_pieces(repo, g, x, depth + 1)):
+                    return None
+            return raw, esc
+        if isinstance(e.func, ast.Name) and e.func.id == "str" and len(e.args) == 1:
+            return _pattern_pieces(repo, f, e.args[0], depth + 1)
+    if isinstance(e, (ast.Name, ast.Attribute, ast.Subscript, ast.Call, ast.IfExp)):
+        leaves = origins(repo).value(f, e)
+        if len(leaves) == 1 and leaves[0][1] is e:
+            tags = set(fl.tags(e))
+            if "NAME" in tags:
+                return True, False
+            return False, "ESC:NAME" in tags
+        for g, x, kind in leaves:
+            if kind != "value":
+                return None
+            if x is e:
+                return None
+            if not merge(_pattern_pieces(repo, g, x, depth + 1)):
+                return None
+        return raw, esc
+    return None
+
+
+# --------------------------------------------------------------------------- cutting a name at an index
+
+
+def _strip_offset(e: ast.expr) -> tuple[ast.expr, int | None]:
+    """(core, k) for `core + k` / `core - k` / `k + core`, k an int constant; (e, 0) otherwise."""
+    if isinstance(e, ast.BinOp) and isinstance(e.op, (ast.Add, ast.Sub)):
+        l, r = e.left, e.right
+        if isinstance(r, ast.Constant) and isinstance(r.value, int):
+            return l, r.value if isinstance(e.op, ast.Add) else -r.value
+        if isinstance(l, ast.Constant) and isinstance(l.value, int) and isinstance(e.op, ast.Add):
+            return r, l.value
+        return e, None
+    return e, 0
+
+
+def _loop_binding(f: FuncInfo, name: str, use: ast.AST | None = None):
+    """(target, iter, owner) of the for statement / comprehension generator that binds `name` - the one enclosing `use`, or the only one."""
+    if isinstance(f.node, ast.Lambda):
+        return None
+    if use is not None:
+        try:
+            prev = use
+            for a in ancestors(use):
+                if a is f.node:
+                    break
+                if isinstance(a, (ast.ListComp, ast.SetComp, ast.GeneratorExp, ast.DictComp)):
+                    for g in a.generators:
+                        if any(isinstance(x, ast.Name) and x.id == name for x in ast.walk(g.target)):
+                            return g.target, g.iter, g
+                if isinstance(a, (ast.For, ast.AsyncFor)) and any(isinstance(x, ast.Name) and x.id == name for x in ast.walk(a.target)) and any(prev is st_ for st_ in a.body):
+                    if not any(isinstance(x, ast.Name) and x.id == name and isinstance(x.ctx, ast.Store) for st_ in a.body for x in ast.walk(st_)):
+                        return a.target, a.iter, a
+                prev = a
+        except Exception:  # noqa: BLE001
+            pass
+    stores = [n for n in own_nodes(f.node) if isinstance(n, ast.Name) and n.id == name and isinstance(n.ctx, ast.Store)]
+    if len(stores) != 1 or name in f.param_names:
+        return None
+    for n in own_nodes(f.node):
+        if isinstance(n, (ast.For, ast.AsyncFor, ast.comprehension)) and any(x is stores[0] for x in ast.walk(n.target)):
+            return n.target, n.iter, n
+    return None
+
+
+def _found_guard(repo: Repo, f: FuncInfo, node: ast.AST, hay: str, index_texts: set[str]) -> bool:
+    """The path condition of `node` implies that the searched separator was found (index != -1 / '.' in name)."""
+    from core.guards import atom as mk, atoms_of, f_not, f_or, implies
+
+    from .common import guard_formula
+
+    facts = guard_formula(f, node)
+    pos, neg = [], []
+    for a in atoms_of(facts):
+        e = _unbool(_parse_atom(a))
+        if e is None:
+            continue
+        if isinstance(e, ast.Compare) and len(e.ops) == 1:
+            l, op, r = e.left, e.ops[0], e.comparators[0]
+            if isinstance(op, ast.In) and _const_str(l) == "." and norm(r) == hay:
+                pos.append(mk(a))
+                continue
+            for x, y, flip in ((l, r, False), (r, l, True)):
+                xs = {norm(x)} | ({norm(x.target), norm(x.value)} if isinstance(x, ast.NamedExpr) else set())
+                if xs & index_texts and isinstance(y, (ast.Constant, ast.UnaryOp)):
+                    try:
+                        k = ast.literal_eval(y)
+                    except Exception:  # noqa: BLE001
+                        continue
+                    if not isinstance(k, int):
+                        continue
+                    o = type(op)
+                    if flip:
+                        o = {ast.Lt: ast.Gt, ast.Gt: ast.Lt, ast.LtE: ast.GtE, ast.GtE: ast.LtE}.get(o, o)
+                    if (o is ast.GtE and k >= 0) or (o is ast.Gt and k >= -1):
+                        pos.append(mk(a))
+                    elif (o is ast.Eq and k == -1) or (o is ast.Lt and k <= 0) or (o is ast.LtE and k <= -1):
+                        neg.append(mk(a))
+        elif isinstance(e, ast.Call) and _call_name(e) == "count" and isinstance(e.func, ast.Attribute) and norm(e.func.value) == hay and e.args and _const_str(e.args[0]) == ".":
+            pos.append(mk(a))  # truthiness of name.count('.')
+    goal = f_or([*pos, *[f_not(x) for x in neg]])
+    try:
+        return bool(pos or neg) and implies(facts, goal)
+    except AnalysisError:
+        return False
+
+
+def _index_cut(repo: Repo, f: FuncInfo, node: ast.Subscript, bound: ast.expr, is_upper: bool) -> tuple[str, str]:
+    """Verdict for `name[:bound]` / `name[bound:]` where bound is neither a constant nor a len(): the cut must be at a separator."""
+    hay = norm(node.value)
+    texts = {norm(bound)}
+    core, off = _strip_offset(bound)
+    nonneg = False  # max(i, 0): "not found" (-1) becomes the empty prefix, which cuts nothing off a component
+    if isinstance(core, ast.Call) and isinstance(core.func, ast.Name) and core.func.id == "max" and len(core.args) == 2 and not core.keywords and any(isinstance(a, ast.Constant) and a.value == 0 for a in core.args) and off == 0:
+        core = next(a for a in core.args if not (isinstance(a, ast.Constant) and a.value == 0))
+        core, off = _strip_offset(core)
+        nonneg = True
+    if isinstance(core, ast.Name):
+        d = local_defs(repo, f).get(core.id)
+        if d is None and not isinstance(f.node, ast.Lambda) and core.id not in f.param_names:
+            # assigned several times, every time the position of a separator in the same string: `i = s.find("."); while i != -1: ..; i = s.find(".", i + 1)`
+            binds = origins(repo)._bindings(f, core.id)
+            vals = [src for kind, src, p_ in binds if kind == "value" and not p_]
+
+            def sentinel(v: ast.expr) -> bool:
+                try:
+                    return ast.literal_eval(v) in (-1, 0) and not isinstance(ast.literal_eval(v), bool)
+                except Exception:  # noqa: BLE001
+                    return False
+
+            finds = [v for v in vals if isinstance(v, ast.Call) and isinstance(v.func, ast.Attribute) and v.func.attr in ("find", "rfind") and norm(v.func.value) == hay and v.args and _const_str(v.args[0]) == "."]
+            if binds and len(vals) == len(binds) and finds and all(v in finds or sentinel(v) for v in vals):
+                if off == 0 and (nonneg or _found_guard(repo, f, node, hay, {core.id})):
+                    return "safe", "cut at a separator found by find/rfind, reached only when one was found"
+                if off == 1:
+                    return "safe", "cut one past the separator found by find/rfind"
+                if off == 0:
+                    return "unsafe", f"`{norm(node, 60)}`: find('.') is -1 for a name without (further) separator, the slice then cuts off the last character"
+        if d is not None:
+            texts.add(core.id)
+            c2, o2 = _strip_offset(d)
+            if off is not None and o2 is not None:
+                core, off = c2, off + o2
+                texts.add(norm(core))
+    if isinstance(core, ast.Call) and isinstance(core.func, ast.Attribute) and core.func.attr in SEARCH_METHODS and core.args:
+        same = norm(core.func.value) == hay
+        texts.add(norm(core))
+        if _const_str(core.args[0]) != ".":
+            return "unsafe", f"`{norm(node, 60)}` cuts a module name where another string occurs in it, not at a component boundary"
+        if not same:
+            return "unknown", f"`{norm(node, 60)}`: the index was searched in another string (`{norm(core.func.value, 30)}`)"
+        if core.func.attr in ("index", "rindex"):
+            return ("safe", "cut at the position of a separator (index raises when there is none)") if off in (0, 1) else ("unknown", f"`{norm(node, 60)}`: offset {off} from the separator")
+        if off == 1:
+            return "safe", "cut one past the separator found by find/rfind (position 0 when there is none: the whole name)"
+        if off == 0:
+            if nonneg or _found_guard(repo, f, node, hay, texts):
+                return "safe", "cut at the separator found by find/rfind, reached only when one was found"
+            return "unsafe", f"`{norm(node, 60)}`: {core.func.attr}('.') is -1 for a name without separator, the slice then cuts off its last character - the name is walked through its raw string prefixes"
+        return "unknown", f"`{norm(node, 60)}`: offset {off} from the separator"
+    if isinstance(core, ast.Name) and off is not None:
+        lb = _loop_binding(f, core.id, core if parent(core) is not None else node)
+        if lb is not None:
+            tgt, it, owner = lb
+            v = _positions_of(repo, f, node, core.id, tgt, it, hay, off, depth=0)
+            if v is not None:
+                return v
+    if isinstance(core, ast.Call) and isinstance(core.func, ast.Attribute) and core.func.attr in ("start", "end") and not core.args and isinstance(core.func.value, ast.Name) and off == 0:
+        lb = _loop_binding(f, core.func.value.id)
+        src = lb[1] if lb is not None and isinstance(lb[0], ast.Name) else local_defs(repo, f).get(core.func.value.id)
+        if isinstance(src, ast.Call) and (repo.resolve_name(f.module, src.func) or "") in ("re.finditer", "re.search", "re.match") and len(src.args) >= 2 and norm(src.args[1]) == hay:
+            pat = _const_str(src.args[0])
+            if pat in ("\\.", "[.]"):
+                if core.func.attr == "start" or not is_upper:
+                    return "safe", "cut at a position where the regular expression '\\.' matched the separator"
+    return "unknown", f"`{norm(node, 60)}`: cannot establish that the index `{norm(bound, 30)}` is the position of a separator"
+
+
+def _positions_of(repo: Repo, f: FuncInfo, node: ast.AST, var: str, tgt: ast.expr, it: ast.expr, hay: str, off: int, depth: int) -> tuple[str, str] | None:
+    """`var` ranges over character positions of `hay` (enumerate / range(len)) - safe iff a test that the position holds '.'
+    guards `node` (or guarded the collection of the positions)."""
+    from core.guards import atom as mk, atoms_of, f_or, implies
+
+    from .common import guard_formula
+
+    char_var = None
+    positions = False
+    if isinstance(it, ast.Call) and _call_name(it) == "enumerate" and it.args and norm(it.args[0]) == hay and isinstance(tgt, ast.Tuple) and len(tgt.elts) == 2 and isinstance(tgt.elts[0], ast.Name) and tgt.elts[0].id == var:
+        positions = True
+        if isinstance(tgt.elts[1], ast.Name):
+            char_var = tgt.elts[1].id
+    elif isinstance(it, ast.Call) and _call_name(it) == "range" and any(isinstance(c, ast.Call) and _call_name(c) == "len" and c.args and norm(c.args[0]) == hay for a in it.args for c in ast.walk(a)) and isinstance(tgt, ast.Name):
+        positions = True
+    if positions:
+        facts = guard_formula(f, node)
+        good = []
+        for a in atoms_of(facts):
+            e = _parse_atom(a)
+            if isinstance(e, ast.Compare) and len(e.ops) == 1 and isinstance(e.ops[0], ast.Eq):
+                pair = [e.left, e.comparators[0]]
+                sides = {norm(x) for x in pair}
+                if any(_char_value(repo, f, x) == "." for x in pair) and (sides & ({char_var} if char_var else set()) or f"{hay}[{var}]" in sides):
+                    good.append(mk(a))
+        try:
+            if good and off in (0, 1) and implies(facts, f_or(good)):
+                return "safe", "cut at a character position that holds the separator"
+        except AnalysisError:
+            return None
+        return "unsafe", f"`{norm(node, 60)}`: every character position of the name is a cut point (no test that the position holds '.')"
+    if isinstance(tgt, ast.Name) and tgt.id == var and off in (0, 1) and not isinstance(it, ast.Name) and _separator_positions_of(repo, f, it, _canon(repo, f, _parse_atom(hay) or ast.Name(id=hay, ctx=ast.Load()))):
+        return "safe", "cut at one of the separator positions computed by a helper"
+    # positions collected first: `dots = [i for i, c in enumerate(name) if c == "."]` ... `for p in dots: name[:p]`
+    if depth == 0 and isinstance(tgt, ast.Name) and isinstance(it, ast.Name):
+        d = local_defs(repo, f).get(it.id)
+        if isinstance(d, (ast.ListComp, ast.GeneratorExp, ast.SetComp)) and len(d.generators) == 1 and isinstance(d.elt, ast.Name):
+            g = d.generators[0]
+            v = _positions_of(repo, f, d.elt, d.elt.id, g.target, g.iter, hay, off, depth=1)
+            if v is not None:
+                return (v[0], v[1] if v[0] == "safe" else f"`{norm(node, 60)}`: the positions in `{it.id}` are not tested to hold '.'")
+    return None
+
+
+def _len_calls(repo: Repo, f: FuncInfo, b: ast.expr | None) -> list[ast.Call]:
+    """The len(..) calls a slice bound is computed from (directly or through a single-assignment local)."""
+    if b is None:
+        return []
+    out = [c for c in ast.walk(b) if isinstance(c, ast.Call) and isinstance(c.func, ast.Name) and c.func.id == "len" and c.args]
+    for x in ast.walk(b):
+        if isinstance(x, ast.Name):
+            d = local_defs(repo, f).get(x.id)
+            if d is not None and not isinstance(d, (ast.ListComp, ast.GeneratorExp, ast.SetComp, ast.DictComp)):
+                out += [c for c in ast.walk(d) if isinstance(c, ast.Call) and isinstance(c.func, ast.Name) and c.func.id == "len" and c.args]
+    return out
+
+
+def _len_bound(repo: Repo, f: FuncInfo, b: ast.expr | None, hay: str = "") -> ast.Call | None:
+    """The len(other) call a slice bound is computed from; lengths of the sliced string itself do not count."""
+    return next((c for c in _len_calls(repo, f, b) if norm(c.args[0]) != hay), None)
+
+
+def _slice_as_prefix_test(repo: Repo, f: FuncInfo, n: ast.Subscript) -> tuple[str, str] | None:
+    """`name[:len(p)] == p` is `name.startswith(p)`, `name[:len(o) + 1] == o + "."` is `name.startswith(o + ".")`,
+    `name[-len(s):] == s` is `name.endswith(s)`: classified like the method."""
+    cmp_ = parent(n)
+    if not (isinstance(cmp_, ast.Compare) and len(cmp_.ops) == 1 and isinstance(cmp_.ops[0], (ast.Eq, ast.NotEq))):
+        return None
+    other_side = cmp_.comparators[0] if cmp_.left is n else cmp_.left
+    if other_side is n:
+        return None
+    lo, hi = n.slice.lower, n.slice.upper
+    side = _expand(repo, f, other_side)
+    if lo is None and hi is not None:
+        core, off = _strip_offset(hi)
+        if isinstance(core, ast.Name):
+            d = local_defs(repo, f).get(core.id)
+            if d is not None:
+                c2, o2 = _strip_offset(d)
+                if off is not None and o2 is not None:
+                    core, off = c2, off + o2
+        if isinstance(core, ast.Call) and _call_name(core) == "len" and core.args and off is not None:
+            p_ = core.args[0]
+            if off == 0 and norm(p_) in (norm(other_side), norm(side)):
+                st = needle_status(repo, f, other_side)
+                if st == "dot":
+                    return "safe", "prefix compared by slicing; the prefix ends in '.'"
+                if st in ("bare", "unknown"):
+                    reason = _raw_test_is_guarded(repo, f, cmp_, n.value, other_side) if isinstance(cmp_.ops[0], ast.Eq) else None
+                    if reason is not None:
+                        return "safe", reason
+                if st == "bare":
+                    return "unsafe", f"`{norm(cmp_, 80)}`: raw string prefix test (by slicing) on a module name - 'pkg.ab' counts as part of 'pkg.a'"
+                return None
+            if off == 1 and _is_dotted_form(side, {norm(p_)}):
+                return "safe", "prefix plus separator compared by slicing (whole dotted components)"
+    if hi is None and isinstance(lo, ast.UnaryOp) and isinstance(lo.op, ast.USub):
+        core = lo.operand
+        if isinstance(core, ast.Call) and _call_name(core) == "len" and core.args and norm(core.args[0]) in (norm(other_side), norm(side)):
+            if _starts_with_dot(side):
+                return "safe", "suffix compared by slicing; it starts at a '.' boundary"
+            return "unsafe", f"`{norm(cmp_, 80)}`: raw string suffix test (by slicing) on a module name"
+    return None
+
+
+# --------------------------------------------------------------------------- boundary evidence
+#
+# A raw prefix test (`H.startswith(N)`, `H[:len(N)] == N`) or a cut at len(N) is harmless where it is known that nothing or the
+# separator follows the first len(N) characters of H. This knowledge ("evidence") may sit anywhere: in the conditions on the path
+# to the test, in a nested `if` around everything that depends on the test, in the returned value of a predicate.
+
+
+def _value_defs(repo: Repo, f: FuncInfo) -> dict[str, ast.expr]:
+    """local_defs plus the targets of a tuple assignment (`head, sep, tail = x.partition(".")` gives head = x.partition(".")[0])."""
+    key = ("value_defs", id(repo), f.fq)
+    if key in _cache:
+        return _cache[key]
+    out = dict(local_defs(repo, f))
+    if not isinstance(f.node, ast.Lambda):
+        stores: dict[str, int] = {}
+        for n in own_nodes(f.node):
+            if isinstance(n, ast.Name) and isinstance(n.ctx, ast.Store):
+                stores[n.id] = stores.get(n.id, 0) + 1
+        for n in own_nodes(f.node):
+            if isinstance(n, ast.Assign) and len(n.targets) == 1 and isinstance(n.targets[0], (ast.Tuple, ast.List)) and not isinstance(n.value, (ast.Tuple, ast.List)):
+                for i, t in enumerate(n.targets[0].elts):
+                    if isinstance(t, ast.Name) and stores.get(t.id) == 1 and t.id not in f.param_names:
+                        out[t.id] = ast.Subscript(value=n.value, slice=ast.Constant(value=i), ctx=ast.Load())
+            elif isinstance(n, ast.Assign) and len(n.targets) == 1 and isinstance(n.targets[0], (ast.Tuple, ast.List)) and isinstance(n.value, (ast.Tuple, ast.List)) and len(n.value.elts) == len(n.targets[0].elts):
+                for t, v in zip(n.targets[0].elts, n.value.elts):
+                    if isinstance(t, ast.Name) and stores.get(t.id) == 1 and t.id not in f.param_names:
+                        out[t.id] = v
+    _cache[key] = out
+    return out
+
+
+def _expand_names(repo: Repo, f: FuncInfo, e: ast.AST, depth: int = 0):
+    """Copy of `e` in which locals with exactly one definition are replaced by that definition (recursively)."""
+    defs = _value_defs(repo, f)
+
+    def rec(x, d: int):
+        if isinstance(x, list):
+            return [rec(y, d) for y in x]
+        if not isinstance(x, ast.AST):
+            return x
+        if isinstance(x, ast.Name) and isinstance(x.ctx, ast.Load) and x.id in defs and d < 5:
+            v = defs[x.id]
+            if not isinstance(v, (ast.ListComp, ast.SetComp, ast.DictComp, ast.GeneratorExp, ast.Lambda, ast.Dict, ast.List, ast.Set, ast.Await, ast.Yield, ast.YieldFrom)):
+                return rec(v, d + 1)
+        if isinstance(x, (ast.Lambda, ast.ListComp, ast.SetComp, ast.DictComp, ast.GeneratorExp)):
+            return _clone(x)
+        if isinstance(x, ast.NamedExpr):
+            return rec(x.value, d)
+        if isinstance(x, ast.Name) and isinstance(x.ctx, ast.Load) and not _is_local(f, x.id) and (f.outer is None or not _is_local(f.outer, x.id)):
+            c = _const_str(_module_constant(repo, f, x.id))
+            if c is not None:
+                return ast.Constant(value=c)
+        if isinstance(x, ast.Attribute) and isinstance(x.ctx, ast.Load):
+            c = _attr_constant(repo, types_of(repo), f, x)
+            if c is not None:
+                return ast.Constant(value=c)
+        new = type(x)()
+        for fld in x._fields:
+            if hasattr(x, fld):
+                setattr(new, fld, rec(getattr(x, fld), d))
+        return new
+
+    return rec(e, depth)
+
+
+def _canon(repo: Repo, f: FuncInfo, e: ast.AST) -> str:
+    try:
+        return " ".join(ast.unparse(_expand_names(repo, f, e)).split())
+    except Exception:  # noqa: BLE001
+        return norm(e, 400)
+
+
+def _separator_positions_of(repo: Repo, f: FuncInfo, e: ast.expr, hay: str, depth: int = 0) -> bool:
+    """`e` denotes the positions of the separators in the string `hay`: `[i for i, c in enumerate(hay) if c == "."]`, possibly
+    behind a local name or a helper of the same object / with hay as argument."""
+    if depth > 3:
+        return False
+    if isinstance(e, ast.Call) and isinstance(e.func, ast.Name) and e.func.id in WRAPPERS and e.args:
+        return _separator_positions_of(repo, f, e.args[0], hay, depth + 1)
+    if isinstance(e, (ast.ListComp, ast.SetComp, ast.GeneratorExp)) and len(e.generators) == 1 and isinstance(e.elt, ast.Name):
+        g = e.generators[0]
+        if isinstance(g.iter, ast.Call) and _call_name(g.iter) == "enumerate" and g.iter.args and _canon(repo, f, g.iter.args[0]) == hay and isinstance(g.target, ast.Tuple) and len(g.target.elts) == 2 and all(isinstance(x, ast.Name) for x in g.target.elts) and g.target.elts[0].id == e.elt.id:
+            ch = g.target.elts[1].id
+            return any(
+                isinstance(c, ast.Compare) and len(c.ops) == 1 and isinstance(c.ops[0], ast.Eq) and any(isinstance(x, ast.Name) and x.id == ch for x in (c.left, c.comparators[0])) and any(_char_value(repo, f, x) == "." for x in (c.left, c.comparators[0]))
+                for c in g.ifs
+            )
+        return False
+    if isinstance(e, ast.Name):
+        d = local_defs(repo, f).get(e.id)
+        return d is not None and _separator_positions_of(repo, f, d, hay, depth + 1)
+    if isinstance(e, ast.Call):
+        cs = origins(repo)._callees(f, e)
+        if len(cs) == 1 and not isinstance(cs[0].node, ast.Lambda):
+            g = cs[0]
+            rets = origins(repo)._returns(g)
+            if len(rets) != 1:
+                return False
+            # the string: the same attribute of the same object (method of the same class), or the argument bound to a parameter
+            hay_in_g = hay
+            pos_ = _positional(g)
+            for i, a in enumerate(e.args):
+                if i < len(pos_) and _canon(repo, f, a) == hay:
+                    hay_in_g = pos_[i]
+            if hay_in_g == hay and not (hay.startswith("self.") and g.cls is not None and f.cls is not None and isinstance(e.func, ast.Attribute) and norm(e.func.value) == "self"):
+                return False
+            return _separator_positions_of(repo, g, rets[0], hay_in_g, depth + 1)
+    return False
+
+
+def _evidence(repo: Repo, f: FuncInfo, x: ast.expr, H: str, N: str) -> tuple[int, str]:
+    """(+1, kind): the (name-expanded) condition `x` being true shows that nothing ('empty') or the separator ('dot') follows
+    H[:len(N)], or one of the two ('both'); (-1, kind): its being false shows that; (0, ''): no evidence."""
+    L = f"len({N})"
+    rest = f"{H}[{L}:]"
+    u = lambda t: " ".join(t.split())  # noqa: E731
+    # `H.removeprefix(N)` is the remainder wherever H starts with N (and H itself - never empty, never starting with '.' - elsewhere)
+    txt = lambda e: u(ast.unparse(e)).replace(f"{H}.removeprefix({N})", rest)  # noqa: E731
+    if isinstance(x, ast.Call) and isinstance(x.func, ast.Name) and x.func.id == "bool" and len(x.args) == 1:
+        x = x.args[0]
+        if isinstance(x, ast.Compare):
+            return _evidence(repo, f, x, H, N)
+        t = txt(x)
+        if t == rest:
+            return -1, "empty"  # falsy remainder: nothing follows
+        if t in (f"{rest}.partition('.')[0]", f"{rest}.split('.')[0]", f"{rest}.split('.', 1)[0]"):
+            return -1, "both"  # nothing before the first separator of the remainder: it is empty or starts with '.'
+        if isinstance(x, ast.Call) and isinstance(x.func, ast.Attribute) and x.func.attr == "startswith" and x.args:
+            if txt(x.func.value) == rest and _const_str(x.args[0]) == ".":
+                return 1, "dot"
+            if txt(x.func.value) == H and _is_dotted_form(x.args[0], {N}):
+                return 1, "dot"
+        return 0, ""
+    if isinstance(x, ast.Compare) and len(x.ops) == 1:
+        l, op, r = x.left, x.ops[0], x.comparators[0]
+        tl, tr = txt(l), txt(r)
+        if isinstance(op, (ast.Eq, ast.NotEq)):
+            sides = {tl, tr}
+            kind = ""
+            if sides in ({f"{rest}[0]", "'.'"}, {f"{rest}[:1]", "'.'"}, {f"{H}[{L}]", "'.'"}, {f"{H}[{L}:{L} + 1]", "'.'"}, {f"{H}.find('.', {L})", L}):
+                kind = "dot"
+            elif sides in ({rest, "''"}, {H, N}, {f"len({H})", L}):
+                kind = "empty"
+            elif sides == {f"{rest}.partition('.')[0]", "''"}:
+                kind = "both"
+            if kind:
+                return (1 if isinstance(op, ast.Eq) else -1), kind
+            return 0, ""
+        if isinstance(op, (ast.In, ast.NotIn)):
+            sign = 1 if isinstance(op, ast.In) else -1
+            if tl in (f"{rest}[:1]", f"{H}[{L}:{L} + 1]"):
+                consts = None
+                if isinstance(r, (ast.Tuple, ast.List, ast.Set)) and all(_const_str(e_) is not None for e_ in r.elts):
+                    consts = {_const_str(e_) for e_ in r.elts}
+                elif _const_str(r) is not None:
+                    consts = {"", *list(_const_str(r))}
+                if consts is not None and consts <= {"", "."} and "." in consts:
+                    return sign, "both" if "" in consts else "dot"
+            if tl == L and _separator_positions_of(repo, f, r, H):
+                return sign, "dot"
+        return 0, ""
+    return 0, ""
+
+
+def _evidence_polarity(repo: Repo, f: FuncInfo, x: ast.expr, H: str, N: str) -> int:
+    return _evidence(repo, f, x, H, N)[0]
+
+
+def _evidence_goal(repo: Repo, f: FuncInfo, formula, hay_e: ast.expr, needle_e: ast.expr, kinds: tuple[str, ...] = ("dot", "empty", "both")):
+    """Disjunction of the literals of `formula` that are boundary evidence (of the given kinds) for (hay, needle); None if there is none."""
+    from core.guards import atom as mk, atoms_of, f_not, f_or
+
+    H, N = _canon(repo, f, hay_e), _canon(repo, f, needle_e)
+    lits = []
+    for a in atoms_of(formula):
+        e = _parse_atom(a)
+        if e is None:
+            continue
+        pol, kind = _evidence(repo, f, _expand_names(repo, f, e), H, N)
+        if kind not in kinds:
+            continue
+        if pol > 0:
+            lits.append(mk(a))
+        elif pol < 0:
+            lits.append(f_not(mk(a)))
+    return f_or(lits) if lits else None
+
+
+def _has_evidence(repo: Repo, f: FuncInfo, formula, hay_e: ast.expr, needle_e: ast.expr) -> bool:
+    from core.guards import implies
+
+    goal = _evidence_goal(repo, f, formula, hay_e, needle_e)
+    if goal is None:
+        return False
+    try:
+        return implies(formula, goal)
+    except AnalysisError:
+        return False
+
+
+def _is_remainder_def(repo: Repo, f: FuncInfo, st: ast.AST, H: str, N: str) -> bool:
+    """`rest = H[len(N):]` / `head, sep, tail = H[len(N):].partition(".")` / `n = len(N)`: definitions, not consequences."""
+    if not isinstance(st, (ast.Assign, ast.AnnAssign)) or getattr(st, "value", None) is None:
+        return False
+    t = _canon(repo, f, st.value)
+    rest = f"{H}[len({N}):]"
+    return t == rest or t.startswith(rest + ".partition(") or t.startswith(rest + "[") or t in (f"len({N})", f"len({H})") or t.startswith(f"{H}.removeprefix({N})")
+
+
+def _guard(f: FuncInfo, node: ast.AST):
+    """guard_formula, completed for conditions that bind a name with `:=`.
+
+    core/cfg.py drops a branch condition as soon as something it mentions is (re)bound - also when the binding is a walrus inside
+    the very condition (`if not m.startswith(p := x.rstrip(".")): return False`), which then is missing on the paths behind it. A
+    walrus target that is stored nowhere else has one value: the condition is sound to keep."""
+    from core.cfg import always_exits
+    from core.guards import f_and, f_not, to_formula
+
+    from .common import copy_prop, guard_formula
+
+    base = guard_formula(f, node)
+    if isinstance(f.node, ast.Lambda):
+        return base
+    walrus = [x for x in own_nodes(f.node) if isinstance(x, ast.NamedExpr) and isinstance(x.target, ast.Name)]
+    if not walrus:
+        return base
+    stores: dict[str, int] = {}
+    for x in own_nodes(f.node):
+        if isinstance(x, ast.Name) and isinstance(x.ctx, ast.Store):
+            stores[x.id] = stores.get(x.id, 0) + 1
+    extra = []
+    subst = copy_prop(f)
+    child = node
+    for a in ancestors(node):
+        for fld in ("body", "orelse", "finalbody"):
+            blk = getattr(a, fld, None)
+            if isinstance(blk, list) and any(child is st_ for st_ in blk):
+                for st_ in blk:
+                    if st_ is child:
+                        break
+                    if isinstance(st_, ast.If):
+                        ws = [w for w in ast.walk(st_.test) if isinstance(w, ast.NamedExpr) and isinstance(w.target, ast.Name)]
+                        if ws and all(stores.get(w.target.id) == 1 for w in ws):
+                            if always_exits(st_.body) and not (st_.orelse and always_exits(st_.orelse)):
+                                extra.append(f_not(to_formula(st_.test, subst)))
+                            elif st_.orelse and always_exits(st_.orelse) and not always_exits(st_.body):
+                                extra.append(to_formula(st_.test, subst))
+        if isinstance(a, ast.If) and a is not node:
+            ws = [w for w in ast.walk(a.test) if isinstance(w, ast.NamedExpr) and isinstance(w.target, ast.Name)]
+            if ws and all(stores.get(w.target.id) == 1 for w in ws):
+                if any(child is st_ for st_ in a.body):
+                    extra.append(to_formula(a.test, subst))
+                elif any(child is st_ for st_ in a.orelse):
+                    extra.append(f_not(to_formula(a.test, subst)))
+        if a is f.node:
+            break
+        child = a
+    return f_and([base, *extra]) if extra else base
+
+
+def _match_decides(repo: Repo, f: FuncInfo, node: ast.AST, hay_e: ast.expr, needle_e: ast.expr) -> bool:
+    """`node` sits in a `case` of a match statement over the character after the prefix (`match rest[:1]: case "" | ".": .. case _: ..`):
+    the case patterns are the test of the next character."""
+    case = None
+    for a in ancestors(node):
+        if a is f.node:
+            return False
+        if isinstance(a, ast.match_case):
+            case = a
+        elif isinstance(a, ast.Match) and case is not None:
+            H, N = _canon(repo, f, hay_e), _canon(repo, f, needle_e)
+
+            def consts(pat) -> set[str] | None:
+                if isinstance(pat, ast.MatchValue) and _const_str(pat.value) is not None:
+                    return {_const_str(pat.value)}
+                if isinstance(pat, ast.MatchOr):
+                    out: set[str] = set()
+                    for q in pat.patterns:
+                        c = consts(q)
+                        if c is None:
+                            return None
+                        out |= c
+                    return out
+                return None
+
+            def kind_of(c: ast.match_case) -> str:
+                cs = consts(c.pattern)
+                if cs is None or c.guard is not None:
+                    return ""
+                probe = ast.Compare(left=a.subject, ops=[ast.In()], comparators=[ast.Tuple(elts=[ast.Constant(value=x) for x in sorted(cs)], ctx=ast.Load())])
+                pol, kind = _evidence(repo, f, _expand_names(repo, f, probe), H, N)
+                if pol > 0:
+                    return kind
+                if cs == {""}:
+                    pol, kind = _evidence(repo, f, _expand_names(repo, f, ast.Compare(left=a.subject, ops=[ast.Eq()], comparators=[ast.Constant(value="")])), H, N)
+                    return "empty" if pol > 0 or " ".join(ast.unparse(_expand_names(repo, f, a.subject)).split()) in (f"{H}[len({N}):][:1]", f"{H}[len({N}):len({N}) + 1]") else ""
+                return ""
+
+            if kind_of(case):
+                return True
+            wildcard = isinstance(case.pattern, ast.MatchAs) and case.pattern.pattern is None and case.guard is None
+            return wildcard and any(kind_of(c) in ("dot", "both") for c in a.cases if c is not case)
+    return False
+
+
+def _index_error_decides(repo: Repo, f: FuncInfo, node: ast.AST, hay_e: ast.expr, needle_e: ast.expr) -> bool:
+    """`node` sits in the `except IndexError` handler of a try whose body reads the character after the prefix (`H[len(N)]`):
+    it is reached exactly when nothing follows the prefix."""
+    H, N = _canon(repo, f, hay_e), _canon(repo, f, needle_e)
+    handler = None
+    for a in ancestors(node):
+        if a is f.node:
+            return False
+        if isinstance(a, ast.ExceptHandler):
+            handler = a
+        elif isinstance(a, ast.Try) and handler is not None and handler in a.handlers:
+            t = handler.type
+            names_ = [norm(x) for x in (t.elts if isinstance(t, ast.Tuple) else [t])] if t is not None else []
+            if "IndexError" not in names_:
+                return False
+            want = {f"{H}[len({N})]", f"{H}[len({N}):][0]"}
+            return any(isinstance(x, ast.Subscript) and _canon(repo, f, x) in want for st_ in a.body for x in ast.walk(st_))
+    return False
+
+
+def _raw_test_is_guarded(repo: Repo, f: FuncInfo, test: ast.expr, hay_e: ast.expr, needle_e: ast.expr) -> str | None:
+    """A raw prefix test `test` (truthy = H starts with the plain string N) is harmless if
+      (a) the conditions on the path to it already are boundary evidence, or
+      (b) the truth of the value it is part of implies evidence (predicate: `return H.startswith(N) and H[len(N):][:1] in ("", ".")`), or
+      (c) every statement / comprehension element that is only reached when it holds is additionally guarded by evidence.
+    Returns the reason, or None."""
+    from core.guards import atoms_of, f_and, f_not, f_or, implies, to_formula
+
+    from .common import copy_prop
+
+    if isinstance(f.node, ast.Lambda) and not isinstance(test, ast.expr):
+        return None
+    try:
+        g0 = _guard(f, test)
+        if _has_evidence(repo, f, g0, hay_e, needle_e):
+            return "the next character is known to be the separator (or absent) on every path to this prefix test"
+        subst = copy_prop(f)
+        raw = to_formula(test, subst)
+        raw_atoms = atoms_of(raw)
+        if len(raw_atoms) != 1:
+            return None
+        H, N = _canon(repo, f, hay_e), _canon(repo, f, needle_e)
+        # (b) the value the test is part of
+        st = stmt_of(test)
+        top = test
+        while parent(top) is not None and isinstance(parent(top), (ast.BoolOp, ast.UnaryOp, ast.IfExp, ast.Compare)) and parent(top) is not st:
+            top = parent(top)
+        value_stmt = isinstance(st, (ast.Return, ast.Assign, ast.AnnAssign)) and getattr(st, "value", None) is top or isinstance(f.node, ast.Lambda)
+        if value_stmt or (isinstance(parent(top), ast.Call) and top in parent(top).args) or isinstance(parent(top), (ast.ListComp, ast.GeneratorExp, ast.SetComp, ast.keyword)):
+            whole = f_and([_guard(f, top), to_formula(top, subst)])
+            goal = _evidence_goal(repo, f, whole, hay_e, needle_e)
+            if goal is not None and implies(whole, f_or([f_not(raw), goal])):
+                return "the value this raw prefix test is part of is only true when the next character is the separator or absent"
+            if value_stmt or not isinstance(parent(top), ast.comprehension):
+                # the value of the raw test escapes (returned, stored, collected): consequences cannot be followed here
+                tgt = (st.targets[0] if isinstance(st, ast.Assign) and len(st.targets) == 1 else getattr(st, "target", None)) if isinstance(st, (ast.Assign, ast.AnnAssign)) else None
+                if not isinstance(tgt, ast.Name) or isinstance(f.node, ast.Lambda):
+                    return None
+                # a flag: it must be used for branching only (a returned / stored / passed flag carries the raw decision away)
+                for x in own_nodes(f.node):
+                    if isinstance(x, ast.Name) and x.id == tgt.id and isinstance(x.ctx, ast.Load):
+                        p_ = parent(x)
+                        while isinstance(p_, (ast.BoolOp, ast.UnaryOp)):
+                            x, p_ = p_, parent(p_)
+                        if not (isinstance(p_, (ast.If, ast.While, ast.IfExp, ast.comprehension, ast.Assert)) and (getattr(p_, "test", None) is x or (isinstance(p_, ast.comprehension) and x in p_.ifs))):
+                            return None
+        # (c) consequences
+        effects: list[ast.AST] = []
+        if not isinstance(f.node, ast.Lambda):
+            for n in own_nodes(f.node):
+                if isinstance(n, (ast.Return, ast.Expr, ast.Assign, ast.AugAssign, ast.AnnAssign, ast.Raise, ast.Delete, ast.Break, ast.Continue)):
+                    effects.append(n)
+                elif isinstance(n, (ast.ListComp, ast.SetComp, ast.GeneratorExp)):
+                    effects.append(n.elt)
+                elif isinstance(n, ast.DictComp):
+                    effects += [n.key, n.value]
+                elif isinstance(n, ast.IfExp):
+                    effects += [n.body, n.orelse]
+        dependent = 0
+        for e_ in effects:
+            if any(x is test for x in ast.walk(e_)):
+                continue  # the test itself is evaluated inside: covered by (b)
+            ge = _guard(f, e_)
+            if not (raw_atoms <= atoms_of(ge)) or not implies(ge, raw):
+                continue
+            if isinstance(e_, ast.stmt) and _is_remainder_def(repo, f, e_, H, N):
+                continue
+            dependent += 1
+            if _match_decides(repo, f, e_, hay_e, needle_e) or _index_error_decides(repo, f, e_, hay_e, needle_e):
+                continue
+            whole = ge
+            if isinstance(e_, ast.Return) and e_.value is not None:
+                v = to_formula(e_.value, subst)
+                if v == ("const", False):
+                    continue  # "no": never wrong for a string that only has the raw prefix
+                if isinstance(e_.value, (ast.BoolOp, ast.Compare, ast.UnaryOp)):
+                    whole = f_and([ge, v])  # a returned condition: only its truth ("yes") has to be backed by evidence
+            if not _has_evidence(repo, f, whole, hay_e, needle_e):
+                # the branch taken when the next character is known NOT to be a separator is a decision on the boundary as well
+                # (only a test of the next *character* decides it: `H != N` alone says nothing about what follows)
+                goal = _evidence_goal(repo, f, whole, hay_e, needle_e, kinds=("dot", "both"))
+                if goal is None or not implies(whole, f_not(goal)):
+                    return None
+        if dependent:
+            return "everything that depends on this raw prefix test is additionally guarded by a test of the next character"
+    except AnalysisError:
+        return None
+    return None
+
+
+def _remainder_uses(repo: Repo, f: FuncInfo, n: ast.AST, hay_e: ast.expr, needle_e: ast.expr) -> tuple[bool, bool]:
+    """How the string left after cutting len(N) characters off H is used: (every use is a boundary test itself,
+    every use is such a test or guarded by one). (False, False) if it escapes."""
+
+    if isinstance(f.node, ast.Lambda):
+        return False, False
+    H, N = _canon(repo, f, hay_e), _canon(repo, f, needle_e)
+
+    def single_store(var: str) -> bool:
+        return var not in f.param_names and len([x for x in own_nodes(f.node) if isinstance(x, ast.Name) and x.id == var and isinstance(x.ctx, ast.Store)]) == 1
+
+    def loads(var: str) -> list[ast.AST]:
+        return [x for x in own_nodes(f.node) if isinstance(x, ast.Name) and x.id == var and isinstance(x.ctx, ast.Load)]
+
+    st = stmt_of(n)
+    if isinstance(st, ast.Assign) and st.value is n and len(st.targets) == 1 and isinstance(st.targets[0], ast.Name):
+        if not single_store(st.targets[0].id):
+            return False, False
+        uses = loads(st.targets[0].id)
+    elif isinstance(parent(n), ast.NamedExpr) and parent(n).value is n and isinstance(parent(n).target, ast.Name):
+        if not single_store(parent(n).target.id):
+            return False, False
+        uses = [parent(n), *loads(parent(n).target.id)]
+    else:
+        uses = [n]
+    if not uses:
+        return False, False
+    only_tests, guarded, tested = True, True, False
+    work = list(uses)
+    while work:
+        u_ = work.pop()
+        x = u_
+        is_test = False
+        for _ in range(4):
+            p = parent(x)
+            if p is None or isinstance(p, ast.stmt):
+                break
+            x = p
+            probe = ast.Call(func=ast.Name(id="bool", ctx=ast.Load()), args=[x], keywords=[]) if not isinstance(x, ast.Compare) else x
+            if _evidence_polarity(repo, f, _expand_names(repo, f, probe), H, N) != 0:
+                is_test = True
+                break
+        p = parent(u_)
+        ust = stmt_of(u_)
+        if isinstance(ust, ast.Match) and any(x is u_ for x in ast.walk(ust.subject)):
+            tested = True  # the subject of a match statement: the cases test it
+            continue
+        if _match_decides(repo, f, u_, hay_e, needle_e):
+            tested = True
+            continue
+        if is_test or (isinstance(p, ast.UnaryOp) and isinstance(p.op, ast.Not)) or isinstance(p, (ast.If, ast.While, ast.BoolOp)) or (isinstance(p, ast.IfExp) and p.test is u_) or (isinstance(p, ast.Call) and _call_name(p) in ("len", "bool")):
+            tested = True
+            continue
+        if isinstance(p, ast.Attribute) and p.attr in ("partition", "split") and isinstance(parent(p), ast.Call):
+            # taken apart at the separator: the parts are looked at instead
+            call = parent(p)
+            if not (call.args and _const_str(call.args[0]) == "."):
+                return False, False
+            cst = stmt_of(call)
+            if isinstance(cst, ast.Assign) and cst.value is call and len(cst.targets) == 1 and isinstance(cst.targets[0], (ast.Tuple, ast.List)) and all(isinstance(t, ast.Name) for t in cst.targets[0].elts):
+                for t in cst.targets[0].elts:
+                    if not single_store(t.id):
+                        return False, False
+                    work += loads(t.id)
+                continue
+            if isinstance(parent(call), ast.Subscript):
+                work.append(parent(call))
+                continue
+            return False, False
+        only_tests = False
+        try:
+            if not _has_evidence(repo, f, _guard(f, u_), hay_e, needle_e):
+                guarded = False
+        except AnalysisError:
+            guarded = False
+    return only_tests and tested, guarded and tested
+
+
+# --------------------------------------------------------------------------- relation predicates
+#
+# A function whose truthy result implies "H is N or below N" (whole components): `h == n or h.startswith(n + ".")`, a raw prefix
+# test with boundary evidence, a component-wise comparison, or a combination / delegation of these. Used where the relation is
+# established by calling such a function (`if name.is_or_is_below(other): ... name.relative_to(other)`).
+
+
+def _component_prefix_expr(repo: Repo, g: FuncInfo, e: ast.expr, H: str, N: str) -> bool:
+    """`e` (names expanded) is true only if the components of N are a leading run of the components of H."""
+    txt = lambda x: " ".join(ast.unparse(x).split())  # noqa: E731
+    hs, ns = f"{H}.split('.')", f"{N}.split('.')"
+    if isinstance(e, ast.Compare) and len(e.ops) == 1 and isinstance(e.ops[0], ast.Eq):
+        sides = {txt(e.left), txt(e.comparators[0])}
+        if sides == {f"{hs}[:len({ns})]", ns}:
+            return True
+        if sides == {f"tuple({hs})[:len({ns})]", f"tuple({ns})"} or sides == {f"tuple({hs}[:len({ns})])", f"tuple({ns})"}:
+            return True
+    if isinstance(e, ast.Call) and _call_name(e) == "all" and len(e.args) == 1 and isinstance(e.args[0], (ast.GeneratorExp, ast.ListComp)) and len(e.args[0].generators) == 1:
+        gen = e.args[0].generators[0]
+        it = gen.iter
+        if isinstance(it, ast.Call) and _call_name(it) == "zip_longest" and len(it.args) == 2 and [txt(a) for a in it.args] == [hs, ns] and isinstance(gen.target, ast.Tuple) and len(gen.target.elts) == 2 and all(isinstance(x, ast.Name) for x in gen.target.elts):
+            x, y = (t.id for t in gen.target.elts)
+            elt = e.args[0].elt
+            # `y is None or x == y`: every component of N is matched, H may have more
+            if isinstance(elt, ast.BoolOp) and isinstance(elt.op, ast.Or) and len(elt.values) == 2:
+                a, b = (txt(v) for v in elt.values)
+                if {a, b} in ({f"{y} is None", f"{x} == {y}"}, {f"{y} is None", f"{y} == {x}"}):
+                    return True
+    if isinstance(e, ast.BoolOp) and isinstance(e.op, ast.And):
+        texts = [txt(v) for v in e.values]
+        lens_ok = any(t in (f"len({hs}) >= len({ns})", f"len({ns}) <= len({hs})") for t in texts)
+        zips = any(isinstance(v, ast.Call) and _call_name(v) == "all" and v.args and isinstance(v.args[0], (ast.GeneratorExp, ast.ListComp)) and isinstance(v.args[0].generators[0].iter, ast.Call) and _call_name(v.args[0].generators[0].iter) == "zip" and {txt(a) for a in v.args[0].generators[0].iter.args} == {hs, ns} and isinstance(v.args[0].elt, ast.Compare) and isinstance(v.args[0].elt.ops[0], ast.Eq) for v in e.values)
+        if lens_ok and zips:
+            return True
+    return False
+
+
+def _resolve_callable_text(repo: Repo, g: FuncInfo, fn: ast.expr) -> FuncInfo | None:
+    """The repo function a (re-parsed, parent-less) callee expression denotes: `helper`, `self.helper`, `cls.helper`, `Class.helper`,
+    `obj.method` for a local `obj` of known class."""
+    T = types_of(repo)
+    if isinstance(fn, ast.Name):
+        h = g
+        while h is not None:
+            for cand in g.module.all_funcs:
+                if cand.outer is h and cand.name == fn.id and not isinstance(cand.node, ast.Lambda):
+                    return cand
+            h = h.outer
+        if fn.id in g.module.functions:
+            return g.module.functions[fn.id]
+        fq = g.module.imports.get(fn.id)
+        if fq:
+            m2, _, attr = fq.rpartition(".")
+            om = repo.modules.get(m2)
+            if om is not None and attr in om.functions:
+                return om.functions[attr]
+        return None
+    if isinstance(fn, ast.Attribute):
+        ci = None
+        if isinstance(fn.value, ast.Name) and fn.value.id in ("self", "cls") and g.cls is not None:
+            ci = g.cls
+        else:
+            try:
+                t = T.expr(g, fn.value)
+            except Exception:  # noqa: BLE001
+                return None
+            cs = [repo.classes.get(m[1]) for m in members(t) if m[0] in ("cls", "type")]
+            if len(cs) == 1 and cs[0] is not None and len(members(t)) == 1:
+                ci = cs[0]
+        if ci is not None:
+            m = repo.lookup_method(ci, fn.attr)
+            if m is not None and not m.is_property:
+                return m
+    return None
+
+
+def _relation_call(repo: Repo, g: FuncInfo, call: ast.expr, H: str, others: set[str], depth: int) -> bool:
+    """`call` (re-parsed from an atom, names expanded) invokes a relation predicate with (H, one of others)."""
+    if not isinstance(call, ast.Call) or depth > 3:
+        return False
+    fn = call.func
+    pre: list[ast.expr] = []
+    if isinstance(fn, ast.Call) and _call_name(fn) == "partial" and fn.args:  # partial(pred, h)(n)
+        pre = list(fn.args[1:])
+        fn = fn.args[0]
+    callee = _resolve_callable_text(repo, g, fn)
+    if callee is None or isinstance(callee.node, ast.Lambda):
+        return False
+    args = [*pre, *call.args]
+    if any(isinstance(a, ast.Starred) for a in args):
+        return False
+    pos_ = _positional(callee)
+    bound: dict[str, ast.expr] = {}
+    for i, a in enumerate(args):
+        if i < len(pos_):
+            bound[pos_[i]] = a
+    for k in call.keywords:
+        if k.arg:
+            bound[k.arg] = k.value
+    txt = lambda x: " ".join(ast.unparse(x).split())  # noqa: E731
+    hp = next((p for p, a in bound.items() if txt(a) == H), None)
+    op_ = next((p for p, a in bound.items() if txt(a) in others and p != hp), None)
+    h_text = hp
+    if hp is None and isinstance(fn, ast.Attribute) and callee.cls is not None:
+        # the name is a field / property of the receiver:  recv.is_below(other)  with  H == recv.<field>
+        recv = txt(fn.value)
+        if H.startswith(recv + "."):
+            h_text = "self." + H[len(recv) + 1 :]
+        elif recv == H:
+            return False
+    if h_text is None or op_ is None:
+        return False
+    return _relation_predicate(repo, callee, h_text, op_, depth + 1)
+
+
+def _relation_predicate(repo: Repo, g: FuncInfo, H: str, N: str, depth: int = 0) -> bool:
+    """The truthy result of `g` implies that `H` (a parameter or `self.<field>`, text in g's terms) is `N` (a parameter) or below it."""
+    from core.guards import atom as mk, atoms_of, f_and, f_not, f_or, implies, to_formula
+
+    from .common import copy_prop
+
+    key = ("relpred", id(repo), g.fq, H, N)
+    if key in _cache:
+        return _cache[key]
+    _cache[key] = False  # recursion guard
+    ok = False
+    try:
+        if depth <= 3 and not isinstance(g.node, ast.Lambda) and not any(isinstance(x, (ast.Yield, ast.YieldFrom)) for x in own_nodes(g.node)):
+            rets = [r for r in own_nodes(g.node) if isinstance(r, ast.Return) and r.value is not None]
+            h_e, n_e = _parse_atom(H), _parse_atom(N)
+            ok = bool(rets) and h_e is not None and n_e is not None
+            subst = copy_prop(g)
+            for r in rets if ok else []:
+                F = f_and([_guard(g, r), to_formula(r.value, subst)])
+                if F == ("const", False):
+                    continue
+                safe_a, raw_a = _relation_atoms(repo, g, F, H, {N})
+                good = list(safe_a)
+                raws = list(raw_a)
+                for a in atoms_of(F):
+                    e = _parse_atom(a)
+                    if e is None:
+                        continue
+                    x = _expand_names(repo, g, e)
+                    inner = _unbool(x)
+                    txt = " ".join(ast.unparse(inner).split())
+                    if isinstance(inner, ast.Compare) and len(inner.ops) == 1 and isinstance(inner.ops[0], ast.Eq):
+                        sides = {" ".join(ast.unparse(inner.left).split()), " ".join(ast.unparse(inner.comparators[0]).split())}
+                        if sides == {f"{H}[:len({N})]", N}:
+                            raws.append(mk(a))
+                    if _component_prefix_expr(repo, g, inner, H, N):
+                        good.append(mk(a))
+                    elif isinstance(inner, ast.Call) and _relation_call(repo, g, inner, H, {N}, depth):
+                        good.append(mk(a))
+                ev = _evidence_goal(repo, g, F, h_e, n_e)
+                if raws and _index_error_decides(repo, g, r, h_e, n_e):
+                    ev = ("const", True)  # reached when nothing follows the prefix
+                goal = f_or([*good, *([f_and([f_or(raws), ev])] if raws and ev is not None else [])])
+                if goal == ("const", False) or not implies(F, goal):
+                    ok = False
+                    break
+    except AnalysisError:
+        ok = False
+    _cache[key] = ok
+    return ok
+
+
+class Ancestry:
+    """Is a value the name `h` itself or one of its ancestors (a leading run of its whole components)?
+
+    Ancestors are recognised by how they are made: `x.rpartition(".")[0]`, `x.rsplit(".", 1)[0]`, `x[:i]` with i the position of
+    a separator, `".".join(x.split(".")[:k])`, elements of get_parent_modules(x) (public API) or of any helper whose results are
+    made this way - for x the name or, again, one of its ancestors (loops that walk upwards)."""
+
+    def __init__(self, repo: Repo) -> None:
+        self.repo = repo
+        self.O = origins(repo)
+
+    def value(self, g: FuncInfo, e: ast.expr, h: str, depth: int = 0, seen: frozenset = frozenset()) -> bool:
+        key = (g.fq, id(e), "v", h)
+        if key in seen:
+            return True  # walking upwards: `parent = parent.rpartition(".")[0]`
+        if depth > 8:
+            return False
+        seen = seen | {key}
+        d = depth + 1
+        if norm(e) == h:
+            return True
+        if isinstance(e, ast.Constant):
+            return e.value is None or e.value == ""
+        if isinstance(e, ast.IfExp):
+            return self.value(g, e.body, h, d, seen) and self.value(g, e.orelse, h, d, seen)
+        if isinstance(e, ast.Subscript):
+            v = e.value
+            if not isinstance(e.slice, ast.Slice):
+                idx = e.slice.value if isinstance(e.slice, ast.Constant) else None
+                if isinstance(v, ast.Call) and isinstance(v.func, ast.Attribute) and v.args and _const_str(v.args[0]) == ".":
+                    a = v.func.attr
+                    if (a in ("rpartition", "partition") and idx == 0) or (a == "rsplit" and idx == 0) or (a == "split" and idx == 0):
+                        return self.value(g, v.func.value, h, d, seen)
+                return self.elements(g, v, h, d, seen)  # one element of a collection of ancestors
+            if e.slice.lower is None and e.slice.upper is not None and e.slice.step is None:
+                try:
+                    verdict, _why = _index_cut(self.repo, g, e, e.slice.upper, True)
+                except Exception:  # noqa: BLE001
+                    verdict = "unknown"
+                return verdict == "safe" and self.value(g, v, h, d, seen)
+            return False
+        if isinstance(e, ast.Call):
+            nm = _call_name(e)
+            if isinstance(e.func, ast.Attribute) and nm == "join" and _const_str(e.func.value) == "." and len(e.args) == 1:
+                arg = e.args[0]
+                while isinstance(arg, ast.Subscript) and isinstance(arg.slice, ast.Slice) and arg.slice.lower is None:
+                    arg = arg.value
+                if isinstance(arg, ast.Call) and _call_name(arg) == "islice" and arg.args:
+                    arg = arg.args[0]
+                for g2, x, kind in self.O.value(g, arg):
+                    while isinstance(x, ast.Subscript) and isinstance(x.slice, ast.Slice) and x.slice.lower is None:
+                        x = x.value
+                    if not (kind == "value" and g2 is g and isinstance(x, ast.Call) and _call_name(x) == "split" and isinstance(x.func, ast.Attribute) and x.args and _const_str(x.args[0]) == "." and self.value(g, x.func.value, h, d, seen)):
+                        return False
+                return True
+            if isinstance(e.func, ast.Name) and nm in ("next", "min", "max") and e.args:
+                ok = self.elements(g, e.args[0], h, d, seen)
+                return ok and all(self.value(g, a, h, d, seen) for a in e.args[1:]) and all(self.value(g, k.value, h, d, seen) for k in e.keywords if k.arg == "default")
+            if isinstance(e.func, ast.Name) and nm == "str" and len(e.args) == 1:
+                return self.value(g, e.args[0], h, d, seen)
+            return self._call(g, e, h, d, seen, elements=False)
+        if isinstance(e, ast.Name):
+            if isinstance(g.node, ast.Lambda) or e.id in g.param_names:
+                return False
+            binds = self.O._bindings(g, e.id, e)
+            if not binds:
+                return False
+            for kind, src, pos in binds:
+                if kind == "value" and not pos:
+                    if not self.value(g, src, h, d, seen):
+                        return False
+                elif kind == "value" and pos == (0,) and isinstance(src, ast.Call) and isinstance(src.func, ast.Attribute) and src.func.attr in ("rpartition", "partition") and src.args and _const_str(src.args[0]) == ".":
+                    if not self.value(g, src.func.value, h, d, seen):
+                        return False
+                elif kind == "elem" and not pos:
+                    if not self.elements(g, src, h, d, seen):
+                        return False
+                else:
+                    return False
+            return True
+        return False
+
+    def _call(self, g: FuncInfo, call: ast.Call, h: str, d: int, seen: frozenset, elements: bool) -> bool:
+        nm = _call_name(call)
+        if nm == "get_parent_modules" and call.args:
+            return elements and self.value(g, call.args[0], h, d, seen)  # public API: the ancestors of its argument
+        cs = self.O._callees(g, call)
+        if len(cs) != 1 or isinstance(cs[0].node, ast.Lambda):
+            return False
+        callee = cs[0]
+        pos_ = _positional(callee)
+        hp = None
+        for i, a in enumerate(call.args):
+            if i < len(pos_) and not isinstance(a, ast.Starred) and self.value(g, a, h, d, seen):
+                hp = pos_[i]
+                break
+        if hp is None:
+            for k in call.keywords:
+                if k.arg and self.value(g, k.value, h, d, seen):
+                    hp = k.arg
+        if hp is None:
+            return False
+        ys = [n for n in own_nodes(callee.node) if isinstance(n, (ast.Yield, ast.YieldFrom))]
+        if ys:
+            if not elements:
+                return False
+            return all((self.value(callee, y.value, hp, d, seen) if isinstance(y, ast.Yield) and y.value is not None else self.elements(callee, y.value, hp, d, seen) if isinstance(y, ast.YieldFrom) else False) for y in ys)
+        rets = [r.value for r in own_nodes(callee.node) if isinstance(r, ast.Return) and r.value is not None]
+        if not rets:
+            return False
+        return all((self.elements if elements else self.value)(callee, r, hp, d, seen) for r in rets)
+
+    def elements(self, g: FuncInfo, c: ast.expr, h: str, depth: int = 0, seen: frozenset = frozenset()) -> bool:
+        key = (g.fq, id(c), "e", h)
+        if key in seen:
+            return True
+        if depth > 8:
+            return False
+        seen = seen | {key}
+        d = depth + 1
+        if isinstance(c, ast.Starred):
+            return self.elements(g, c.value, h, d, seen)
+        if isinstance(c, (ast.List, ast.Tuple, ast.Set)):
+            return all(self.elements(g, x.value, h, d, seen) if isinstance(x, ast.Starred) else self.value(g, x, h, d, seen) for x in c.elts)
+        if isinstance(c, ast.BinOp) and isinstance(c.op, ast.Add):
+            return self.elements(g, c.left, h, d, seen) and self.elements(g, c.right, h, d, seen)
+        if isinstance(c, ast.Subscript) and isinstance(c.slice, ast.Slice):
+            return self.elements(g, c.value, h, d, seen)
+        if isinstance(c, (ast.ListComp, ast.SetComp, ast.GeneratorExp)):
+            return self.value(g, c.elt, h, d, seen)
+        if isinstance(c, ast.Call):
+            nm = _call_name(c)
+            if isinstance(c.func, ast.Name) and nm in (*WRAPPERS, "islice", "takewhile", "dropwhile") and c.args:
+                return self.elements(g, c.args[-1] if nm in ("takewhile", "dropwhile") else c.args[0], h, d, seen)
+            if isinstance(c.func, ast.Name) and nm == "filter" and len(c.args) == 2:
+                return self.elements(g, c.args[1], h, d, seen)
+            if isinstance(c.func, ast.Name) and nm == "chain":
+                return all(self.elements(g, a, h, d, seen) for a in c.args)
+            if isinstance(c.func, ast.Name) and nm == "accumulate" and len(c.args) == 2:
+                # accumulate(x.split(".")[..], lambda a, b: f"{a}.{b}"): the dotted prefixes of x
+                src, fn = c.args
+                while isinstance(src, ast.Subscript) and isinstance(src.slice, ast.Slice):
+                    src = src.value
+                src = _expand(self.repo, g, src)
+                while isinstance(src, ast.Subscript) and isinstance(src.slice, ast.Slice):
+                    src = src.value
+                joins = isinstance(fn, ast.Lambda) and len(fn.args.args) == 2 and norm(fn.body) in (f"f'{{{fn.args.args[0].arg}}}.{{{fn.args.args[1].arg}}}'", f"{fn.args.args[0].arg} + '.' + {fn.args.args[1].arg}") or norm(fn) in ("'{}.{}'.format",)
+                return bool(joins) and isinstance(src, ast.Call) and _call_name(src) == "split" and isinstance(src.func, ast.Attribute) and src.args and _const_str(src.args[0]) == "." and self.value(g, src.func.value, h, d, seen)
+            return self._call(g, c, h, d, seen, elements=True)
+        if isinstance(c, ast.Name):
+            if isinstance(g.node, ast.Lambda) or c.id in g.param_names:
+                return False
+            binds = self.O._bindings(g, c.id, c)
+            if not binds:
+                return False
+            for kind, src, pos in binds:
+                if kind != "value" or pos:
+                    return False
+                if (isinstance(src, (ast.List, ast.Set)) and not src.elts) or (isinstance(src, ast.Call) and _call_name(src) in ("list", "set", "deque") and not src.args):
+                    continue
+                if not self.elements(g, src, h, d, seen):
+                    return False
+            text = c.id
+            for n in own_nodes(g.node):
+                if isinstance(n, ast.Call) and isinstance(n.func, ast.Attribute) and isinstance(n.func.value, ast.Name) and n.func.value.id == text and n.args:
+                    a = n.func.attr
+                    if a in ("append", "add", "appendleft") and not self.value(g, n.args[0], h, d, seen):
+                        return False
+                    if a == "insert" and len(n.args) == 2 and not self.value(g, n.args[1], h, d, seen):
+                        return False
+                    if a in ("extend", "update", "extendleft") and not self.elements(g, n.args[0], h, d, seen):
+                        return False
+            return True
+        return False
+
+
+def _ancestor_or_self(repo: Repo, f: FuncInfo, e: ast.expr, hay: str, depth: int = 0) -> bool:
+    """`e` is `hay` itself or one of its ancestors (possibly None on other paths)."""
+    key = ("ancestry", id(repo))
+    if key not in _cache:
+        _cache[key] = Ancestry(repo)
+    try:
+        return _cache[key].value(f, e, hay)
+    except RecursionError:
+        raise
+    except Exception:  # noqa: BLE001
+        return False
+
+
+def _remainder_only_examined(repo: Repo, f: FuncInfo, n: ast.AST) -> bool:
+    """The string left after cutting the prefix (`rest = name[len(p):]` / `name.removeprefix(p)`) is used for nothing but the test
+    that it is empty or starts with the separator - then the cut itself decides nothing."""
+    if isinstance(f.node, ast.Lambda):
+        return False
+    st = stmt_of(n)
+    uses: list[ast.AST] = []
+    if isinstance(st, ast.Assign) and st.value is n and len(st.targets) == 1 and isinstance(st.targets[0], ast.Name):
+        var = st.targets[0].id
+        stores = [x for x in own_nodes(f.node) if isinstance(x, ast.Name) and x.id == var and isinstance(x.ctx, ast.Store)]
+        if len(stores) != 1 or var in f.param_names:
+            return False
+        uses = [x for x in own_nodes(f.node) if isinstance(x, ast.Name) and x.id == var and isinstance(x.ctx, ast.Load)]
+    else:
+        uses = [n]
+    if not uses:
+        return False
+    dot_test = False
+    for u in uses:
+        p = parent(u)
+        ok = False
+        if isinstance(p, ast.Compare) and len(p.ops) == 1 and isinstance(p.ops[0], (ast.Eq, ast.NotEq)):
+            other = p.comparators[0] if p.left is u else p.left
+            if _const_str(other) == "":
+                ok = True
+            elif isinstance(other, (ast.Name, ast.Attribute, ast.Call)):
+                ok = True  # compared with the uncut name: "was anything removed?"
+        elif isinstance(p, ast.Attribute) and p.attr == "startswith" and isinstance(parent(p), ast.Call) and parent(p).args and _const_str(parent(p).args[0]) == ".":
+            ok = dot_test = True
+        elif isinstance(p, ast.Subscript) and p.value is u and norm(p.slice) in ("0", ":1"):
+            pp = parent(p)
+            if isinstance(pp, ast.Compare) and len(pp.ops) == 1:
+                c = pp.comparators[0] if pp.left is p else pp.left
+                if _const_str(c) == "." and isinstance(pp.ops[0], (ast.Eq, ast.NotEq)):
+                    ok = dot_test = True
+                elif isinstance(pp.ops[0], (ast.In, ast.NotIn)) and isinstance(c, (ast.Tuple, ast.List, ast.Set)) and sorted(str(_const_str(x)) for x in c.elts) == ["", "."]:
+                    ok = dot_test = True
+        elif isinstance(p, ast.UnaryOp) and isinstance(p.op, ast.Not):
+            ok = True
+        elif isinstance(p, (ast.BoolOp, ast.If, ast.While, ast.IfExp)) and (not isinstance(p, ast.IfExp) or p.test is u):
+            ok = True  # truthiness
+        elif isinstance(p, ast.Call) and _call_name(p) in ("len", "bool"):
+            ok = True
+        if not ok:
+            return False
+    return dot_test
+
+
+def _slice_by_len(repo: Repo, f: FuncInfo, n: ast.AST, other_e: ast.expr, boundary_funcs: set[str], depth: int = 0, hay_e: ast.expr | None = None) -> tuple[str, str]:
+    """Verdict for removing the first len(other) characters of the name `hay` at node `n` (`hay[len(other):]`, `hay.removeprefix(other)`)."""
+    from core.guards import f_or, implies
+
+    hay_e = hay_e if hay_e is not None else n.value
+    other = norm(other_e)
+    hay = norm(hay_e)
+    facts, others = _site_facts(repo, f, n, other)
+    safe_a, raw_a = _relation_atoms(repo, f, facts, hay, others)
+    try:
+        if safe_a and implies(facts, f_or(safe_a)):
+            return "safe", "prefix length of an ancestor established by a boundary-safe test"
+        if _ancestor_or_self(repo, f, other_e, hay):
+            return "safe", "the other string is the name itself or one of its ancestors (get_parent_modules)"
+        if f.fq in boundary_funcs or _boundary_predicate(repo, f, hay, other):
+            return "safe", "the remainder is only examined by the boundary test of this predicate"
+        if _remainder_only_examined(repo, f, n):
+            return "safe", "the remainder is only tested to be empty or to start with the separator"
+        only_tests, guarded = _remainder_uses(repo, f, n, hay_e, other_e)
+        if only_tests:
+            return "safe", "the remainder is only tested to be empty or to start with the separator"
+        if guarded and raw_a and implies(facts, f_or([*safe_a, *raw_a])):
+            return "safe", "after the raw prefix test the remainder is used only where it was tested to be empty or to start with the separator"
+        if raw_a and implies(facts, f_or([*safe_a, *raw_a])):
+            return "unsafe", f"`{norm(n, 60)}` cuts a module name at the length of another string without a boundary-safe prefix test"
+    except AnalysisError:
+        pass
+    # the other string was selected by a helper: `ancestor = self._most_specific(name, candidates)` with
+    # `return next(m for m in candidates if name == m or name.startswith(m + "."))` / a loop returning the first match
+    if depth < 2 and isinstance(other_e, ast.Name) and not isinstance(f.node, ast.Lambda):
+        d_ = local_defs(repo, f).get(other_e.id)
+        if isinstance(d_, ast.Call):
+            cs = origins(repo)._callees(f, d_)
+            if len(cs) == 1 and not isinstance(cs[0].node, ast.Lambda):
+                g = cs[0]
+                pos_ = _positional(g)
+                hp = next((pos_[i] for i, a in enumerate(d_.args) if norm(a) == hay and i < len(pos_)), None) or next((k.arg for k in d_.keywords if norm(k.value) == hay), None)
+                rets = [r for r in own_nodes(g.node) if isinstance(r, ast.Return) and r.value is not None and not (isinstance(r.value, ast.Constant) and r.value.value is None)]
+                if hp is not None and rets and not any(isinstance(x, (ast.Yield, ast.YieldFrom)) for x in own_nodes(g.node)):
+                    ok = True
+                    for r in rets:
+                        try:
+                            facts_r, others_r = _site_facts(repo, g, r.value, norm(r.value), assume_not_none=True)  # None: nothing is cut
+                            safe_r, _raw = _relation_atoms(repo, g, facts_r, hp, others_r)
+                            if not (safe_r and implies(facts_r, f_or(safe_r))) and not _ancestor_or_self(repo, g, r.value, hp):
+                                ok = False
+                        except AnalysisError:
+                            ok = False
+                    if ok:
+                        return "safe", "the other string was selected by a helper that returns an ancestor (or the name itself) established by a boundary-safe test"
+    # the relation may have been established by the callers of a small helper: `label = alias + _rest(name, ancestor)`
+    if depth < 2 and not isinstance(f.node, ast.Lambda) and isinstance(hay_e, ast.Name) and isinstance(other_e, ast.Name) and hay_e.id in f.param_names and other_e.id in f.param_names:
+        ha, oa = _callers_args(repo, f, hay_e.id), _callers_args(repo, f, other_e.id)
+        if ha and oa and len(ha) == len(oa):
+            verdicts = []
+            for (g, h_expr), (g2, o_expr) in zip(ha, oa):
+                if g is not g2 or isinstance(h_expr, ast.Starred) or isinstance(o_expr, ast.Starred):
+                    verdicts.append("unknown")
+                    continue
+                call = next((c for c in calls_in(g.node) if any(a is h_expr for a in [*c.args, *[k.value for k in c.keywords]])), None)
+                if call is None:
+                    verdicts.append("unknown")
+                    continue
+                v, _w = _slice_by_len_at(repo, g, call, h_expr, o_expr, boundary_funcs, depth + 1)
+                verdicts.append(v)
+            if verdicts and all(v == "safe" for v in verdicts):
+                return "safe", "every caller establishes the boundary-safe prefix relation before the cut"
+            if any(v == "unsafe" for v in verdicts):
+                return "unsafe", f"`{norm(n, 60)}` cuts a module name at the length of another string; a caller establishes only a raw prefix relation"
+    # the cut happens in a method of a small value class (`name.relative_to(other)`): every caller must have established the
+    # relation between the receiver's field and the argument (`if name.is_or_is_below(other): ... name.relative_to(other)`)
+    if depth < 2 and not isinstance(f.node, ast.Lambda) and f.cls is not None and isinstance(hay_e, ast.Attribute) and isinstance(hay_e.value, ast.Name) and hay_e.value.id == "self" and isinstance(other_e, ast.Name) and other_e.id in f.param_names:
+        oa = _callers_args(repo, f, other_e.id)
+        if oa:
+            verdicts = []
+            for g, o_expr in oa:
+                call = next((c for c in calls_in(g.node) if any(a is o_expr for a in [*c.args, *[k.value for k in c.keywords]])), None)
+                if call is None or isinstance(o_expr, ast.Starred) or not isinstance(call.func, ast.Attribute):
+                    verdicts.append("unknown")
+                    continue
+                h_caller = f"{norm(call.func.value)}.{hay_e.attr}"
+                try:
+                    facts_c, others_c = _site_facts(repo, g, call, norm(o_expr))
+                    safe_c, raw_c = _relation_atoms(repo, g, facts_c, h_caller, others_c)
+                    verdicts.append("safe" if safe_c and implies(facts_c, f_or(safe_c)) else "unknown")
+                except AnalysisError:
+                    verdicts.append("unknown")
+            if verdicts and all(v == "safe" for v in verdicts):
+                return "safe", "every caller establishes, by a relation predicate of the same object, that the argument is the name or one of its ancestors"
+    return "unknown", f"`{norm(n, 60)}`: no test relating `{hay}` and `{other}` found on the paths to this slice"
+
+
+def _slice_by_len_at(repo: Repo, g: FuncInfo, at: ast.AST, hay_e: ast.expr, other_e: ast.expr, boundary_funcs: set[str], depth: int) -> tuple[str, str]:
+    """_slice_by_len for a cut that happens inside a callee: the facts are those at the call `at` in `g`."""
+    from core.guards import f_or, implies
+
+    other, hay = norm(other_e), norm(hay_e)
+    facts, others = _site_facts(repo, g, at, other)
+    safe_a, raw_a = _relation_atoms(repo, g, facts, hay, others)
+    try:
+        if safe_a and implies(facts, f_or(safe_a)):
+            return "safe", ""
+        if _ancestor_or_self(repo, g, other_e, hay):
+            return "safe", ""
+        if raw_a and implies(facts, f_or([*safe_a, *raw_a])):
+            return "unsafe", ""
+    except AnalysisError:
+        pass
+    return "unknown", ""
+
+
+# --------------------------------------------------------------------------- the scan
+
+
+def _head_tested_empty(repo: Repo, f: FuncInfo, call: ast.Call) -> bool:
+    """`head, sep, tail = x.partition(p)` (or `x.partition(p)[0]`): the head is used, and only in tests that it is empty."""
+
+    def emptiness_test(u: ast.AST) -> bool:
+        p = parent(u)
+        if isinstance(p, ast.Compare) and len(p.ops) == 1 and isinstance(p.ops[0], (ast.Eq, ast.NotEq)):
+            other = p.comparators[0] if p.left is u else p.left
+            return _const_str(other) == ""
+        if isinstance(p, ast.UnaryOp) and isinstance(p.op, ast.Not):
+            return True
+        return isinstance(p, (ast.BoolOp, ast.If, ast.While)) or (isinstance(p, ast.IfExp) and p.test is u)
+
+    if isinstance(f.node, ast.Lambda):
+        return False
+    p = parent(call)
+    if isinstance(p, ast.Subscript) and isinstance(p.slice, ast.Constant) and p.slice.value == 0:
+        return emptiness_test(p)
+    st = stmt_of(call)
+    if isinstance(st, ast.Assign) and st.value is call and len(st.targets) == 1 and isinstance(st.targets[0], (ast.Tuple, ast.List)) and len(st.targets[0].elts) == 3 and isinstance(st.targets[0].elts[0], ast.Name):
+        head = st.targets[0].elts[0].id
+        stores = [x for x in own_nodes(f.node) if isinstance(x, ast.Name) and x.id == head and isinstance(x.ctx, ast.Store)]
+        loads = [x for x in own_nodes(f.node) if isinstance(x, ast.Name) and x.id == head and isinstance(x.ctx, ast.Load)]
+        return len(stores) == 1 and bool(loads) and all(emptiness_test(x) for x in loads)
+    return False
+
+
+def _block_lower_bound(repo: Repo, f: FuncInfo, upper_call: ast.Call) -> ast.expr | None:
+    """The expression giving the lower index of the slice whose upper index is (the local holding) `upper_call`."""
+    if isinstance(f.node, ast.Lambda):
+        return None
+    targets = {id(upper_call)}
+    st = stmt_of(upper_call)
+    var = st.targets[0].id if isinstance(st, ast.Assign) and st.value is upper_call and len(st.targets) == 1 and isinstance(st.targets[0], ast.Name) else None
+    for x in own_nodes(f.node):
+        if isinstance(x, ast.Subscript) and isinstance(x.slice, ast.Slice) and x.slice.upper is not None and x.slice.lower is not None:
+            up = x.slice.upper
+            if id(up) in targets or (var is not None and isinstance(up, ast.Name) and up.id == var):
+                lo = x.slice.lower
+                if isinstance(lo, ast.Name):
+                    lo = local_defs(repo, f).get(lo.id, lo)
+                return lo
+    return None
+
+
+def _only_compared_with_zero(repo: Repo, f: FuncInfo, call: ast.Call) -> bool:
+    """The result of `x.find(p)` / `x.index(p)` is used for nothing but `== 0` / `!= 0` (directly or through one local)."""
+
+    def is_zero_test(u: ast.AST) -> bool:
+        p = parent(u)
+        return isinstance(p, ast.Compare) and len(p.ops) == 1 and isinstance(p.ops[0], (ast.Eq, ast.NotEq)) and any(isinstance(x, ast.Constant) and x.value == 0 and x.value is not False for x in (p.left, p.comparators[0]))
+
+    if is_zero_test(call):
+        return True
+    st = stmt_of(call)
+    if isinstance(st, ast.Assign) and st.value is call and len(st.targets) == 1 and isinstance(st.targets[0], ast.Name) and not isinstance(f.node, ast.Lambda):
+        var = st.targets[0].id
+        stores = [x for x in own_nodes(f.node) if isinstance(x, ast.Name) and x.id == var and isinstance(x.ctx, ast.Store)]
+        loads = [x for x in own_nodes(f.node) if isinstance(x, ast.Name) and x.id == var and isinstance(x.ctx, ast.Load)]
+        return len(stores) == 1 and bool(loads) and all(is_zero_test(x) for x in loads)
+    return False
+
+
+def _zip_in_all(call: ast.Call) -> bool:
+    """zip(..) is the iterable of the generator inside all(..): an element-wise equality test."""
+    p = parent(call)
+    if not isinstance(p, ast.comprehension) or p.iter is not call:
+        return False
+    comp = parent(p)
+    if not isinstance(comp, (ast.GeneratorExp, ast.ListComp)):
+        return False
+    outer = parent(comp)
+    return isinstance(outer, ast.Call) and _call_name(outer) == "all" and isinstance(comp.elt, ast.Compare) and all(isinstance(o, ast.Eq) for o in comp.elt.ops)
+
+
+def _char_prefix_sites(repo: Repo, f: FuncInfo, loop: ast.For, char: str, it: ast.expr) -> list[Site]:
+    """A loop over the characters of a name that accumulates them (`acc.append(c)`, `acc += c`) emits prefixes of the name:
+    every use of the accumulator inside the loop must be guarded by `c == "."`."""
+    from core.guards import atom as mk, atoms_of, f_or, implies
+
+    from .common import guard_formula
+
+    accs: dict[str, list[ast.AST]] = {}
+    body_nodes = [x for st in loop.body for x in ast.walk(st)]
+    for x in body_nodes:
+        if isinstance(x, ast.Call) and isinstance(x.func, ast.Attribute) and x.func.attr == "append" and isinstance(x.func.value, ast.Name) and len(x.args) == 1 and isinstance(x.args[0], ast.Name) and x.args[0].id == char:
+            accs.setdefault(x.func.value.id, []).append(x)
+        if isinstance(x, ast.AugAssign) and isinstance(x.op, ast.Add) and isinstance(x.target, ast.Name) and any(isinstance(y, ast.Name) and y.id == char for y in ast.walk(x.value)):
+            accs.setdefault(x.target.id, []).append(x)
+    out: list[Site] = []
+    for acc, stmts in accs.items():
+        own = {id(y) for st_ in stmts for y in ast.walk(st_)}
+        for x in body_nodes:
+            if isinstance(x, ast.Name) and x.id == acc and isinstance(x.ctx, ast.Load) and id(x) not in own:
+                facts = guard_formula(f, x)
+                good = []
+                for a in atoms_of(facts):
+                    e = _parse_atom(a)
+                    if isinstance(e, ast.Compare) and len(e.ops) == 1 and isinstance(e.ops[0], ast.Eq):
+                        sides = [e.left, e.comparators[0]]
+                        if any(isinstance(x, ast.Name) and x.id == char for x in sides) and any(_char_value(repo, f, x) == "." for x in sides if not (isinstance(x, ast.Name) and x.id == char)):
+                            good.append(mk(a))
+                try:
+                    ok = bool(good) and implies(facts, f_or(good))
+                except AnalysisError:
+                    ok = False
+                use = stmt_of(x)
+                out.append(Site(f, use if use is not None else x, "char-prefix", it, x, True, "safe" if ok else "unsafe", "the accumulated characters are used only where the current character is the separator" if ok else f"`{norm(use, 60)}`: the characters accumulated so far (a raw string prefix of the name) are used at a position that is not tested to hold '.'", "separator"))
+    return out
+
+
 def scan(repo: Repo) -> list[Site]:
+    key = ("name_sites", id(repo))
+    if key not in _cache:
+        _cache[key] = _scan(repo)
+    return list(_cache[key])
+
+
+def _scan(repo: Repo) -> list[Site]:
     T = types_of(repo)
     flow = name_flow(repo)
     sites: list[Site] = []
@@ -549,104 +3252,337 @@ def scan(repo: Repo) -> list[Site]:
     for f in repo.all_functions():
         reviewed = REVIEWED_PATTERN_SITES.get((f.module.name, f.qualname))
         for n in own_nodes(f.node):
-            # ---- method-style operations
-            if isinstance(n, ast.Call) and isinstance(n.func, ast.Attribute) and n.func.attr in STR_REL_METHODS and n.args:
-                hay, needle, op = n.func.value, n.args[0], n.func.attr
-                s = _is_str(T, f, hay)
-                if s is False:
+            try:
+                # ---- case folding of a name that is then compared: distinct names become one
+                if isinstance(n, ast.Call) and isinstance(n.func, ast.Attribute) and n.func.attr in ("lower", "upper", "casefold", "swapcase", "title", "capitalize") and not n.args and "NAME" in tagged(n.func.value) and _is_str(T, f, n.func.value) is not False:
+                    p_ = parent(n)
+                    used_in_test = isinstance(p_, ast.Compare) or (isinstance(p_, ast.Attribute) and p_.attr in STR_REL_METHODS) or (isinstance(p_, ast.Call) and isinstance(p_.func, ast.Attribute) and p_.func.attr in STR_REL_METHODS and n in p_.args)
+                    if used_in_test:
+                        sites.append(Site(f, n, "casefold", n.func.value, None, True, "unsafe", f"`{norm(p_, 80)}`: a module name is case-folded before it is compared - names that differ only in case are identified (not invariant under injective renaming)"))
                     continue
-                tags = tagged(hay)
-                is_name = "NAME" in tags
-                if not is_name:
-                    sites.append(Site(f, n, op, hay, needle, False, "not-name" if s else "unclassified", f"haystack `{norm(hay, 40)}` is not derived from a module name" if s else "provenance of the haystack unknown"))
-                    continue
-                if op in ("startswith", "removeprefix"):
-                    st = dot_status(repo, f, needle)
-                    safe = st == "dot" or _boundary_companion(f, n, hay, needle)
-                    why = "prefix ends in '.' (whole dotted components)" if safe else f"`{norm(n, 80)}`: raw string prefix test on a module name - 'pkg.ab' counts as part of 'pkg.a'"
-                    if not safe and _boundary_predicate(repo, f, norm(hay), norm(needle)):
-                        safe, why = True, "raw prefix test inside a predicate that also requires the next character to be '.' or absent"
-                        boundary_funcs.add(f.fq)
-                    if not safe and st == "unknown":
-                        sites.append(Site(f, n, op, hay, needle, True, "unknown", f"`{norm(n, 80)}`: cannot establish whether the prefix `{norm(needle, 40)}` ends with the separator '.'"))
+                # ---- method-style operations
+                if isinstance(n, ast.Call) and isinstance(n.func, ast.Attribute) and (n.func.attr in STR_REL_METHODS or n.func.attr in ("split", "rsplit")) and n.args:
+                    hay, needle, op = n.func.value, n.args[0], n.func.attr
+                    if isinstance(hay, ast.Name) and hay.id == "str" and len(n.args) >= 2 and not _is_local(f, "str"):
+                        hay, needle = n.args[0], n.args[1]  # unbound method: str.startswith(name, prefix)
+                    s = _is_str(T, f, hay)
+                    if s is False:
                         continue
-                elif op in ("endswith", "removesuffix"):
-                    safe = isinstance(needle, (ast.Constant, ast.JoinedStr)) and (norm(needle).strip("f'\"").startswith("."))
-                    why = "suffix starts at a '.' boundary" if safe else f"`{norm(n, 80)}`: raw string suffix test on a module name"
-                elif op in ("count", "find", "index", "rfind", "rindex", "partition", "rpartition"):
-                    safe = isinstance(needle, ast.Constant) and needle.value == "."
-                    why = "only the separator '.' is searched" if safe else f"`{norm(n, 80)}`: substring search inside a module name ignores component boundaries"
-                else:  # replace
-                    safe = isinstance(needle, ast.Constant) and not ("NAME" in tagged(needle))
-                    why = "replaces a constant" if safe else f"`{norm(n, 80)}`: str.replace substitutes every occurrence of one module name inside another, not a leading run of whole components"
-                sites.append(Site(f, n, op, hay, needle, True, "safe" if safe else "unsafe", why))
-            # ---- substring containment
-            elif isinstance(n, ast.Compare) and len(n.ops) == 1 and isinstance(n.ops[0], (ast.In, ast.NotIn)):
-                needle, hay = n.left, n.comparators[0]
-                s = _is_str(T, f, hay)
-                if s is False:
-                    continue
-                tags = tagged(hay)
-                if s is None and "NAME" not in tags:
-                    continue
-                # a NAME-tagged value of unknown static type may be a collection of names: decide by how it was built
-                if s is None:
-                    t = T.expr(f, hay)
-                    continue
-                if "NAME" in tags or "NAME" in tagged(needle):
-                    if isinstance(needle, ast.Constant) and needle.value == ".":
-                        sites.append(Site(f, n, "in", hay, needle, True, "safe", "tests for the separator only"))
+                    if s is None and op in ("count", "index"):
+                        continue  # list.count / list.index on a value of unknown static type
+                    tags = tagged(hay)
+                    is_name = "NAME" in tags
+                    if not is_name:
+                        if op not in ("split", "rsplit"):
+                            sites.append(Site(f, n, op, hay, needle, False, "not-name" if s else "unclassified", f"haystack `{norm(hay, 40)}` is not derived from a module name" if s else "provenance of the haystack unknown"))
+                        continue
+                    const = _const_str(needle)
+                    if const is None and isinstance(needle, (ast.Name, ast.Attribute, ast.JoinedStr, ast.BinOp)) and "NAME" not in tagged(needle):
+                        const = fold(repo, f.module, needle, f)  # a module-level / local constant
+                        if const is None and isinstance(needle, ast.Attribute):
+                            const = _attr_constant(repo, T, f, needle)
+                    group = "relation"
+                    if op in ("startswith", "removeprefix"):
+                        if const is not None and not const.endswith("."):
+                            sites.append(Site(f, n, op, hay, needle, True, "not-name", f"constant prefix {const!r}: a lexical test, not a relation between two module names"))
+                            continue
+                        parts = needle.elts if isinstance(needle, ast.Tuple) else [needle]
+                        if isinstance(needle, ast.Tuple) and parts and all(_const_str(x) is not None and not _const_str(x).endswith(".") for x in parts):
+                            sites.append(Site(f, n, op, hay, needle, True, "not-name", "constant prefixes: a lexical test, not a relation between two module names"))
+                            continue
+                        sts = {needle_status(repo, f, p) for p in parts}
+                        st = sts.pop() if len(sts) == 1 else ("bare" if "bare" in sts else "unknown")
+                        safe = st == "dot" or _boundary_companion(f, n, hay, needle)
+                        why = "prefix ends in '.' (whole dotted components)" if safe else f"`{norm(n, 80)}`: raw string prefix test on a module name - 'pkg.ab' counts as part of 'pkg.a'"
+                        if not safe and _boundary_predicate(repo, f, norm(hay), norm(needle)):
+                            safe, why = True, "raw prefix test inside a predicate that also requires the next character to be '.' or absent"
+                            boundary_funcs.add(f.fq)
+                        if not safe and len(parts) == 1 and op == "startswith":
+                            reason = _raw_test_is_guarded(repo, f, n, hay, needle)
+                            if reason is not None:
+                                safe, why = True, reason
+                        if not safe and op == "removeprefix" and st == "bare" and len(parts) == 1:
+                            v, w = _slice_by_len(repo, f, n, needle, boundary_funcs, hay_e=hay)
+                            if v == "safe":
+                                safe, why = True, w
+                        if not safe and st == "unknown":
+                            sites.append(Site(f, n, op, hay, needle, True, "unknown", f"`{norm(n, 80)}`: cannot establish whether the prefix `{norm(needle, 40)}` ends with the separator '.'"))
+                            continue
+                    elif op in ("lstrip", "rstrip", "strip"):
+                        if const is not None or "NAME" not in tagged(needle):
+                            continue  # stripping constant characters (a trailing '.') is not a relation between names
+                        safe, why = False, f"`{norm(n, 80)}`: str.{op} removes *characters* of the other name from the end(s), not a prefix or suffix of whole components"
+                    elif op in ("endswith", "removesuffix"):
+                        if const is not None and not const.startswith("."):
+                            sites.append(Site(f, n, op, hay, needle, True, "not-name", f"constant suffix {const!r}: a lexical test, not a relation between two module names"))
+                            continue
+                        safe = _starts_with_dot(_expand(repo, f, needle))
+                        why = "suffix starts at a '.' boundary" if safe else f"`{norm(n, 80)}`: raw string suffix test on a module name"
+                    elif op in ("count", "find", "index", "rfind", "rindex", "partition", "rpartition", "split", "rsplit"):
+                        safe = const == "."
+                        if const is not None:
+                            group = "separator"
+                            why = "only the separator '.' is searched" if safe else f"`{norm(n, 80)}`: a module name is cut / searched at {const!r}, not at the separator '.'"
+                        elif op in ("find", "index") and _only_compared_with_zero(repo, f, n) and needle_status(repo, f, needle) == "dot":
+                            safe, why = True, "the position of a prefix that ends in '.' is only compared with 0: a prefix test on whole dotted components"
+                        elif op == "partition" and _head_tested_empty(repo, f, n) and needle_status(repo, f, needle) == "dot":
+                            safe, why = True, "the name is partitioned at a prefix that ends in '.' and the part before it is tested to be empty: a prefix test on whole dotted components"
+                        else:
+                            why = f"`{norm(n, 80)}`: substring search inside a module name ignores component boundaries"
+                    else:  # replace
+                        ntags = tagged(needle)
+                        if const is None and "NAME" not in ntags:
+                            sites.append(Site(f, n, op, hay, needle, True, "not-name", "replaces a non-name string"))
+                            continue
+                        safe = const is not None and "NAME" not in ntags
+                        repl = _const_str(n.args[1]) if len(n.args) > 1 else None
+                        if safe and const not in (".", "/", "\\") and repl is not None and "." in repl:
+                            sites.append(Site(f, n, op, hay, needle, True, "unsafe", f"`{norm(n, 80)}`: {const!r} inside a module name is turned into the separator - different names become one", "separator"))
+                            continue
+                        why = "replaces a constant" if safe else f"`{norm(n, 80)}`: str.replace substitutes every occurrence of one module name inside another, not a leading run of whole components"
+                    sites.append(Site(f, n, op, hay, needle, True, "safe" if safe else "unsafe", why, group))
+                # ---- joining components
+                elif isinstance(n, ast.Call) and isinstance(n.func, ast.Attribute) and n.func.attr == "join" and len(n.args) == 1 and _const_str(n.func.value) is not None:
+                    arg = n.args[0]
+                    comp = arg if isinstance(arg, (ast.GeneratorExp, ast.ListComp)) else None
+                    elt = comp.elt if comp is not None else None
+                    if comp is None:
+                        if "PARTS" not in tagged(arg):
+                            continue
+                    elif "COMP" not in tagged(elt):
+                        continue
+                    sep = _const_str(n.func.value)
+                    if sep in ("/", "\\"):
+                        continue  # a module name written as a path
+                    decorated = elt is not None and (_starts_with_dot(elt) or dot_status(repo, f, elt) == "dot")
+                    if comp is not None and not isinstance(elt, ast.Name) and not decorated:
+                        continue  # text built from components (a message), not a name
+                    if sep == "." and not decorated:
+                        verdict, why = "safe", "components are joined with the separator '.'"
+                    elif sep == "" and decorated:
+                        verdict, why = "safe", "every joined component carries its separator '.'"
                     else:
-                        sites.append(Site(f, n, "in", hay, needle, True, "unsafe", f"`{norm(n, 80)}`: substring test between strings where a module name is involved ('pkg.a' in 'pkg.ab.c' is true)"))
-                else:
-                    sites.append(Site(f, n, "in", hay, needle, False, "not-name", "substring test on a non-name string"))
-            # ---- regexes built from values
-            elif isinstance(n, ast.Call) and (repo.resolve_name(f.module, n.func) or "").startswith("re.") and n.args:
-                fq = repo.resolve_name(f.module, n.func)
-                if fq in ("re.escape",):
-                    continue
-                pat = n.args[0]
-                ptags = tagged(pat)
-                if isinstance(pat, ast.Constant):
-                    continue
-                if reviewed:
-                    sites.append(Site(f, n, fq, n.args[1] if len(n.args) > 1 else None, pat, True, "reviewed", reviewed))
-                    continue
-                if "NAME" in ptags:
-                    sites.append(Site(f, n, fq, n.args[-1], pat, True, "unsafe", f"`{norm(n, 80)}`: a regular expression is built from an un-escaped module name ('.' matches any character; no component boundary)"))
-                elif "ESC:NAME" in ptags:
-                    text = norm(pat)
-                    safe = "(\\.|$)" in text or "(\\\\.|$)" in text or "\\." in text
-                    sites.append(Site(f, n, fq, n.args[-1], pat, True, "safe" if safe else "unsafe", "escaped name followed by a component boundary" if safe else f"`{norm(n, 80)}`: escaped module name without a trailing component boundary"))
-                elif ptags & {"REGEX"}:
-                    sites.append(Site(f, n, fq, n.args[-1], pat, False, "reviewed", "user-supplied regex"))
-                else:
-                    # pattern built from constants / non-name values
-                    sites.append(Site(f, n, fq, n.args[-1] if len(n.args) > 1 else None, pat, False, "not-name", "pattern is not derived from a module name"))
-            # ---- slicing by len(other) on a name
-            elif isinstance(n, ast.Subscript) and isinstance(n.slice, ast.Slice) and "NAME" in tagged(n.value):
-                lens = [c for c in ast.walk(n.slice) if isinstance(c, ast.Call) and isinstance(c.func, ast.Name) and c.func.id == "len"]
-                if lens and _is_str(T, f, n.value) is not False:
-                    other_e = lens[0].args[0] if lens[0].args else None
-                    other = norm(other_e) if other_e is not None else ""
-                    hay = norm(n.value)
-                    if other_e is not None and _is_str(T, f, other_e) is False:
-                        continue  # length of a component list, not of a string
-                    from core.guards import f_or, implies
-
-                    facts, others = _site_facts(repo, f, n, other)
-                    safe_a, raw_a = _relation_atoms(repo, f, facts, hay, others)
-                    if safe_a and implies(facts, f_or(safe_a)):
-                        verdict, why = "safe", "prefix length of an ancestor established by a boundary-safe test"
-                    elif other_e is not None and _ancestor_or_self(repo, f, other_e, hay):
-                        verdict, why = "safe", "the other string is the name itself or one of its ancestors (get_parent_modules)"
-                    elif f.fq in boundary_funcs or _boundary_predicate(repo, f, hay, other):
-                        verdict, why = "safe", "the remainder is only examined by the boundary test of this predicate"
-                    elif raw_a and implies(facts, f_or([*safe_a, *raw_a])):
-                        verdict, why = "unsafe", f"`{norm(n, 60)}` cuts a module name at the length of another string without a boundary-safe prefix test"
+                        verdict, why = "unsafe", f"`{norm(n, 80)}`: the components of a module name are joined with {sep!r}, not with the separator '.'"
+                    sites.append(Site(f, n, "join", n.args[0], n.func.value, True, verdict, why, "separator"))
+                # ---- a bound str method handed to map / filter / any: `any(map(name.startswith, prefixes))`
+                elif isinstance(n, ast.Call) and isinstance(n.func, ast.Name) and n.func.id in ("map", "filter") and len(n.args) == 2 and isinstance(n.args[0], ast.Attribute) and n.args[0].attr in ("startswith", "endswith", "find", "__contains__"):
+                    hay = n.args[0].value
+                    if _is_str(T, f, hay) is False or "NAME" not in tagged(hay):
+                        continue
+                    needle = ast.Starred(value=n.args[1], ctx=ast.Load())
+                    st = dot_status(repo, f, needle)
+                    if st == "unknown":
+                        tg = tagged(n.args[1])
+                        st = "bare" if "DOT" not in tg and "NAME" in tg else "unknown"
+                    op = n.args[0].attr
+                    if op == "startswith" and st == "dot":
+                        sites.append(Site(f, n, op, hay, n.args[1], True, "safe", "every prefix ends in '.' (whole dotted components)"))
+                    elif op == "startswith" and st == "unknown":
+                        sites.append(Site(f, n, op, hay, n.args[1], True, "unknown", f"`{norm(n, 80)}`: cannot establish whether the prefixes end with the separator '.'"))
                     else:
-                        verdict, why = "unknown", f"`{norm(n, 60)}`: no test relating `{hay}` and `{other}` found on the paths to this slice"
-                    sites.append(Site(f, n, "slice-by-len", n.value, lens[0], True, verdict, why))
+                        sites.append(Site(f, n, op, hay, n.args[1], True, "unsafe", f"`{norm(n, 80)}`: raw string {op} test on a module name, applied through the bound method"))
+                # ---- a range of the sorted names delimited by a constructed key: bisect(names, name + "~")
+                elif isinstance(n, ast.Call) and (repo.resolve_name(f.module, n.func) or "").startswith("bisect.bisect") and len(n.args) >= 2:
+                    key_e = _expand(repo, f, n.args[1])
+                    if "NAME" not in tagged(n.args[1]):
+                        continue
+                    # the piece that directly follows the name
+                    follow = None
+                    if isinstance(key_e, ast.JoinedStr) and len(key_e.values) >= 2 and isinstance(key_e.values[0], ast.FormattedValue):
+                        follow = key_e.values[1].value if isinstance(key_e.values[1], ast.FormattedValue) else key_e.values[1]
+                    elif isinstance(key_e, ast.BinOp) and isinstance(key_e.op, ast.Add):
+                        x = key_e
+                        while isinstance(x.left, ast.BinOp) and isinstance(x.left.op, ast.Add):
+                            x = x.left
+                        follow = x.right
+                    if follow is None:
+                        continue  # the position of the name itself
+                    c = _char_value(repo, f, follow)
+                    if c is not None and c[:1] == ".":
+                        sites.append(Site(f, n, "bisect", n.args[0], n.args[1], True, "safe", "the bound continues the name with the separator: the block of its sub modules in the sorted names"))
+                    elif c is not None and c[:1] == "/":
+                        # exclusive upper bound of the block; the block must start behind the name itself, at name + "."
+                        lower = _block_lower_bound(repo, f, n)
+                        if lower is not None and isinstance(lower, ast.Call) and len(lower.args) >= 2 and norm(_expand(repo, f, lower.args[1])) == norm(_expand(repo, f, key_e.values[0].value if isinstance(key_e, ast.JoinedStr) else x.left)):
+                            sites.append(Site(f, n, "bisect", n.args[0], n.args[1], True, "unsafe", f"`{norm(n, 70)}`: the block of sorted names starts at the module name itself and ends before name + '/': names that continue it with a character below '.' ('pkg.core-legacy', 'pkg.core+') are inside as well; the block of sub modules starts at name + '.'"))
+                        else:
+                            sites.append(Site(f, n, "bisect", n.args[0], n.args[1], True, "safe", "exclusive upper bound of the block of sub modules: the successor of the separator"))
+                    elif c is not None:
+                        sites.append(Site(f, n, "bisect", n.args[0], n.args[1], True, "unsafe", f"`{norm(n, 80)}`: the sorted names up to the module name followed by {c[:1]!r} are all names that have it as raw string prefix ('pkg.ab', 'pkg.a_b' for 'pkg.a'), not only its sub modules"))
+                    else:
+                        sites.append(Site(f, n, "bisect", n.args[0], n.args[1], True, "unknown", f"`{norm(n, 80)}`: a range of the sorted names is delimited by a key built from a module name; cannot establish that it ends right after the separator"))
+                # ---- an early stop while scanning sorted names for ancestors: takewhile(is_ancestor, reversed(sorted_names))
+                elif isinstance(n, ast.Call) and _call_name(n) in ("takewhile", "dropwhile") and len(n.args) == 2 and "NAME" in tagged(n.args[1]):
+                    pred = n.args[0]
+                    body = pred.body if isinstance(pred, ast.Lambda) else None
+                    relational = body is not None and any(
+                        isinstance(x, ast.Call) and isinstance(x.func, ast.Attribute) and x.func.attr in ("startswith", "endswith", "find", "index", "partition", "removeprefix")
+                        and any("NAME" in tagged(y) for y in [x.func.value, *x.args] if isinstance(y, ast.expr))
+                        for x in ast.walk(body)
+                    )
+                    if not relational and isinstance(pred, (ast.Name, ast.Attribute, ast.Call)):
+                        target = pred.args[0] if isinstance(pred, ast.Call) and _call_name(pred) == "partial" and pred.args else pred
+                        callee = _resolve_callable_text(repo, f, _clone(target)) if isinstance(target, (ast.Name, ast.Attribute)) else None
+                        relational = callee is not None and any(s_.fi is callee and s_.name_typed and s_.group == "relation" for s_ in sites)
+                    if relational:
+                        sites.append(Site(f, n, _call_name(n), n.args[1], pred, True, "unsafe", f"`{norm(n, 80)}`: the scan over the names stops at the first one that is not related - this assumes that related names (ancestors) are neighbours in sort order, which depends on how their siblings are called ('pkg', 'pkg.a' | 'pkg.b.x': the sibling 'pkg.a' hides the ancestor 'pkg')"))
+                # ---- library functions that compare names character by character
+                elif isinstance(n, ast.Call) and (repo.resolve_name(f.module, n.func) or "") in ("os.path.commonprefix", "posixpath.commonprefix", "fnmatch.fnmatch", "fnmatch.fnmatchcase", "fnmatch.filter") and n.args:
+                    fq = repo.resolve_name(f.module, n.func)
+                    if fq.endswith("commonprefix"):
+                        if "NAME" in tagged(n.args[0]):
+                            sites.append(Site(f, n, "commonprefix", n.args[0], None, True, "unsafe", f"`{norm(n, 80)}`: commonprefix compares character by character - the common prefix of 'pkg.ab' and 'pkg.a' is 'pkg.a'"))
+                    elif len(n.args) >= 2:
+                        pat = _expand(repo, f, n.args[1])
+                        if "NAME" in tagged(n.args[1]) and "NAME" in tagged(n.args[0]):
+                            tail = pat.values[-1] if isinstance(pat, ast.JoinedStr) and pat.values else (pat.right if isinstance(pat, ast.BinOp) and isinstance(pat.op, ast.Add) else None)
+                            ok = (_const_str(tail) or "").startswith(".") if tail is not None else False
+                            sites.append(Site(f, n, "fnmatch", n.args[0], n.args[1], True, "safe" if ok else "unsafe", "glob pattern continues with the separator after the name" if ok else f"`{norm(n, 80)}`: a glob pattern is built from a module name without a component boundary (and its metacharacters are not escaped)"))
+                # ---- comparison of two names through zip: character by character, or component-wise
+                elif isinstance(n, ast.Call) and isinstance(n.func, ast.Name) and n.func.id == "zip" and len(n.args) == 2 and _zip_in_all(n):
+                    if all("NAME" in tagged(a) and "PARTS" not in tagged(a) and _is_str(T, f, a) is True for a in n.args):
+                        sites.append(Site(f, n, "zip-characters", n.args[0], n.args[1], True, "unsafe", f"`{norm(n, 80)}`: two module names are compared character by character up to the length of the shorter one - a raw string prefix test"))
+                        continue
+                    if not all("PARTS" in tagged(a) for a in n.args):
+                        continue
+                    strict = any(k.arg == "strict" and isinstance(k.value, ast.Constant) and k.value.value is True for k in n.keywords)
+                    texts = set()
+                    for a in n.args:
+                        texts.add(norm(a))
+                        d = _expand(repo, f, a)
+                        texts.add(norm(d))
+                    lens = False
+                    for c in own_nodes(f.node):
+                        if isinstance(c, ast.Compare) and len(c.ops) == 1:
+                            sides = [c.left, c.comparators[0]]
+                            got = [any(isinstance(x, ast.Call) and _call_name(x) == "len" and x.args and norm(x.args[0]) in texts for x in ast.walk(sd)) for sd in sides]
+                            if all(got):
+                                lens = True
+                    if strict or lens:
+                        verdict, why = "safe", "component lists compared element-wise, their lengths separately"
+                    else:
+                        verdict, why = "unsafe", f"`{norm(n, 80)}`: zip stops at the shorter component list - a proper ancestor ('pkg' for the prefix 'pkg.core') compares equal, the prefix relation holds in both directions"
+                    sites.append(Site(f, n, "zip-components", n.args[0], n.args[1], True, verdict, why, "extent"))
+                # ---- substring containment
+                elif isinstance(n, ast.Compare) and len(n.ops) == 1 and isinstance(n.ops[0], (ast.In, ast.NotIn)):
+                    needle, hay = n.left, n.comparators[0]
+                    s = _is_str(T, f, hay)
+                    if s is False or isinstance(hay, ast.Constant):
+                        continue  # (membership of a character in a constant set of characters: see char-compare)
+                    tags = tagged(hay)
+                    if s is None:
+                        continue  # a NAME-tagged value of unknown static type may be a collection of names
+                    if "NAME" in tags or "NAME" in tagged(needle):
+                        folded = _const_str(needle)
+                        if folded is None and "NAME" not in tagged(needle) and isinstance(needle, (ast.Name, ast.Attribute)):
+                            folded = fold(repo, f.module, needle, f) or (_attr_constant(repo, T, f, needle) if isinstance(needle, ast.Attribute) else None)
+                        if folded is not None:
+                            needle_c = ast.Constant(value=folded)
+                            ok = folded == "."
+                            sites.append(Site(f, n, "in", hay, needle, True, "safe" if ok else "not-name", "tests for the separator only" if ok else f"constant {folded!r} searched in a name: a lexical test, not a relation between two module names", "separator" if ok else "relation"))
+                        elif isinstance(needle, ast.Constant) and isinstance(needle.value, str):
+                            ok = needle.value == "."
+                            sites.append(Site(f, n, "in", hay, needle, True, "safe" if ok else "not-name", "tests for the separator only" if ok else f"constant {needle.value!r} searched in a name: a lexical test, not a relation between two module names", "separator" if ok else "relation"))
+                        elif "NAME" not in tags and _is_str(T, f, needle) is not True:
+                            continue
+                        elif all(_starts_with_dot(x) and dot_status(repo, f, x) == "dot" for x in (_expand(repo, f, needle), _expand(repo, f, hay))):
+                            sites.append(Site(f, n, "in", hay, needle, True, "safe", "both strings are enclosed in separators: a run of whole components is searched"))
+                        else:
+                            sites.append(Site(f, n, "in", hay, needle, True, "unsafe", f"`{norm(n, 80)}`: substring test between strings where a module name is involved ('pkg.a' in 'pkg.ab.c' is true)"))
+                    else:
+                        sites.append(Site(f, n, "in", hay, needle, False, "not-name", "substring test on a non-name string"))
+                # ---- regexes built from values
+                elif isinstance(n, ast.Call) and (repo.resolve_name(f.module, n.func) or "").startswith("re.") and n.args:
+                    fq = repo.resolve_name(f.module, n.func)
+                    if fq in ("re.escape",):
+                        continue
+                    pat = n.args[0]
+                    ptags = tagged(pat)
+                    if isinstance(pat, ast.Constant):
+                        continue
+                    if "NAME" in ptags and _user_regex(repo, f, pat):
+                        sites.append(Site(f, n, fq, n.args[1] if len(n.args) > 1 else None, pat, True, "reviewed", "the pattern is the identifier of a regex filter (ModuleNameRegexFilter): a user-supplied regex matched against names by design"))
+                        continue
+                    if reviewed:
+                        sites.append(Site(f, n, fq, n.args[1] if len(n.args) > 1 else None, pat, True, "reviewed", reviewed))
+                        continue
+                    pieces = _pattern_pieces(repo, f, pat) if "NAME" in ptags else None
+                    all_escaped = pieces is not None and not pieces[0] and pieces[1]
+                    if all_escaped:
+                        ptags = (ptags - {"NAME"}) | {"ESC:NAME"}
+                    if "NAME" in ptags:
+                        sites.append(Site(f, n, fq, n.args[-1], pat, True, "unsafe", f"`{norm(n, 80)}`: a regular expression is built from an un-escaped module name ('.' matches any character; no component boundary)"))
+                    elif "ESC:NAME" in ptags:
+                        text = norm(_expand(repo, f, pat))
+                        safe = "(\\.|$)" in text or "(\\\\.|$)" in text or "\\." in text or "\\b" in text or fq == "re.fullmatch"
+                        sites.append(Site(f, n, fq, n.args[-1], pat, True, "safe" if safe else "unsafe", "escaped name followed by a component boundary" if safe else f"`{norm(n, 80)}`: escaped module name without a trailing component boundary"))
+                    elif ptags & {"REGEX"}:
+                        sites.append(Site(f, n, fq, n.args[-1], pat, False, "reviewed", "user-supplied regex"))
+                    else:
+                        # pattern built from constants / non-name values
+                        sites.append(Site(f, n, fq, n.args[-1] if len(n.args) > 1 else None, pat, False, "not-name", "pattern is not derived from a module name"))
+                # ---- slicing a name
+                elif isinstance(n, ast.Subscript) and isinstance(n.slice, ast.Slice) and isinstance(n.ctx, ast.Load) and "NAME" in tagged(n.value):
+                    s = _is_str(T, f, n.value)
+                    if s is False:
+                        continue
+                    bounds = [(n.slice.lower, False), (n.slice.upper, True)]
+                    as_test = _slice_as_prefix_test(repo, f, n)
+                    if as_test is not None:
+                        sites.append(Site(f, n, "slice-compare", n.value, parent(n), True, as_test[0], as_test[1]))
+                        continue
+                    hay_t = norm(n.value)
+                    by_len = next((c for b, _u in bounds for c in [_len_bound(repo, f, b, hay_t)] if c is not None), None)
+                    if by_len is not None:
+                        other_e = by_len.args[0]
+                        if _is_str(T, f, other_e) is False:
+                            continue  # length of a component list, not of a string
+                        verdict, why = _slice_by_len(repo, f, n, other_e, boundary_funcs)
+                        sites.append(Site(f, n, "slice-by-len", n.value, by_len, True, verdict, why))
+                        continue
+                    if s is not True or "PARTS" in tagged(n.value):
+                        continue
+                    for b, is_upper in bounds:
+                        if b is None or _len_calls(repo, f, b):
+                            continue  # (a bound relative to the own length: a cut counted from the end, see the other bound)
+                        try:
+                            ast.literal_eval(b)
+                            continue  # constant bound
+                        except Exception:  # noqa: BLE001
+                            pass
+                        verdict, why = _index_cut(repo, f, n, b, is_upper)
+                        sites.append(Site(f, n, "slice-by-index", n.value, b, True, verdict, why))
+                        break
+                # ---- characters of a name compared with constants
+                elif isinstance(n, (ast.For, ast.AsyncFor, ast.comprehension)):
+                    it = n.iter
+                    if isinstance(it, ast.Call) and _call_name(it) == "enumerate" and it.args:
+                        tgt = n.target.elts[1] if isinstance(n.target, ast.Tuple) and len(n.target.elts) == 2 else None
+                        it = it.args[0]
+                    else:
+                        tgt = n.target
+                    if not isinstance(tgt, ast.Name) or "NAME" not in tagged(it) or _is_str(T, f, it) is not True:
+                        continue
+                    if isinstance(n, (ast.For, ast.AsyncFor)):
+                        sites.extend(_char_prefix_sites(repo, f, n, tgt.id, it))
+                    for c in own_nodes(f.node):
+                        if isinstance(c, ast.Compare) and len(c.ops) == 1 and any(isinstance(x, ast.Name) and x.id == tgt.id for x in (c.left, c.comparators[0])):
+                            other = c.comparators[0] if isinstance(c.left, ast.Name) and c.left.id == tgt.id else c.left
+                            k = _const_str(other)
+                            if k is None and isinstance(other, (ast.Name, ast.Attribute)):
+                                k = _char_value(repo, f, other) or (_attr_constant(repo, T, f, other) if isinstance(other, ast.Attribute) else None)
+                            if k is None and isinstance(other, (ast.Tuple, ast.List, ast.Set)) and all(_const_str(x) is not None for x in other.elts):
+                                k = "".join(sorted({_const_str(x) for x in other.elts}))
+                            if k is None:
+                                continue
+                            ok = k == "."
+                            sites.append(Site(f, c, "char-compare", it, other, True, "safe" if ok else "unsafe", "characters of the name are compared with the separator '.' only" if ok else f"`{norm(c, 60)}`: characters of a module name are compared with {k!r} - names are cut at other characters than '.'", "separator"))
+            except RecursionError:
+                raise
+            except Exception as exc:  # noqa: BLE001 - an unusual shape must not pass silently nor abort the whole lint
+                probe = [x for x in ast.walk(n) if isinstance(x, ast.expr)][:40] if isinstance(n, (ast.Call, ast.Compare, ast.Subscript)) else []
+                if any("NAME" in tagged(x) for x in probe):
+                    sites.append(Site(f, n, "internal", None, None, True, "unknown", f"`{norm(n, 60)}`: the lint failed on this construct ({type(exc).__name__}: {str(exc)[:80]})"))
     return sites
 
 
@@ -671,13 +3607,19 @@ def fixture_selfcheck() -> str:
         by_fn: dict[str, set[str]] = {}
         for s_ in sites:
             if s_.name_typed:
-                by_fn.setdefault(s_.fi.name, set()).add(s_.verdict)
+                top = s_.fi
+                while top.outer is not None:
+                    top = top.outer
+                by_fn.setdefault(top.name, set()).add(s_.verdict)
         tree = ast.parse(fx.read_text())
-        want_unsafe = [n.name for n in tree.body if isinstance(n, ast.FunctionDef) and n.name.startswith("unsafe_")]
-        want_safe = [n.name for n in tree.body if isinstance(n, ast.FunctionDef) and (n.name.startswith("safe_") or n.name.startswith("_safe_"))]
-        bad = [n for n in want_unsafe if "unsafe" not in by_fn.get(n, set())] + [n for n in want_safe if by_fn.get(n, set()) - {"safe"}]
+        defs = [n for c in [tree, *[c for c in tree.body if isinstance(c, ast.ClassDef)]] for n in c.body if isinstance(n, ast.FunctionDef)]
+        want_unsafe = [n.name for n in defs if n.name.startswith("unsafe_")]
+        want_safe = [n.name for n in defs if n.name.startswith("safe_") or n.name.startswith("_safe_")]
+        want_notsafe = [n.name for n in defs if n.name.startswith("notsafe_")]  # must not be accepted (unsafe or undecided)
+        bad = [n for n in want_unsafe if "unsafe" not in by_fn.get(n, set())] + [n for n in want_safe if by_fn.get(n, set()) - {"safe", "not-name", "reviewed"} or not by_fn.get(n)]
+        bad += [n for n in want_notsafe if not (by_fn.get(n, set()) & {"unsafe", "unknown"})]
         if bad:
-            raise AnalysisError(f"F-NAME fixture: idioms not classified as expected: {bad} (got {{k: sorted(v) for k, v in by_fn.items()}})".replace("{{", "{").replace("}}", "}"))
+            raise AnalysisError(f"F-NAME fixture: idioms not classified as expected: {bad} (got { {k: sorted(v) for k, v in by_fn.items() if k in bad} })")
         return f"{len(want_unsafe)} unsafe and {len(want_safe)} safe idioms of engine/fixtures/name_ops.py classified as expected"
     finally:
         shutil.rmtree(tmp, ignore_errors=True)
